@@ -8,7 +8,30 @@
 import TfelVerif.Common.M3
 import TfelVerif.C23.Spec
 import TfelVerif.C23.Lemmas
-import TfelVerif.C23.PropsN3Chains\nimport TfelVerif.C23.PropsN3_ABAQUS__C_TAU_JAUMANN\nimport TfelVerif.C23.PropsN3_ABAQUS__DTAU_DF\nimport TfelVerif.C23.PropsN3_ABAQUS__SPATIAL_MODULI\nimport TfelVerif.C23.PropsN3_C_TAU_JAUMANN__ABAQUS\nimport TfelVerif.C23.PropsN3_C_TAU_JAUMANN__DTAU_DF\nimport TfelVerif.C23.PropsN3_C_TAU_JAUMANN__SPATIAL_MODULI\nimport TfelVerif.C23.PropsN3_C_TRUESDELL__SPATIAL_MODULI\nimport TfelVerif.C23.PropsN3_DSIG_DDF__DSIG_DF\nimport TfelVerif.C23.PropsN3_DSIG_DF__DSIG_DDF\nimport TfelVerif.C23.PropsN3_DSIG_DF__DTAU_DF\nimport TfelVerif.C23.PropsN3_DS_DC__DS_DEGL\nimport TfelVerif.C23.PropsN3_DS_DEGL__DS_DC\nimport TfelVerif.C23.PropsN3_DS_DF__DS_DC\nimport TfelVerif.C23.PropsN3_DS_DF__DS_DEGL\nimport TfelVerif.C23.PropsN3_DTAU_DDF__DTAU_DF\nimport TfelVerif.C23.PropsN3_DTAU_DF__ABAQUS\nimport TfelVerif.C23.PropsN3_DTAU_DF__C_TAU_JAUMANN\nimport TfelVerif.C23.PropsN3_DTAU_DF__DTAU_DDF\nimport TfelVerif.C23.PropsN3_SPATIAL_MODULI__ABAQUS\nimport TfelVerif.C23.PropsN3_SPATIAL_MODULI__C_TAU_JAUMANN\nimport TfelVerif.C23.PropsN3_SPATIAL_MODULI__C_TRUESDELL\nimport TfelVerif.C23.PropsN3_SPATIAL_MODULI__DS_DEGL\n
+import TfelVerif.C23.PropsN3Chains
+import TfelVerif.C23.PropsN3_ABAQUS__C_TAU_JAUMANN
+import TfelVerif.C23.PropsN3_ABAQUS__DTAU_DF
+import TfelVerif.C23.PropsN3_ABAQUS__SPATIAL_MODULI
+import TfelVerif.C23.PropsN3_C_TAU_JAUMANN__ABAQUS
+import TfelVerif.C23.PropsN3_C_TAU_JAUMANN__DTAU_DF
+import TfelVerif.C23.PropsN3_C_TAU_JAUMANN__SPATIAL_MODULI
+import TfelVerif.C23.PropsN3_C_TRUESDELL__SPATIAL_MODULI
+import TfelVerif.C23.PropsN3_DSIG_DDF__DSIG_DF
+import TfelVerif.C23.PropsN3_DSIG_DF__DSIG_DDF
+import TfelVerif.C23.PropsN3_DSIG_DF__DTAU_DF
+import TfelVerif.C23.PropsN3_DS_DC__DS_DEGL
+import TfelVerif.C23.PropsN3_DS_DEGL__DS_DC
+import TfelVerif.C23.PropsN3_DS_DF__DS_DC
+import TfelVerif.C23.PropsN3_DS_DF__DS_DEGL
+import TfelVerif.C23.PropsN3_DTAU_DDF__DTAU_DF
+import TfelVerif.C23.PropsN3_DTAU_DF__ABAQUS
+import TfelVerif.C23.PropsN3_DTAU_DF__C_TAU_JAUMANN
+import TfelVerif.C23.PropsN3_DTAU_DF__DTAU_DDF
+import TfelVerif.C23.PropsN3_SPATIAL_MODULI__ABAQUS
+import TfelVerif.C23.PropsN3_SPATIAL_MODULI__C_TAU_JAUMANN
+import TfelVerif.C23.PropsN3_SPATIAL_MODULI__C_TRUESDELL
+import TfelVerif.C23.PropsN3_SPATIAL_MODULI__DS_DEGL
+
 namespace TfelVerif.C23.PropsCompose3
 open TfelVerif TfelVerif.Mandel TfelVerif.C23
 set_option linter.all false
@@ -16,4 +39,562 @@ set_option maxHeartbeats 16000000
 set_option maxRecDepth 100000
 variable {K : Type} [Field K] (c c3 : K) (fn : Fns K)
 
-/-- round trip `DS_DC → DS_DEGL → DS_DC`: converting back gives an operator with the same action (hence the same\nmeaning) as the one started from, for every variation. -/\ntheorem N3_roundtrip_DS_DC__DS_DEGL (hc : c * c = 2) (h2 : (2:K) ≠ 0)\n    (D : Nat → Nat → K) (F0 F : M3 K) (L : M3 K) (s : Nat → K)  :\n    upper (lamS F (M3.ofMandel c [s 0, s 1, s 2, s 3, s 4, s 5]) L (M3.ofMandel c (act (Gen.N3_DS_DC__DS_DEGL_r c c3 fn (matOf (Gen.N3_DS_DEGL__DS_DC_r c c3 fn D (tensv F0) (tensv F) s)) (tensv F0) (tensv F) s) (M3.mandel3 c (dC F L)))))\n      = upper (lamS F (M3.ofMandel c [s 0, s 1, s 2, s 3, s 4, s 5]) L (M3.ofMandel c (act (rowsOf D i6 i6) (M3.mandel3 c (dC F L))))) := by\n  refine (PropsN3_DS_DC__DS_DEGL.N3_DS_DC__DS_DEGL c c3 fn hc h2 ..).trans ?_\n  exact PropsN3_DS_DEGL__DS_DC.N3_DS_DEGL__DS_DC c c3 fn hc h2 ..\n\n/-- round trip `DS_DEGL → DS_DC → DS_DEGL`: converting back gives an operator with the same action (hence the same\nmeaning) as the one started from, for every variation. -/\ntheorem N3_roundtrip_DS_DEGL__DS_DC (hc : c * c = 2) (h2 : (2:K) ≠ 0)\n    (D : Nat → Nat → K) (F0 F : M3 K) (L : M3 K) (s : Nat → K)  :\n    upper (lamS F (M3.ofMandel c [s 0, s 1, s 2, s 3, s 4, s 5]) L (M3.ofMandel c (act (Gen.N3_DS_DEGL__DS_DC_r c c3 fn (matOf (Gen.N3_DS_DC__DS_DEGL_r c c3 fn D (tensv F0) (tensv F) s)) (tensv F0) (tensv F) s) (M3.mandel3 c (dE F L)))))\n      = upper (lamS F (M3.ofMandel c [s 0, s 1, s 2, s 3, s 4, s 5]) L (M3.ofMandel c (act (rowsOf D i6 i6) (M3.mandel3 c (dE F L))))) := by\n  refine (PropsN3_DS_DEGL__DS_DC.N3_DS_DEGL__DS_DC c c3 fn hc h2 ..).trans ?_\n  exact PropsN3_DS_DC__DS_DEGL.N3_DS_DC__DS_DEGL c c3 fn hc h2 ..\n\n/-- round trip `SPATIAL_MODULI → DS_DEGL → SPATIAL_MODULI`: converting back gives an operator with the same action (hence the same\nmeaning) as the one started from, for every variation. -/\ntheorem N3_roundtrip_SPATIAL_MODULI__DS_DEGL (hc : c * c = 2) (h2 : (2:K) ≠ 0)\n    (D : Nat → Nat → K) (F0 F : M3 K) (L : M3 K) (s : Nat → K) (hJ : F.det ≠ 0) :\n    upper (lamSM F (M3.ofMandel c [s 0, s 1, s 2, s 3, s 4, s 5]) L (M3.ofMandel c (act (Gen.N3_SPATIAL_MODULI__DS_DEGL_r c c3 fn (matOf (Gen.N3_DS_DEGL__SPATIAL_MODULI_r c c3 fn D (tensv F0) (tensv F) s)) (tensv F0) (tensv F) s) (M3.mandel3 c (symm L)))))\n      = upper (lamSM F (M3.ofMandel c [s 0, s 1, s 2, s 3, s 4, s 5]) L (M3.ofMandel c (act (rowsOf D i6 i6) (M3.mandel3 c (symm L))))) := by\n  refine (PropsN3_SPATIAL_MODULI__DS_DEGL.N3_SPATIAL_MODULI__DS_DEGL c c3 fn hc h2 ..).trans ?_\n  exact PropsN3Chains.N3_DS_DEGL__SPATIAL_MODULI c c3 fn hc h2 (hJ := hJ) ..\n\n/-- round trip `DS_DEGL → SPATIAL_MODULI → DS_DEGL`: converting back gives an operator with the same action (hence the same\nmeaning) as the one started from, for every variation. -/\ntheorem N3_roundtrip_DS_DEGL__SPATIAL_MODULI (hc : c * c = 2) (h2 : (2:K) ≠ 0)\n    (D : Nat → Nat → K) (F0 F : M3 K) (L : M3 K) (s : Nat → K) (hJ : F.det ≠ 0) :\n    upper (lamS F (M3.ofMandel c [s 0, s 1, s 2, s 3, s 4, s 5]) L (M3.ofMandel c (act (Gen.N3_DS_DEGL__SPATIAL_MODULI_r c c3 fn (matOf (Gen.N3_SPATIAL_MODULI__DS_DEGL_r c c3 fn D (tensv F0) (tensv F) s)) (tensv F0) (tensv F) s) (M3.mandel3 c (dE F L)))))\n      = upper (lamS F (M3.ofMandel c [s 0, s 1, s 2, s 3, s 4, s 5]) L (M3.ofMandel c (act (rowsOf D i6 i6) (M3.mandel3 c (dE F L))))) := by\n  refine (PropsN3Chains.N3_DS_DEGL__SPATIAL_MODULI c c3 fn hc h2 (hJ := hJ) ..).trans ?_\n  exact PropsN3_SPATIAL_MODULI__DS_DEGL.N3_SPATIAL_MODULI__DS_DEGL c c3 fn hc h2 ..\n\n/-- round trip `ABAQUS → SPATIAL_MODULI → ABAQUS`: converting back gives an operator with the same action (hence the same\nmeaning) as the one started from, for every variation. -/\ntheorem N3_roundtrip_ABAQUS__SPATIAL_MODULI (hc : c * c = 2) (h2 : (2:K) ≠ 0)\n    (D : Nat → Nat → K) (F0 F : M3 K) (L : M3 K) (s : Nat → K) (hJ : F.det ≠ 0) :\n    upper (lamAb F (M3.ofMandel c [s 0, s 1, s 2, s 3, s 4, s 5]) L (M3.ofMandel c (act (Gen.N3_ABAQUS__SPATIAL_MODULI_r c c3 fn (matOf (Gen.N3_SPATIAL_MODULI__ABAQUS_r c c3 fn D (tensv F0) (tensv F) s)) (tensv F0) (tensv F) s) (M3.mandel3 c (symm L)))))\n      = upper (lamAb F (M3.ofMandel c [s 0, s 1, s 2, s 3, s 4, s 5]) L (M3.ofMandel c (act (rowsOf D i6 i6) (M3.mandel3 c (symm L))))) := by\n  refine (PropsN3_ABAQUS__SPATIAL_MODULI.N3_ABAQUS__SPATIAL_MODULI c c3 fn hc h2 (hJ := hJ) ..).trans ?_\n  exact PropsN3_SPATIAL_MODULI__ABAQUS.N3_SPATIAL_MODULI__ABAQUS c c3 fn hc h2 ..\n\n/-- round trip `SPATIAL_MODULI → ABAQUS → SPATIAL_MODULI`: converting back gives an operator with the same action (hence the same\nmeaning) as the one started from, for every variation. -/\ntheorem N3_roundtrip_SPATIAL_MODULI__ABAQUS (hc : c * c = 2) (h2 : (2:K) ≠ 0)\n    (D : Nat → Nat → K) (F0 F : M3 K) (L : M3 K) (s : Nat → K) (hJ : F.det ≠ 0) :\n    upper (lamSM F (M3.ofMandel c [s 0, s 1, s 2, s 3, s 4, s 5]) L (M3.ofMandel c (act (Gen.N3_SPATIAL_MODULI__ABAQUS_r c c3 fn (matOf (Gen.N3_ABAQUS__SPATIAL_MODULI_r c c3 fn D (tensv F0) (tensv F) s)) (tensv F0) (tensv F) s) (M3.mandel3 c (symm L)))))\n      = upper (lamSM F (M3.ofMandel c [s 0, s 1, s 2, s 3, s 4, s 5]) L (M3.ofMandel c (act (rowsOf D i6 i6) (M3.mandel3 c (symm L))))) := by\n  refine (PropsN3_SPATIAL_MODULI__ABAQUS.N3_SPATIAL_MODULI__ABAQUS c c3 fn hc h2 ..).trans ?_\n  exact PropsN3_ABAQUS__SPATIAL_MODULI.N3_ABAQUS__SPATIAL_MODULI c c3 fn hc h2 (hJ := hJ) ..\n\n/-- round trip `C_TRUESDELL → SPATIAL_MODULI → C_TRUESDELL`: converting back gives an operator with the same action (hence the same\nmeaning) as the one started from, for every variation. -/\ntheorem N3_roundtrip_C_TRUESDELL__SPATIAL_MODULI (hc : c * c = 2) (h2 : (2:K) ≠ 0)\n    (D : Nat → Nat → K) (F0 F : M3 K) (L : M3 K) (s : Nat → K) (hJ : F.det ≠ 0) :\n    upper (lamTr F (M3.ofMandel c [s 0, s 1, s 2, s 3, s 4, s 5]) L (M3.ofMandel c (act (Gen.N3_C_TRUESDELL__SPATIAL_MODULI_r c c3 fn (matOf (Gen.N3_SPATIAL_MODULI__C_TRUESDELL_r c c3 fn D (tensv F0) (tensv F) s)) (tensv F0) (tensv F) s) (M3.mandel3 c (symm L)))))\n      = upper (lamTr F (M3.ofMandel c [s 0, s 1, s 2, s 3, s 4, s 5]) L (M3.ofMandel c (act (rowsOf D i6 i6) (M3.mandel3 c (symm L))))) := by\n  refine (PropsN3_C_TRUESDELL__SPATIAL_MODULI.N3_C_TRUESDELL__SPATIAL_MODULI c c3 fn hc h2 (hJ := hJ) ..).trans ?_\n  exact PropsN3_SPATIAL_MODULI__C_TRUESDELL.N3_SPATIAL_MODULI__C_TRUESDELL c c3 fn hc h2 ..\n\n/-- round trip `SPATIAL_MODULI → C_TRUESDELL → SPATIAL_MODULI`: converting back gives an operator with the same action (hence the same\nmeaning) as the one started from, for every variation. -/\ntheorem N3_roundtrip_SPATIAL_MODULI__C_TRUESDELL (hc : c * c = 2) (h2 : (2:K) ≠ 0)\n    (D : Nat → Nat → K) (F0 F : M3 K) (L : M3 K) (s : Nat → K) (hJ : F.det ≠ 0) :\n    upper (lamSM F (M3.ofMandel c [s 0, s 1, s 2, s 3, s 4, s 5]) L (M3.ofMandel c (act (Gen.N3_SPATIAL_MODULI__C_TRUESDELL_r c c3 fn (matOf (Gen.N3_C_TRUESDELL__SPATIAL_MODULI_r c c3 fn D (tensv F0) (tensv F) s)) (tensv F0) (tensv F) s) (M3.mandel3 c (symm L)))))\n      = upper (lamSM F (M3.ofMandel c [s 0, s 1, s 2, s 3, s 4, s 5]) L (M3.ofMandel c (act (rowsOf D i6 i6) (M3.mandel3 c (symm L))))) := by\n  refine (PropsN3_SPATIAL_MODULI__C_TRUESDELL.N3_SPATIAL_MODULI__C_TRUESDELL c c3 fn hc h2 ..).trans ?_\n  exact PropsN3_C_TRUESDELL__SPATIAL_MODULI.N3_C_TRUESDELL__SPATIAL_MODULI c c3 fn hc h2 (hJ := hJ) ..\n\n/-- round trip `DSIG_DDF → DSIG_DF → DSIG_DDF`: converting back gives an operator with the same action (hence the same\nmeaning) as the one started from, for every variation. -/\ntheorem N3_roundtrip_DSIG_DDF__DSIG_DF (hc : c * c = 2) (h2 : (2:K) ≠ 0)\n    (D : Nat → Nat → K) (F0 Δ : M3 K) (L : M3 K) (s : Nat → K) (hJ : F0.det ≠ 0) :\n    upper (lamSig (Δ * F0) (M3.ofMandel c [s 0, s 1, s 2, s 3, s 4, s 5]) L (M3.ofMandel c (act (Gen.N3_DSIG_DDF__DSIG_DF_r c c3 fn (matOf (Gen.N3_DSIG_DF__DSIG_DDF_r c c3 fn D (tensv F0) (tensv (Δ * F0)) s)) (tensv F0) (tensv (Δ * F0)) s) (M3.tens3 (L * Δ)))))\n      = upper (lamSig (Δ * F0) (M3.ofMandel c [s 0, s 1, s 2, s 3, s 4, s 5]) L (M3.ofMandel c (act (rowsOf D i6 i9) (M3.tens3 (L * Δ))))) := by\n  refine (PropsN3_DSIG_DDF__DSIG_DF.N3_DSIG_DDF__DSIG_DF c c3 fn hc h2 ..).trans ?_\n  exact PropsN3_DSIG_DF__DSIG_DDF.N3_DSIG_DF__DSIG_DDF c c3 fn hc h2 (hJ := hJ) ..\n\n/-- round trip `DSIG_DF → DSIG_DDF → DSIG_DF`: converting back gives an operator with the same action (hence the same\nmeaning) as the one started from, for every variation. -/\ntheorem N3_roundtrip_DSIG_DF__DSIG_DDF (hc : c * c = 2) (h2 : (2:K) ≠ 0)\n    (D : Nat → Nat → K) (F0 Δ : M3 K) (L : M3 K) (s : Nat → K) (hJ : F0.det ≠ 0) :\n    upper (lamSig (Δ * F0) (M3.ofMandel c [s 0, s 1, s 2, s 3, s 4, s 5]) L (M3.ofMandel c (act (Gen.N3_DSIG_DF__DSIG_DDF_r c c3 fn (matOf (Gen.N3_DSIG_DDF__DSIG_DF_r c c3 fn D (tensv F0) (tensv (Δ * F0)) s)) (tensv F0) (tensv (Δ * F0)) s) (M3.tens3 (L * (Δ * F0))))))\n      = upper (lamSig (Δ * F0) (M3.ofMandel c [s 0, s 1, s 2, s 3, s 4, s 5]) L (M3.ofMandel c (act (rowsOf D i6 i9) (M3.tens3 (L * (Δ * F0)))))) := by\n  refine (PropsN3_DSIG_DF__DSIG_DDF.N3_DSIG_DF__DSIG_DDF c c3 fn hc h2 (hJ := hJ) ..).trans ?_\n  exact PropsN3_DSIG_DDF__DSIG_DF.N3_DSIG_DDF__DSIG_DF c c3 fn hc h2 ..\n\n/-- round trip `DTAU_DDF → DTAU_DF → DTAU_DDF`: converting back gives an operator with the same action (hence the same\nmeaning) as the one started from, for every variation. -/\ntheorem N3_roundtrip_DTAU_DDF__DTAU_DF (hc : c * c = 2) (h2 : (2:K) ≠ 0)\n    (D : Nat → Nat → K) (F0 Δ : M3 K) (L : M3 K) (s : Nat → K) (hJ : F0.det ≠ 0) :\n    upper (lamTau (Δ * F0) (M3.ofMandel c [s 0, s 1, s 2, s 3, s 4, s 5]) L (M3.ofMandel c (act (Gen.N3_DTAU_DDF__DTAU_DF_r c c3 fn (matOf (Gen.N3_DTAU_DF__DTAU_DDF_r c c3 fn D (tensv F0) (tensv (Δ * F0)) s)) (tensv F0) (tensv (Δ * F0)) s) (M3.tens3 (L * Δ)))))\n      = upper (lamTau (Δ * F0) (M3.ofMandel c [s 0, s 1, s 2, s 3, s 4, s 5]) L (M3.ofMandel c (act (rowsOf D i6 i9) (M3.tens3 (L * Δ))))) := by\n  refine (PropsN3_DTAU_DDF__DTAU_DF.N3_DTAU_DDF__DTAU_DF c c3 fn hc h2 ..).trans ?_\n  exact PropsN3_DTAU_DF__DTAU_DDF.N3_DTAU_DF__DTAU_DDF c c3 fn hc h2 (hJ := hJ) ..\n\n/-- round trip `DTAU_DF → DTAU_DDF → DTAU_DF`: converting back gives an operator with the same action (hence the same\nmeaning) as the one started from, for every variation. -/\ntheorem N3_roundtrip_DTAU_DF__DTAU_DDF (hc : c * c = 2) (h2 : (2:K) ≠ 0)\n    (D : Nat → Nat → K) (F0 Δ : M3 K) (L : M3 K) (s : Nat → K) (hJ : F0.det ≠ 0) :\n    upper (lamTau (Δ * F0) (M3.ofMandel c [s 0, s 1, s 2, s 3, s 4, s 5]) L (M3.ofMandel c (act (Gen.N3_DTAU_DF__DTAU_DDF_r c c3 fn (matOf (Gen.N3_DTAU_DDF__DTAU_DF_r c c3 fn D (tensv F0) (tensv (Δ * F0)) s)) (tensv F0) (tensv (Δ * F0)) s) (M3.tens3 (L * (Δ * F0))))))\n      = upper (lamTau (Δ * F0) (M3.ofMandel c [s 0, s 1, s 2, s 3, s 4, s 5]) L (M3.ofMandel c (act (rowsOf D i6 i9) (M3.tens3 (L * (Δ * F0)))))) := by\n  refine (PropsN3_DTAU_DF__DTAU_DDF.N3_DTAU_DF__DTAU_DDF c c3 fn hc h2 (hJ := hJ) ..).trans ?_\n  exact PropsN3_DTAU_DDF__DTAU_DF.N3_DTAU_DDF__DTAU_DF c c3 fn hc h2 ..\n\n/-- round trip `SPATIAL_MODULI → DTAU_DF → SPATIAL_MODULI`: converting back gives an operator with the same action (hence the same\nmeaning) as the one started from, for every variation. -/\ntheorem N3_roundtrip_SPATIAL_MODULI__DTAU_DF (hc : c * c = 2) (h2 : (2:K) ≠ 0)\n    (D : Nat → Nat → K) (F0 F : M3 K) (l00 l11 l22 l01 l02 l12 : K) (s : Nat → K) (hJ : F.det ≠ 0) :\n    upper (lamSM F (M3.ofMandel c [s 0, s 1, s 2, s 3, s 4, s 5]) (M3.sym l00 l11 l22 l01 l02 l12) (M3.ofMandel c (act (Gen.N3_SPATIAL_MODULI__DTAU_DF_r c c3 fn (matOf (Gen.N3_DTAU_DF__SPATIAL_MODULI_r c c3 fn D (tensv F0) (tensv F) s)) (tensv F0) (tensv F) s) (M3.mandel3 c (symm (M3.sym l00 l11 l22 l01 l02 l12))))))\n      = upper (lamSM F (M3.ofMandel c [s 0, s 1, s 2, s 3, s 4, s 5]) (M3.sym l00 l11 l22 l01 l02 l12) (M3.ofMandel c (act (rowsOf D i6 i6) (M3.mandel3 c (symm (M3.sym l00 l11 l22 l01 l02 l12)))))) := by\n  refine (PropsN3Chains.N3_SPATIAL_MODULI__DTAU_DF c c3 fn hc h2 ..).trans ?_\n  exact PropsN3Chains.N3_DTAU_DF__SPATIAL_MODULI c c3 fn hc h2 (hJ := hJ) ..\n\n/-- round trip `C_TAU_JAUMANN → DTAU_DF → C_TAU_JAUMANN`: converting back gives an operator with the same action (hence the same\nmeaning) as the one started from, for every variation. -/\ntheorem N3_roundtrip_C_TAU_JAUMANN__DTAU_DF (hc : c * c = 2) (h2 : (2:K) ≠ 0)\n    (D : Nat → Nat → K) (F0 F : M3 K) (l00 l11 l22 l01 l02 l12 : K) (s : Nat → K) (hJ : F.det ≠ 0) :\n    upper (lamJ F (M3.ofMandel c [s 0, s 1, s 2, s 3, s 4, s 5]) (M3.sym l00 l11 l22 l01 l02 l12) (M3.ofMandel c (act (Gen.N3_C_TAU_JAUMANN__DTAU_DF_r c c3 fn (matOf (Gen.N3_DTAU_DF__C_TAU_JAUMANN_r c c3 fn D (tensv F0) (tensv F) s)) (tensv F0) (tensv F) s) (M3.mandel3 c (symm (M3.sym l00 l11 l22 l01 l02 l12))))))\n      = upper (lamJ F (M3.ofMandel c [s 0, s 1, s 2, s 3, s 4, s 5]) (M3.sym l00 l11 l22 l01 l02 l12) (M3.ofMandel c (act (rowsOf D i6 i6) (M3.mandel3 c (symm (M3.sym l00 l11 l22 l01 l02 l12)))))) := by\n  refine (PropsN3_C_TAU_JAUMANN__DTAU_DF.N3_C_TAU_JAUMANN__DTAU_DF c c3 fn hc h2 ..).trans ?_\n  exact PropsN3_DTAU_DF__C_TAU_JAUMANN.N3_DTAU_DF__C_TAU_JAUMANN c c3 fn hc h2 (hJ := hJ) ..\n\n/-- round trip `ABAQUS → C_TAU_JAUMANN → ABAQUS`: converting back gives an operator with the same action (hence the same\nmeaning) as the one started from, for every variation. -/\ntheorem N3_roundtrip_ABAQUS__C_TAU_JAUMANN (hc : c * c = 2) (h2 : (2:K) ≠ 0)\n    (D : Nat → Nat → K) (F0 F : M3 K) (L : M3 K) (s : Nat → K) (hJ : F.det ≠ 0) :\n    upper (lamAb F (M3.ofMandel c [s 0, s 1, s 2, s 3, s 4, s 5]) L (M3.ofMandel c (act (Gen.N3_ABAQUS__C_TAU_JAUMANN_r c c3 fn (matOf (Gen.N3_C_TAU_JAUMANN__ABAQUS_r c c3 fn D (tensv F0) (tensv F) s)) (tensv F0) (tensv F) s) (M3.mandel3 c (symm L)))))\n      = upper (lamAb F (M3.ofMandel c [s 0, s 1, s 2, s 3, s 4, s 5]) L (M3.ofMandel c (act (rowsOf D i6 i6) (M3.mandel3 c (symm L))))) := by\n  refine (PropsN3_ABAQUS__C_TAU_JAUMANN.N3_ABAQUS__C_TAU_JAUMANN c c3 fn hc h2 (hJ := hJ) ..).trans ?_\n  exact PropsN3_C_TAU_JAUMANN__ABAQUS.N3_C_TAU_JAUMANN__ABAQUS c c3 fn hc h2 ..\n\n/-- round trip `C_TAU_JAUMANN → ABAQUS → C_TAU_JAUMANN`: converting back gives an operator with the same action (hence the same\nmeaning) as the one started from, for every variation. -/\ntheorem N3_roundtrip_C_TAU_JAUMANN__ABAQUS (hc : c * c = 2) (h2 : (2:K) ≠ 0)\n    (D : Nat → Nat → K) (F0 F : M3 K) (L : M3 K) (s : Nat → K) (hJ : F.det ≠ 0) :\n    upper (lamJ F (M3.ofMandel c [s 0, s 1, s 2, s 3, s 4, s 5]) L (M3.ofMandel c (act (Gen.N3_C_TAU_JAUMANN__ABAQUS_r c c3 fn (matOf (Gen.N3_ABAQUS__C_TAU_JAUMANN_r c c3 fn D (tensv F0) (tensv F) s)) (tensv F0) (tensv F) s) (M3.mandel3 c (symm L)))))\n      = upper (lamJ F (M3.ofMandel c [s 0, s 1, s 2, s 3, s 4, s 5]) L (M3.ofMandel c (act (rowsOf D i6 i6) (M3.mandel3 c (symm L))))) := by\n  refine (PropsN3_C_TAU_JAUMANN__ABAQUS.N3_C_TAU_JAUMANN__ABAQUS c c3 fn hc h2 ..).trans ?_\n  exact PropsN3_ABAQUS__C_TAU_JAUMANN.N3_ABAQUS__C_TAU_JAUMANN c c3 fn hc h2 (hJ := hJ) ..\n\n/-- round trip `C_TAU_JAUMANN → SPATIAL_MODULI → C_TAU_JAUMANN`: converting back gives an operator with the same action (hence the same\nmeaning) as the one started from, for every variation. -/\ntheorem N3_roundtrip_C_TAU_JAUMANN__SPATIAL_MODULI (hc : c * c = 2) (h2 : (2:K) ≠ 0)\n    (D : Nat → Nat → K) (F0 F : M3 K) (L : M3 K) (s : Nat → K)  :\n    upper (lamJ F (M3.ofMandel c [s 0, s 1, s 2, s 3, s 4, s 5]) L (M3.ofMandel c (act (Gen.N3_C_TAU_JAUMANN__SPATIAL_MODULI_r c c3 fn (matOf (Gen.N3_SPATIAL_MODULI__C_TAU_JAUMANN_r c c3 fn D (tensv F0) (tensv F) s)) (tensv F0) (tensv F) s) (M3.mandel3 c (symm L)))))\n      = upper (lamJ F (M3.ofMandel c [s 0, s 1, s 2, s 3, s 4, s 5]) L (M3.ofMandel c (act (rowsOf D i6 i6) (M3.mandel3 c (symm L))))) := by\n  refine (PropsN3_C_TAU_JAUMANN__SPATIAL_MODULI.N3_C_TAU_JAUMANN__SPATIAL_MODULI c c3 fn hc h2 ..).trans ?_\n  exact PropsN3_SPATIAL_MODULI__C_TAU_JAUMANN.N3_SPATIAL_MODULI__C_TAU_JAUMANN c c3 fn hc h2 ..\n\n/-- round trip `SPATIAL_MODULI → C_TAU_JAUMANN → SPATIAL_MODULI`: converting back gives an operator with the same action (hence the same\nmeaning) as the one started from, for every variation. -/\ntheorem N3_roundtrip_SPATIAL_MODULI__C_TAU_JAUMANN (hc : c * c = 2) (h2 : (2:K) ≠ 0)\n    (D : Nat → Nat → K) (F0 F : M3 K) (L : M3 K) (s : Nat → K)  :\n    upper (lamSM F (M3.ofMandel c [s 0, s 1, s 2, s 3, s 4, s 5]) L (M3.ofMandel c (act (Gen.N3_SPATIAL_MODULI__C_TAU_JAUMANN_r c c3 fn (matOf (Gen.N3_C_TAU_JAUMANN__SPATIAL_MODULI_r c c3 fn D (tensv F0) (tensv F) s)) (tensv F0) (tensv F) s) (M3.mandel3 c (symm L)))))\n      = upper (lamSM F (M3.ofMandel c [s 0, s 1, s 2, s 3, s 4, s 5]) L (M3.ofMandel c (act (rowsOf D i6 i6) (M3.mandel3 c (symm L))))) := by\n  refine (PropsN3_SPATIAL_MODULI__C_TAU_JAUMANN.N3_SPATIAL_MODULI__C_TAU_JAUMANN c c3 fn hc h2 ..).trans ?_\n  exact PropsN3_C_TAU_JAUMANN__SPATIAL_MODULI.N3_C_TAU_JAUMANN__SPATIAL_MODULI c c3 fn hc h2 ..\n\n/-- round trip `ABAQUS → DTAU_DF → ABAQUS`: converting back gives an operator with the same action (hence the same\nmeaning) as the one started from, for every variation. -/\ntheorem N3_roundtrip_ABAQUS__DTAU_DF (hc : c * c = 2) (h2 : (2:K) ≠ 0)\n    (D : Nat → Nat → K) (F0 F : M3 K) (l00 l11 l22 l01 l02 l12 : K) (s : Nat → K) (hJ : F.det ≠ 0) :\n    upper (lamAb F (M3.ofMandel c [s 0, s 1, s 2, s 3, s 4, s 5]) (M3.sym l00 l11 l22 l01 l02 l12) (M3.ofMandel c (act (Gen.N3_ABAQUS__DTAU_DF_r c c3 fn (matOf (Gen.N3_DTAU_DF__ABAQUS_r c c3 fn D (tensv F0) (tensv F) s)) (tensv F0) (tensv F) s) (M3.mandel3 c (symm (M3.sym l00 l11 l22 l01 l02 l12))))))\n      = upper (lamAb F (M3.ofMandel c [s 0, s 1, s 2, s 3, s 4, s 5]) (M3.sym l00 l11 l22 l01 l02 l12) (M3.ofMandel c (act (rowsOf D i6 i6) (M3.mandel3 c (symm (M3.sym l00 l11 l22 l01 l02 l12)))))) := by\n  refine (PropsN3_ABAQUS__DTAU_DF.N3_ABAQUS__DTAU_DF c c3 fn hc h2 (hJ := hJ) ..).trans ?_\n  exact PropsN3_DTAU_DF__ABAQUS.N3_DTAU_DF__ABAQUS c c3 fn hc h2 (hJ := hJ) ..\n\n/-- round trip `DTAU_DF → C_TAU_JAUMANN → DTAU_DF`: converting back gives an operator with the same action (hence the same\nmeaning) as the one started from, for every variation. -/\ntheorem N3_roundtrip_DTAU_DF__C_TAU_JAUMANN (hc : c * c = 2) (h2 : (2:K) ≠ 0)\n    (D : Nat → Nat → K) (F0 F : M3 K) (l00 l11 l22 l01 l02 l12 : K) (s : Nat → K) (hJ : F.det ≠ 0) :\n    upper (lamTau F (M3.ofMandel c [s 0, s 1, s 2, s 3, s 4, s 5]) (M3.sym l00 l11 l22 l01 l02 l12) (M3.ofMandel c (act (Gen.N3_DTAU_DF__C_TAU_JAUMANN_r c c3 fn (matOf (Gen.N3_C_TAU_JAUMANN__DTAU_DF_r c c3 fn D (tensv F0) (tensv F) s)) (tensv F0) (tensv F) s) (M3.tens3 ((M3.sym l00 l11 l22 l01 l02 l12) * F)))))\n      = upper (lamTau F (M3.ofMandel c [s 0, s 1, s 2, s 3, s 4, s 5]) (M3.sym l00 l11 l22 l01 l02 l12) (M3.ofMandel c (act (rowsOf D i6 i9) (M3.tens3 ((M3.sym l00 l11 l22 l01 l02 l12) * F))))) := by\n  refine (PropsN3_DTAU_DF__C_TAU_JAUMANN.N3_DTAU_DF__C_TAU_JAUMANN c c3 fn hc h2 (hJ := hJ) ..).trans ?_\n  exact PropsN3_C_TAU_JAUMANN__DTAU_DF.N3_C_TAU_JAUMANN__DTAU_DF c c3 fn hc h2 ..\n\n/-- round trip `DTAU_DF → ABAQUS → DTAU_DF`: converting back gives an operator with the same action (hence the same\nmeaning) as the one started from, for every variation. -/\ntheorem N3_roundtrip_DTAU_DF__ABAQUS (hc : c * c = 2) (h2 : (2:K) ≠ 0)\n    (D : Nat → Nat → K) (F0 F : M3 K) (l00 l11 l22 l01 l02 l12 : K) (s : Nat → K) (hJ : F.det ≠ 0) :\n    upper (lamTau F (M3.ofMandel c [s 0, s 1, s 2, s 3, s 4, s 5]) (M3.sym l00 l11 l22 l01 l02 l12) (M3.ofMandel c (act (Gen.N3_DTAU_DF__ABAQUS_r c c3 fn (matOf (Gen.N3_ABAQUS__DTAU_DF_r c c3 fn D (tensv F0) (tensv F) s)) (tensv F0) (tensv F) s) (M3.tens3 ((M3.sym l00 l11 l22 l01 l02 l12) * F)))))\n      = upper (lamTau F (M3.ofMandel c [s 0, s 1, s 2, s 3, s 4, s 5]) (M3.sym l00 l11 l22 l01 l02 l12) (M3.ofMandel c (act (rowsOf D i6 i9) (M3.tens3 ((M3.sym l00 l11 l22 l01 l02 l12) * F))))) := by\n  refine (PropsN3_DTAU_DF__ABAQUS.N3_DTAU_DF__ABAQUS c c3 fn hc h2 (hJ := hJ) ..).trans ?_\n  exact PropsN3_ABAQUS__DTAU_DF.N3_ABAQUS__DTAU_DF c c3 fn hc h2 (hJ := hJ) ..\n\n/-- round trip `DTAU_DF → SPATIAL_MODULI → DTAU_DF`: converting back gives an operator with the same action (hence the same\nmeaning) as the one started from, for every variation. -/\ntheorem N3_roundtrip_DTAU_DF__SPATIAL_MODULI (hc : c * c = 2) (h2 : (2:K) ≠ 0)\n    (D : Nat → Nat → K) (F0 F : M3 K) (l00 l11 l22 l01 l02 l12 : K) (s : Nat → K) (hJ : F.det ≠ 0) :\n    upper (lamTau F (M3.ofMandel c [s 0, s 1, s 2, s 3, s 4, s 5]) (M3.sym l00 l11 l22 l01 l02 l12) (M3.ofMandel c (act (Gen.N3_DTAU_DF__SPATIAL_MODULI_r c c3 fn (matOf (Gen.N3_SPATIAL_MODULI__DTAU_DF_r c c3 fn D (tensv F0) (tensv F) s)) (tensv F0) (tensv F) s) (M3.tens3 ((M3.sym l00 l11 l22 l01 l02 l12) * F)))))\n      = upper (lamTau F (M3.ofMandel c [s 0, s 1, s 2, s 3, s 4, s 5]) (M3.sym l00 l11 l22 l01 l02 l12) (M3.ofMandel c (act (rowsOf D i6 i9) (M3.tens3 ((M3.sym l00 l11 l22 l01 l02 l12) * F))))) := by\n  refine (PropsN3Chains.N3_DTAU_DF__SPATIAL_MODULI c c3 fn hc h2 (hJ := hJ) ..).trans ?_\n  exact PropsN3Chains.N3_SPATIAL_MODULI__DTAU_DF c c3 fn hc h2 ..\n\n/-- conversions compose: `DS_DF ← DS_DC ← DS_DEGL` acts as the direct `DS_DF ← DS_DEGL`, for every variation. -/\ntheorem N3_compose_DS_DF__DS_DC__DS_DEGL (hc : c * c = 2) (h2 : (2:K) ≠ 0)\n    (D : Nat → Nat → K) (F0 F : M3 K) (L : M3 K) (s : Nat → K)  :\n    upper (lamS F (M3.ofMandel c [s 0, s 1, s 2, s 3, s 4, s 5]) L (M3.ofMandel c (act (Gen.N3_DS_DF__DS_DC_r c c3 fn (matOf (Gen.N3_DS_DC__DS_DEGL_r c c3 fn D (tensv F0) (tensv F) s)) (tensv F0) (tensv F) s) (M3.tens3 (L * F)))))\n      = upper (lamS F (M3.ofMandel c [s 0, s 1, s 2, s 3, s 4, s 5]) L (M3.ofMandel c (act (Gen.N3_DS_DF__DS_DEGL_r c c3 fn D (tensv F0) (tensv F) s) (M3.tens3 (L * F))))) := by\n  refine (PropsN3_DS_DF__DS_DC.N3_DS_DF__DS_DC c c3 fn hc h2 ..).trans ?_\n  refine (PropsN3_DS_DC__DS_DEGL.N3_DS_DC__DS_DEGL c c3 fn hc h2 ..).trans ?_\n  exact (PropsN3_DS_DF__DS_DEGL.N3_DS_DF__DS_DEGL c c3 fn hc h2 ..).symm\n\n/-- conversions compose: `DS_DF ← DS_DEGL ← DS_DC` acts as the direct `DS_DF ← DS_DC`, for every variation. -/\ntheorem N3_compose_DS_DF__DS_DEGL__DS_DC (hc : c * c = 2) (h2 : (2:K) ≠ 0)\n    (D : Nat → Nat → K) (F0 F : M3 K) (L : M3 K) (s : Nat → K)  :\n    upper (lamS F (M3.ofMandel c [s 0, s 1, s 2, s 3, s 4, s 5]) L (M3.ofMandel c (act (Gen.N3_DS_DF__DS_DEGL_r c c3 fn (matOf (Gen.N3_DS_DEGL__DS_DC_r c c3 fn D (tensv F0) (tensv F) s)) (tensv F0) (tensv F) s) (M3.tens3 (L * F)))))\n      = upper (lamS F (M3.ofMandel c [s 0, s 1, s 2, s 3, s 4, s 5]) L (M3.ofMandel c (act (Gen.N3_DS_DF__DS_DC_r c c3 fn D (tensv F0) (tensv F) s) (M3.tens3 (L * F))))) := by\n  refine (PropsN3_DS_DF__DS_DEGL.N3_DS_DF__DS_DEGL c c3 fn hc h2 ..).trans ?_\n  refine (PropsN3_DS_DEGL__DS_DC.N3_DS_DEGL__DS_DC c c3 fn hc h2 ..).trans ?_\n  exact (PropsN3_DS_DF__DS_DC.N3_DS_DF__DS_DC c c3 fn hc h2 ..).symm\n\n/-- conversions compose: `ABAQUS ← SPATIAL_MODULI ← DS_DEGL` acts as the direct `ABAQUS ← DS_DEGL`, for every variation. -/\ntheorem N3_compose_ABAQUS__SPATIAL_MODULI__DS_DEGL (hc : c * c = 2) (h2 : (2:K) ≠ 0)\n    (D : Nat → Nat → K) (F0 F : M3 K) (L : M3 K) (s : Nat → K) (hJ : F.det ≠ 0) :\n    upper (lamAb F (M3.ofMandel c [s 0, s 1, s 2, s 3, s 4, s 5]) L (M3.ofMandel c (act (Gen.N3_ABAQUS__SPATIAL_MODULI_r c c3 fn (matOf (Gen.N3_SPATIAL_MODULI__DS_DEGL_r c c3 fn D (tensv F0) (tensv F) s)) (tensv F0) (tensv F) s) (M3.mandel3 c (symm L)))))\n      = upper (lamAb F (M3.ofMandel c [s 0, s 1, s 2, s 3, s 4, s 5]) L (M3.ofMandel c (act (Gen.N3_ABAQUS__DS_DEGL_r c c3 fn D (tensv F0) (tensv F) s) (M3.mandel3 c (symm L))))) := by\n  refine (PropsN3_ABAQUS__SPATIAL_MODULI.N3_ABAQUS__SPATIAL_MODULI c c3 fn hc h2 (hJ := hJ) ..).trans ?_\n  refine (PropsN3_SPATIAL_MODULI__DS_DEGL.N3_SPATIAL_MODULI__DS_DEGL c c3 fn hc h2 ..).trans ?_\n  exact (PropsN3Chains.N3_ABAQUS__DS_DEGL c c3 fn hc h2 (hJ := hJ) ..).symm\n\n/-- conversions compose: `ABAQUS ← SPATIAL_MODULI ← DTAU_DF` acts as the direct `ABAQUS ← DTAU_DF`, for every variation. -/\ntheorem N3_compose_ABAQUS__SPATIAL_MODULI__DTAU_DF (hc : c * c = 2) (h2 : (2:K) ≠ 0)\n    (D : Nat → Nat → K) (F0 F : M3 K) (l00 l11 l22 l01 l02 l12 : K) (s : Nat → K) (hJ : F.det ≠ 0) :\n    upper (lamAb F (M3.ofMandel c [s 0, s 1, s 2, s 3, s 4, s 5]) (M3.sym l00 l11 l22 l01 l02 l12) (M3.ofMandel c (act (Gen.N3_ABAQUS__SPATIAL_MODULI_r c c3 fn (matOf (Gen.N3_SPATIAL_MODULI__DTAU_DF_r c c3 fn D (tensv F0) (tensv F) s)) (tensv F0) (tensv F) s) (M3.mandel3 c (symm (M3.sym l00 l11 l22 l01 l02 l12))))))\n      = upper (lamAb F (M3.ofMandel c [s 0, s 1, s 2, s 3, s 4, s 5]) (M3.sym l00 l11 l22 l01 l02 l12) (M3.ofMandel c (act (Gen.N3_ABAQUS__DTAU_DF_r c c3 fn D (tensv F0) (tensv F) s) (M3.mandel3 c (symm (M3.sym l00 l11 l22 l01 l02 l12)))))) := by\n  refine (PropsN3_ABAQUS__SPATIAL_MODULI.N3_ABAQUS__SPATIAL_MODULI c c3 fn hc h2 (hJ := hJ) ..).trans ?_\n  refine (PropsN3Chains.N3_SPATIAL_MODULI__DTAU_DF c c3 fn hc h2 ..).trans ?_\n  exact (PropsN3_ABAQUS__DTAU_DF.N3_ABAQUS__DTAU_DF c c3 fn hc h2 (hJ := hJ) ..).symm\n\n/-- conversions compose: `ABAQUS ← SPATIAL_MODULI ← C_TAU_JAUMANN` acts as the direct `ABAQUS ← C_TAU_JAUMANN`, for every variation. -/\ntheorem N3_compose_ABAQUS__SPATIAL_MODULI__C_TAU_JAUMANN (hc : c * c = 2) (h2 : (2:K) ≠ 0)\n    (D : Nat → Nat → K) (F0 F : M3 K) (L : M3 K) (s : Nat → K) (hJ : F.det ≠ 0) :\n    upper (lamAb F (M3.ofMandel c [s 0, s 1, s 2, s 3, s 4, s 5]) L (M3.ofMandel c (act (Gen.N3_ABAQUS__SPATIAL_MODULI_r c c3 fn (matOf (Gen.N3_SPATIAL_MODULI__C_TAU_JAUMANN_r c c3 fn D (tensv F0) (tensv F) s)) (tensv F0) (tensv F) s) (M3.mandel3 c (symm L)))))\n      = upper (lamAb F (M3.ofMandel c [s 0, s 1, s 2, s 3, s 4, s 5]) L (M3.ofMandel c (act (Gen.N3_ABAQUS__C_TAU_JAUMANN_r c c3 fn D (tensv F0) (tensv F) s) (M3.mandel3 c (symm L))))) := by\n  refine (PropsN3_ABAQUS__SPATIAL_MODULI.N3_ABAQUS__SPATIAL_MODULI c c3 fn hc h2 (hJ := hJ) ..).trans ?_\n  refine (PropsN3_SPATIAL_MODULI__C_TAU_JAUMANN.N3_SPATIAL_MODULI__C_TAU_JAUMANN c c3 fn hc h2 ..).trans ?_\n  exact (PropsN3_ABAQUS__C_TAU_JAUMANN.N3_ABAQUS__C_TAU_JAUMANN c c3 fn hc h2 (hJ := hJ) ..).symm\n\n/-- conversions compose: `ABAQUS ← DS_DEGL ← SPATIAL_MODULI` acts as the direct `ABAQUS ← SPATIAL_MODULI`, for every variation. -/\ntheorem N3_compose_ABAQUS__DS_DEGL__SPATIAL_MODULI (hc : c * c = 2) (h2 : (2:K) ≠ 0)\n    (D : Nat → Nat → K) (F0 F : M3 K) (L : M3 K) (s : Nat → K) (hJ : F.det ≠ 0) :\n    upper (lamAb F (M3.ofMandel c [s 0, s 1, s 2, s 3, s 4, s 5]) L (M3.ofMandel c (act (Gen.N3_ABAQUS__DS_DEGL_r c c3 fn (matOf (Gen.N3_DS_DEGL__SPATIAL_MODULI_r c c3 fn D (tensv F0) (tensv F) s)) (tensv F0) (tensv F) s) (M3.mandel3 c (symm L)))))\n      = upper (lamAb F (M3.ofMandel c [s 0, s 1, s 2, s 3, s 4, s 5]) L (M3.ofMandel c (act (Gen.N3_ABAQUS__SPATIAL_MODULI_r c c3 fn D (tensv F0) (tensv F) s) (M3.mandel3 c (symm L))))) := by\n  refine (PropsN3Chains.N3_ABAQUS__DS_DEGL c c3 fn hc h2 (hJ := hJ) ..).trans ?_\n  refine (PropsN3Chains.N3_DS_DEGL__SPATIAL_MODULI c c3 fn hc h2 (hJ := hJ) ..).trans ?_\n  exact (PropsN3_ABAQUS__SPATIAL_MODULI.N3_ABAQUS__SPATIAL_MODULI c c3 fn hc h2 (hJ := hJ) ..).symm\n\n/-- conversions compose: `DSIG_DF ← C_TRUESDELL ← DS_DEGL` acts as the direct `DSIG_DF ← DS_DEGL`, for every variation. -/\ntheorem N3_compose_DSIG_DF__C_TRUESDELL__DS_DEGL (hc : c * c = 2) (h2 : (2:K) ≠ 0)\n    (D : Nat → Nat → K) (F0 F : M3 K) (L : M3 K) (s : Nat → K) (hJ : F.det ≠ 0) :\n    upper (lamSig F (M3.ofMandel c [s 0, s 1, s 2, s 3, s 4, s 5]) L (M3.ofMandel c (act (Gen.N3_DSIG_DF__C_TRUESDELL_r c c3 fn (matOf (Gen.N3_C_TRUESDELL__DS_DEGL_r c c3 fn D (tensv F0) (tensv F) s)) (tensv F0) (tensv F) s) (M3.tens3 (L * F)))))\n      = upper (lamSig F (M3.ofMandel c [s 0, s 1, s 2, s 3, s 4, s 5]) L (M3.ofMandel c (act (Gen.N3_DSIG_DF__DS_DEGL_r c c3 fn D (tensv F0) (tensv F) s) (M3.tens3 (L * F))))) := by\n  refine (PropsN3Chains.N3_DSIG_DF__C_TRUESDELL c c3 fn hc h2 (hJ := hJ) ..).trans ?_\n  refine (PropsN3Chains.N3_C_TRUESDELL__DS_DEGL c c3 fn hc h2 (hJ := hJ) ..).trans ?_\n  exact (PropsN3Chains.N3_DSIG_DF__DS_DEGL c c3 fn hc h2 (hJ := hJ) ..).symm\n\n/-- conversions compose: `DSIG_DF ← C_TRUESDELL ← DTAU_DF` acts as the direct `DSIG_DF ← DTAU_DF`, for every variation. -/\ntheorem N3_compose_DSIG_DF__C_TRUESDELL__DTAU_DF (hc : c * c = 2) (h2 : (2:K) ≠ 0)\n    (D : Nat → Nat → K) (F0 F : M3 K) (l00 l11 l22 l01 l02 l12 : K) (s : Nat → K) (hJ : F.det ≠ 0) :\n    upper (lamSig F (M3.ofMandel c [s 0, s 1, s 2, s 3, s 4, s 5]) (M3.sym l00 l11 l22 l01 l02 l12) (M3.ofMandel c (act (Gen.N3_DSIG_DF__C_TRUESDELL_r c c3 fn (matOf (Gen.N3_C_TRUESDELL__DTAU_DF_r c c3 fn D (tensv F0) (tensv F) s)) (tensv F0) (tensv F) s) (M3.tens3 ((M3.sym l00 l11 l22 l01 l02 l12) * F)))))\n      = upper (lamSig F (M3.ofMandel c [s 0, s 1, s 2, s 3, s 4, s 5]) (M3.sym l00 l11 l22 l01 l02 l12) (M3.ofMandel c (act (Gen.N3_DSIG_DF__DTAU_DF_r c c3 fn D (tensv F0) (tensv F) s) (M3.tens3 ((M3.sym l00 l11 l22 l01 l02 l12) * F))))) := by\n  refine (PropsN3Chains.N3_DSIG_DF__C_TRUESDELL c c3 fn hc h2 (hJ := hJ) ..).trans ?_\n  refine (PropsN3Chains.N3_C_TRUESDELL__DTAU_DF c c3 fn hc h2 (hJ := hJ) ..).trans ?_\n  exact (PropsN3_DSIG_DF__DTAU_DF.N3_DSIG_DF__DTAU_DF c c3 fn hc h2 (hJ := hJ) ..).symm\n\n/-- conversions compose: `SPATIAL_MODULI ← ABAQUS ← DS_DEGL` acts as the direct `SPATIAL_MODULI ← DS_DEGL`, for every variation. -/\ntheorem N3_compose_SPATIAL_MODULI__ABAQUS__DS_DEGL (hc : c * c = 2) (h2 : (2:K) ≠ 0)\n    (D : Nat → Nat → K) (F0 F : M3 K) (L : M3 K) (s : Nat → K) (hJ : F.det ≠ 0) :\n    upper (lamSM F (M3.ofMandel c [s 0, s 1, s 2, s 3, s 4, s 5]) L (M3.ofMandel c (act (Gen.N3_SPATIAL_MODULI__ABAQUS_r c c3 fn (matOf (Gen.N3_ABAQUS__DS_DEGL_r c c3 fn D (tensv F0) (tensv F) s)) (tensv F0) (tensv F) s) (M3.mandel3 c (symm L)))))\n      = upper (lamSM F (M3.ofMandel c [s 0, s 1, s 2, s 3, s 4, s 5]) L (M3.ofMandel c (act (Gen.N3_SPATIAL_MODULI__DS_DEGL_r c c3 fn D (tensv F0) (tensv F) s) (M3.mandel3 c (symm L))))) := by\n  refine (PropsN3_SPATIAL_MODULI__ABAQUS.N3_SPATIAL_MODULI__ABAQUS c c3 fn hc h2 ..).trans ?_\n  refine (PropsN3Chains.N3_ABAQUS__DS_DEGL c c3 fn hc h2 (hJ := hJ) ..).trans ?_\n  exact (PropsN3_SPATIAL_MODULI__DS_DEGL.N3_SPATIAL_MODULI__DS_DEGL c c3 fn hc h2 ..).symm\n\n/-- conversions compose: `SPATIAL_MODULI ← ABAQUS ← C_TAU_JAUMANN` acts as the direct `SPATIAL_MODULI ← C_TAU_JAUMANN`, for every variation. -/\ntheorem N3_compose_SPATIAL_MODULI__ABAQUS__C_TAU_JAUMANN (hc : c * c = 2) (h2 : (2:K) ≠ 0)\n    (D : Nat → Nat → K) (F0 F : M3 K) (L : M3 K) (s : Nat → K) (hJ : F.det ≠ 0) :\n    upper (lamSM F (M3.ofMandel c [s 0, s 1, s 2, s 3, s 4, s 5]) L (M3.ofMandel c (act (Gen.N3_SPATIAL_MODULI__ABAQUS_r c c3 fn (matOf (Gen.N3_ABAQUS__C_TAU_JAUMANN_r c c3 fn D (tensv F0) (tensv F) s)) (tensv F0) (tensv F) s) (M3.mandel3 c (symm L)))))\n      = upper (lamSM F (M3.ofMandel c [s 0, s 1, s 2, s 3, s 4, s 5]) L (M3.ofMandel c (act (Gen.N3_SPATIAL_MODULI__C_TAU_JAUMANN_r c c3 fn D (tensv F0) (tensv F) s) (M3.mandel3 c (symm L))))) := by\n  refine (PropsN3_SPATIAL_MODULI__ABAQUS.N3_SPATIAL_MODULI__ABAQUS c c3 fn hc h2 ..).trans ?_\n  refine (PropsN3_ABAQUS__C_TAU_JAUMANN.N3_ABAQUS__C_TAU_JAUMANN c c3 fn hc h2 (hJ := hJ) ..).trans ?_\n  exact (PropsN3_SPATIAL_MODULI__C_TAU_JAUMANN.N3_SPATIAL_MODULI__C_TAU_JAUMANN c c3 fn hc h2 ..).symm\n\n/-- conversions compose: `SPATIAL_MODULI ← ABAQUS ← DTAU_DF` acts as the direct `SPATIAL_MODULI ← DTAU_DF`, for every variation. -/\ntheorem N3_compose_SPATIAL_MODULI__ABAQUS__DTAU_DF (hc : c * c = 2) (h2 : (2:K) ≠ 0)\n    (D : Nat → Nat → K) (F0 F : M3 K) (l00 l11 l22 l01 l02 l12 : K) (s : Nat → K) (hJ : F.det ≠ 0) :\n    upper (lamSM F (M3.ofMandel c [s 0, s 1, s 2, s 3, s 4, s 5]) (M3.sym l00 l11 l22 l01 l02 l12) (M3.ofMandel c (act (Gen.N3_SPATIAL_MODULI__ABAQUS_r c c3 fn (matOf (Gen.N3_ABAQUS__DTAU_DF_r c c3 fn D (tensv F0) (tensv F) s)) (tensv F0) (tensv F) s) (M3.mandel3 c (symm (M3.sym l00 l11 l22 l01 l02 l12))))))\n      = upper (lamSM F (M3.ofMandel c [s 0, s 1, s 2, s 3, s 4, s 5]) (M3.sym l00 l11 l22 l01 l02 l12) (M3.ofMandel c (act (Gen.N3_SPATIAL_MODULI__DTAU_DF_r c c3 fn D (tensv F0) (tensv F) s) (M3.mandel3 c (symm (M3.sym l00 l11 l22 l01 l02 l12)))))) := by\n  refine (PropsN3_SPATIAL_MODULI__ABAQUS.N3_SPATIAL_MODULI__ABAQUS c c3 fn hc h2 ..).trans ?_\n  refine (PropsN3_ABAQUS__DTAU_DF.N3_ABAQUS__DTAU_DF c c3 fn hc h2 (hJ := hJ) ..).trans ?_\n  exact (PropsN3Chains.N3_SPATIAL_MODULI__DTAU_DF c c3 fn hc h2 ..).symm\n\n/-- conversions compose: `C_TRUESDELL ← SPATIAL_MODULI ← DS_DEGL` acts as the direct `C_TRUESDELL ← DS_DEGL`, for every variation. -/\ntheorem N3_compose_C_TRUESDELL__SPATIAL_MODULI__DS_DEGL (hc : c * c = 2) (h2 : (2:K) ≠ 0)\n    (D : Nat → Nat → K) (F0 F : M3 K) (L : M3 K) (s : Nat → K) (hJ : F.det ≠ 0) :\n    upper (lamTr F (M3.ofMandel c [s 0, s 1, s 2, s 3, s 4, s 5]) L (M3.ofMandel c (act (Gen.N3_C_TRUESDELL__SPATIAL_MODULI_r c c3 fn (matOf (Gen.N3_SPATIAL_MODULI__DS_DEGL_r c c3 fn D (tensv F0) (tensv F) s)) (tensv F0) (tensv F) s) (M3.mandel3 c (symm L)))))\n      = upper (lamTr F (M3.ofMandel c [s 0, s 1, s 2, s 3, s 4, s 5]) L (M3.ofMandel c (act (Gen.N3_C_TRUESDELL__DS_DEGL_r c c3 fn D (tensv F0) (tensv F) s) (M3.mandel3 c (symm L))))) := by\n  refine (PropsN3_C_TRUESDELL__SPATIAL_MODULI.N3_C_TRUESDELL__SPATIAL_MODULI c c3 fn hc h2 (hJ := hJ) ..).trans ?_\n  refine (PropsN3_SPATIAL_MODULI__DS_DEGL.N3_SPATIAL_MODULI__DS_DEGL c c3 fn hc h2 ..).trans ?_\n  exact (PropsN3Chains.N3_C_TRUESDELL__DS_DEGL c c3 fn hc h2 (hJ := hJ) ..).symm\n\n/-- conversions compose: `C_TRUESDELL ← SPATIAL_MODULI ← DTAU_DF` acts as the direct `C_TRUESDELL ← DTAU_DF`, for every variation. -/\ntheorem N3_compose_C_TRUESDELL__SPATIAL_MODULI__DTAU_DF (hc : c * c = 2) (h2 : (2:K) ≠ 0)\n    (D : Nat → Nat → K) (F0 F : M3 K) (l00 l11 l22 l01 l02 l12 : K) (s : Nat → K) (hJ : F.det ≠ 0) :\n    upper (lamTr F (M3.ofMandel c [s 0, s 1, s 2, s 3, s 4, s 5]) (M3.sym l00 l11 l22 l01 l02 l12) (M3.ofMandel c (act (Gen.N3_C_TRUESDELL__SPATIAL_MODULI_r c c3 fn (matOf (Gen.N3_SPATIAL_MODULI__DTAU_DF_r c c3 fn D (tensv F0) (tensv F) s)) (tensv F0) (tensv F) s) (M3.mandel3 c (symm (M3.sym l00 l11 l22 l01 l02 l12))))))\n      = upper (lamTr F (M3.ofMandel c [s 0, s 1, s 2, s 3, s 4, s 5]) (M3.sym l00 l11 l22 l01 l02 l12) (M3.ofMandel c (act (Gen.N3_C_TRUESDELL__DTAU_DF_r c c3 fn D (tensv F0) (tensv F) s) (M3.mandel3 c (symm (M3.sym l00 l11 l22 l01 l02 l12)))))) := by\n  refine (PropsN3_C_TRUESDELL__SPATIAL_MODULI.N3_C_TRUESDELL__SPATIAL_MODULI c c3 fn hc h2 (hJ := hJ) ..).trans ?_\n  refine (PropsN3Chains.N3_SPATIAL_MODULI__DTAU_DF c c3 fn hc h2 ..).trans ?_\n  exact (PropsN3Chains.N3_C_TRUESDELL__DTAU_DF c c3 fn hc h2 (hJ := hJ) ..).symm\n\n/-- conversions compose: `C_TRUESDELL ← DS_DEGL ← SPATIAL_MODULI` acts as the direct `C_TRUESDELL ← SPATIAL_MODULI`, for every variation. -/\ntheorem N3_compose_C_TRUESDELL__DS_DEGL__SPATIAL_MODULI (hc : c * c = 2) (h2 : (2:K) ≠ 0)\n    (D : Nat → Nat → K) (F0 F : M3 K) (L : M3 K) (s : Nat → K) (hJ : F.det ≠ 0) :\n    upper (lamTr F (M3.ofMandel c [s 0, s 1, s 2, s 3, s 4, s 5]) L (M3.ofMandel c (act (Gen.N3_C_TRUESDELL__DS_DEGL_r c c3 fn (matOf (Gen.N3_DS_DEGL__SPATIAL_MODULI_r c c3 fn D (tensv F0) (tensv F) s)) (tensv F0) (tensv F) s) (M3.mandel3 c (symm L)))))\n      = upper (lamTr F (M3.ofMandel c [s 0, s 1, s 2, s 3, s 4, s 5]) L (M3.ofMandel c (act (Gen.N3_C_TRUESDELL__SPATIAL_MODULI_r c c3 fn D (tensv F0) (tensv F) s) (M3.mandel3 c (symm L))))) := by\n  refine (PropsN3Chains.N3_C_TRUESDELL__DS_DEGL c c3 fn hc h2 (hJ := hJ) ..).trans ?_\n  refine (PropsN3Chains.N3_DS_DEGL__SPATIAL_MODULI c c3 fn hc h2 (hJ := hJ) ..).trans ?_\n  exact (PropsN3_C_TRUESDELL__SPATIAL_MODULI.N3_C_TRUESDELL__SPATIAL_MODULI c c3 fn hc h2 (hJ := hJ) ..).symm\n\n/-- conversions compose: `SPATIAL_MODULI ← C_TRUESDELL ← DS_DEGL` acts as the direct `SPATIAL_MODULI ← DS_DEGL`, for every variation. -/\ntheorem N3_compose_SPATIAL_MODULI__C_TRUESDELL__DS_DEGL (hc : c * c = 2) (h2 : (2:K) ≠ 0)\n    (D : Nat → Nat → K) (F0 F : M3 K) (L : M3 K) (s : Nat → K) (hJ : F.det ≠ 0) :\n    upper (lamSM F (M3.ofMandel c [s 0, s 1, s 2, s 3, s 4, s 5]) L (M3.ofMandel c (act (Gen.N3_SPATIAL_MODULI__C_TRUESDELL_r c c3 fn (matOf (Gen.N3_C_TRUESDELL__DS_DEGL_r c c3 fn D (tensv F0) (tensv F) s)) (tensv F0) (tensv F) s) (M3.mandel3 c (symm L)))))\n      = upper (lamSM F (M3.ofMandel c [s 0, s 1, s 2, s 3, s 4, s 5]) L (M3.ofMandel c (act (Gen.N3_SPATIAL_MODULI__DS_DEGL_r c c3 fn D (tensv F0) (tensv F) s) (M3.mandel3 c (symm L))))) := by\n  refine (PropsN3_SPATIAL_MODULI__C_TRUESDELL.N3_SPATIAL_MODULI__C_TRUESDELL c c3 fn hc h2 ..).trans ?_\n  refine (PropsN3Chains.N3_C_TRUESDELL__DS_DEGL c c3 fn hc h2 (hJ := hJ) ..).trans ?_\n  exact (PropsN3_SPATIAL_MODULI__DS_DEGL.N3_SPATIAL_MODULI__DS_DEGL c c3 fn hc h2 ..).symm\n\n/-- conversions compose: `SPATIAL_MODULI ← C_TRUESDELL ← DTAU_DF` acts as the direct `SPATIAL_MODULI ← DTAU_DF`, for every variation. -/\ntheorem N3_compose_SPATIAL_MODULI__C_TRUESDELL__DTAU_DF (hc : c * c = 2) (h2 : (2:K) ≠ 0)\n    (D : Nat → Nat → K) (F0 F : M3 K) (l00 l11 l22 l01 l02 l12 : K) (s : Nat → K) (hJ : F.det ≠ 0) :\n    upper (lamSM F (M3.ofMandel c [s 0, s 1, s 2, s 3, s 4, s 5]) (M3.sym l00 l11 l22 l01 l02 l12) (M3.ofMandel c (act (Gen.N3_SPATIAL_MODULI__C_TRUESDELL_r c c3 fn (matOf (Gen.N3_C_TRUESDELL__DTAU_DF_r c c3 fn D (tensv F0) (tensv F) s)) (tensv F0) (tensv F) s) (M3.mandel3 c (symm (M3.sym l00 l11 l22 l01 l02 l12))))))\n      = upper (lamSM F (M3.ofMandel c [s 0, s 1, s 2, s 3, s 4, s 5]) (M3.sym l00 l11 l22 l01 l02 l12) (M3.ofMandel c (act (Gen.N3_SPATIAL_MODULI__DTAU_DF_r c c3 fn D (tensv F0) (tensv F) s) (M3.mandel3 c (symm (M3.sym l00 l11 l22 l01 l02 l12)))))) := by\n  refine (PropsN3_SPATIAL_MODULI__C_TRUESDELL.N3_SPATIAL_MODULI__C_TRUESDELL c c3 fn hc h2 ..).trans ?_\n  refine (PropsN3Chains.N3_C_TRUESDELL__DTAU_DF c c3 fn hc h2 (hJ := hJ) ..).trans ?_\n  exact (PropsN3Chains.N3_SPATIAL_MODULI__DTAU_DF c c3 fn hc h2 ..).symm\n\n/-- conversions compose: `DSIG_DF ← DTAU_DF ← ABAQUS` acts as the direct `DSIG_DF ← ABAQUS`, for every variation. -/\ntheorem N3_compose_DSIG_DF__DTAU_DF__ABAQUS (hc : c * c = 2) (h2 : (2:K) ≠ 0)\n    (D : Nat → Nat → K) (F0 F : M3 K) (L : M3 K) (s : Nat → K) (hJ : F.det ≠ 0) :\n    upper (lamSig F (M3.ofMandel c [s 0, s 1, s 2, s 3, s 4, s 5]) L (M3.ofMandel c (act (Gen.N3_DSIG_DF__DTAU_DF_r c c3 fn (matOf (Gen.N3_DTAU_DF__ABAQUS_r c c3 fn D (tensv F0) (tensv F) s)) (tensv F0) (tensv F) s) (M3.tens3 (L * F)))))\n      = upper (lamSig F (M3.ofMandel c [s 0, s 1, s 2, s 3, s 4, s 5]) L (M3.ofMandel c (act (Gen.N3_DSIG_DF__ABAQUS_r c c3 fn D (tensv F0) (tensv F) s) (M3.tens3 (L * F))))) := by\n  refine (PropsN3_DSIG_DF__DTAU_DF.N3_DSIG_DF__DTAU_DF c c3 fn hc h2 (hJ := hJ) ..).trans ?_\n  refine (PropsN3_DTAU_DF__ABAQUS.N3_DTAU_DF__ABAQUS c c3 fn hc h2 (hJ := hJ) ..).trans ?_\n  exact (PropsN3Chains.N3_DSIG_DF__ABAQUS c c3 fn hc h2 (hJ := hJ) ..).symm\n\n/-- conversions compose: `SPATIAL_MODULI ← DTAU_DF ← C_TAU_JAUMANN` acts as the direct `SPATIAL_MODULI ← C_TAU_JAUMANN`, for every variation. -/\ntheorem N3_compose_SPATIAL_MODULI__DTAU_DF__C_TAU_JAUMANN (hc : c * c = 2) (h2 : (2:K) ≠ 0)\n    (D : Nat → Nat → K) (F0 F : M3 K) (l00 l11 l22 l01 l02 l12 : K) (s : Nat → K) (hJ : F.det ≠ 0) :\n    upper (lamSM F (M3.ofMandel c [s 0, s 1, s 2, s 3, s 4, s 5]) (M3.sym l00 l11 l22 l01 l02 l12) (M3.ofMandel c (act (Gen.N3_SPATIAL_MODULI__DTAU_DF_r c c3 fn (matOf (Gen.N3_DTAU_DF__C_TAU_JAUMANN_r c c3 fn D (tensv F0) (tensv F) s)) (tensv F0) (tensv F) s) (M3.mandel3 c (symm (M3.sym l00 l11 l22 l01 l02 l12))))))\n      = upper (lamSM F (M3.ofMandel c [s 0, s 1, s 2, s 3, s 4, s 5]) (M3.sym l00 l11 l22 l01 l02 l12) (M3.ofMandel c (act (Gen.N3_SPATIAL_MODULI__C_TAU_JAUMANN_r c c3 fn D (tensv F0) (tensv F) s) (M3.mandel3 c (symm (M3.sym l00 l11 l22 l01 l02 l12)))))) := by\n  refine (PropsN3Chains.N3_SPATIAL_MODULI__DTAU_DF c c3 fn hc h2 ..).trans ?_\n  refine (PropsN3_DTAU_DF__C_TAU_JAUMANN.N3_DTAU_DF__C_TAU_JAUMANN c c3 fn hc h2 (hJ := hJ) ..).trans ?_\n  exact (PropsN3_SPATIAL_MODULI__C_TAU_JAUMANN.N3_SPATIAL_MODULI__C_TAU_JAUMANN c c3 fn hc h2 ..).symm\n\n/-- conversions compose: `SPATIAL_MODULI ← DTAU_DF ← ABAQUS` acts as the direct `SPATIAL_MODULI ← ABAQUS`, for every variation. -/\ntheorem N3_compose_SPATIAL_MODULI__DTAU_DF__ABAQUS (hc : c * c = 2) (h2 : (2:K) ≠ 0)\n    (D : Nat → Nat → K) (F0 F : M3 K) (l00 l11 l22 l01 l02 l12 : K) (s : Nat → K) (hJ : F.det ≠ 0) :\n    upper (lamSM F (M3.ofMandel c [s 0, s 1, s 2, s 3, s 4, s 5]) (M3.sym l00 l11 l22 l01 l02 l12) (M3.ofMandel c (act (Gen.N3_SPATIAL_MODULI__DTAU_DF_r c c3 fn (matOf (Gen.N3_DTAU_DF__ABAQUS_r c c3 fn D (tensv F0) (tensv F) s)) (tensv F0) (tensv F) s) (M3.mandel3 c (symm (M3.sym l00 l11 l22 l01 l02 l12))))))\n      = upper (lamSM F (M3.ofMandel c [s 0, s 1, s 2, s 3, s 4, s 5]) (M3.sym l00 l11 l22 l01 l02 l12) (M3.ofMandel c (act (Gen.N3_SPATIAL_MODULI__ABAQUS_r c c3 fn D (tensv F0) (tensv F) s) (M3.mandel3 c (symm (M3.sym l00 l11 l22 l01 l02 l12)))))) := by\n  refine (PropsN3Chains.N3_SPATIAL_MODULI__DTAU_DF c c3 fn hc h2 ..).trans ?_\n  refine (PropsN3_DTAU_DF__ABAQUS.N3_DTAU_DF__ABAQUS c c3 fn hc h2 (hJ := hJ) ..).trans ?_\n  exact (PropsN3_SPATIAL_MODULI__ABAQUS.N3_SPATIAL_MODULI__ABAQUS c c3 fn hc h2 ..).symm\n\n/-- conversions compose: `C_TAU_JAUMANN ← DTAU_DF ← ABAQUS` acts as the direct `C_TAU_JAUMANN ← ABAQUS`, for every variation. -/\ntheorem N3_compose_C_TAU_JAUMANN__DTAU_DF__ABAQUS (hc : c * c = 2) (h2 : (2:K) ≠ 0)\n    (D : Nat → Nat → K) (F0 F : M3 K) (l00 l11 l22 l01 l02 l12 : K) (s : Nat → K) (hJ : F.det ≠ 0) :\n    upper (lamJ F (M3.ofMandel c [s 0, s 1, s 2, s 3, s 4, s 5]) (M3.sym l00 l11 l22 l01 l02 l12) (M3.ofMandel c (act (Gen.N3_C_TAU_JAUMANN__DTAU_DF_r c c3 fn (matOf (Gen.N3_DTAU_DF__ABAQUS_r c c3 fn D (tensv F0) (tensv F) s)) (tensv F0) (tensv F) s) (M3.mandel3 c (symm (M3.sym l00 l11 l22 l01 l02 l12))))))\n      = upper (lamJ F (M3.ofMandel c [s 0, s 1, s 2, s 3, s 4, s 5]) (M3.sym l00 l11 l22 l01 l02 l12) (M3.ofMandel c (act (Gen.N3_C_TAU_JAUMANN__ABAQUS_r c c3 fn D (tensv F0) (tensv F) s) (M3.mandel3 c (symm (M3.sym l00 l11 l22 l01 l02 l12)))))) := by\n  refine (PropsN3_C_TAU_JAUMANN__DTAU_DF.N3_C_TAU_JAUMANN__DTAU_DF c c3 fn hc h2 ..).trans ?_\n  refine (PropsN3_DTAU_DF__ABAQUS.N3_DTAU_DF__ABAQUS c c3 fn hc h2 (hJ := hJ) ..).trans ?_\n  exact (PropsN3_C_TAU_JAUMANN__ABAQUS.N3_C_TAU_JAUMANN__ABAQUS c c3 fn hc h2 ..).symm\n\n/-- conversions compose: `C_TAU_JAUMANN ← DTAU_DF ← SPATIAL_MODULI` acts as the direct `C_TAU_JAUMANN ← SPATIAL_MODULI`, for every variation. -/\ntheorem N3_compose_C_TAU_JAUMANN__DTAU_DF__SPATIAL_MODULI (hc : c * c = 2) (h2 : (2:K) ≠ 0)\n    (D : Nat → Nat → K) (F0 F : M3 K) (l00 l11 l22 l01 l02 l12 : K) (s : Nat → K) (hJ : F.det ≠ 0) :\n    upper (lamJ F (M3.ofMandel c [s 0, s 1, s 2, s 3, s 4, s 5]) (M3.sym l00 l11 l22 l01 l02 l12) (M3.ofMandel c (act (Gen.N3_C_TAU_JAUMANN__DTAU_DF_r c c3 fn (matOf (Gen.N3_DTAU_DF__SPATIAL_MODULI_r c c3 fn D (tensv F0) (tensv F) s)) (tensv F0) (tensv F) s) (M3.mandel3 c (symm (M3.sym l00 l11 l22 l01 l02 l12))))))\n      = upper (lamJ F (M3.ofMandel c [s 0, s 1, s 2, s 3, s 4, s 5]) (M3.sym l00 l11 l22 l01 l02 l12) (M3.ofMandel c (act (Gen.N3_C_TAU_JAUMANN__SPATIAL_MODULI_r c c3 fn D (tensv F0) (tensv F) s) (M3.mandel3 c (symm (M3.sym l00 l11 l22 l01 l02 l12)))))) := by\n  refine (PropsN3_C_TAU_JAUMANN__DTAU_DF.N3_C_TAU_JAUMANN__DTAU_DF c c3 fn hc h2 ..).trans ?_\n  refine (PropsN3Chains.N3_DTAU_DF__SPATIAL_MODULI c c3 fn hc h2 (hJ := hJ) ..).trans ?_\n  exact (PropsN3_C_TAU_JAUMANN__SPATIAL_MODULI.N3_C_TAU_JAUMANN__SPATIAL_MODULI c c3 fn hc h2 ..).symm\n\n/-- conversions compose: `C_TRUESDELL ← DTAU_DF ← SPATIAL_MODULI` acts as the direct `C_TRUESDELL ← SPATIAL_MODULI`, for every variation. -/\ntheorem N3_compose_C_TRUESDELL__DTAU_DF__SPATIAL_MODULI (hc : c * c = 2) (h2 : (2:K) ≠ 0)\n    (D : Nat → Nat → K) (F0 F : M3 K) (l00 l11 l22 l01 l02 l12 : K) (s : Nat → K) (hJ : F.det ≠ 0) :\n    upper (lamTr F (M3.ofMandel c [s 0, s 1, s 2, s 3, s 4, s 5]) (M3.sym l00 l11 l22 l01 l02 l12) (M3.ofMandel c (act (Gen.N3_C_TRUESDELL__DTAU_DF_r c c3 fn (matOf (Gen.N3_DTAU_DF__SPATIAL_MODULI_r c c3 fn D (tensv F0) (tensv F) s)) (tensv F0) (tensv F) s) (M3.mandel3 c (symm (M3.sym l00 l11 l22 l01 l02 l12))))))\n      = upper (lamTr F (M3.ofMandel c [s 0, s 1, s 2, s 3, s 4, s 5]) (M3.sym l00 l11 l22 l01 l02 l12) (M3.ofMandel c (act (Gen.N3_C_TRUESDELL__SPATIAL_MODULI_r c c3 fn D (tensv F0) (tensv F) s) (M3.mandel3 c (symm (M3.sym l00 l11 l22 l01 l02 l12)))))) := by\n  refine (PropsN3Chains.N3_C_TRUESDELL__DTAU_DF c c3 fn hc h2 (hJ := hJ) ..).trans ?_\n  refine (PropsN3Chains.N3_DTAU_DF__SPATIAL_MODULI c c3 fn hc h2 (hJ := hJ) ..).trans ?_\n  exact (PropsN3_C_TRUESDELL__SPATIAL_MODULI.N3_C_TRUESDELL__SPATIAL_MODULI c c3 fn hc h2 (hJ := hJ) ..).symm\n\n/-- conversions compose: `ABAQUS ← C_TAU_JAUMANN ← DTAU_DF` acts as the direct `ABAQUS ← DTAU_DF`, for every variation. -/\ntheorem N3_compose_ABAQUS__C_TAU_JAUMANN__DTAU_DF (hc : c * c = 2) (h2 : (2:K) ≠ 0)\n    (D : Nat → Nat → K) (F0 F : M3 K) (l00 l11 l22 l01 l02 l12 : K) (s : Nat → K) (hJ : F.det ≠ 0) :\n    upper (lamAb F (M3.ofMandel c [s 0, s 1, s 2, s 3, s 4, s 5]) (M3.sym l00 l11 l22 l01 l02 l12) (M3.ofMandel c (act (Gen.N3_ABAQUS__C_TAU_JAUMANN_r c c3 fn (matOf (Gen.N3_C_TAU_JAUMANN__DTAU_DF_r c c3 fn D (tensv F0) (tensv F) s)) (tensv F0) (tensv F) s) (M3.mandel3 c (symm (M3.sym l00 l11 l22 l01 l02 l12))))))\n      = upper (lamAb F (M3.ofMandel c [s 0, s 1, s 2, s 3, s 4, s 5]) (M3.sym l00 l11 l22 l01 l02 l12) (M3.ofMandel c (act (Gen.N3_ABAQUS__DTAU_DF_r c c3 fn D (tensv F0) (tensv F) s) (M3.mandel3 c (symm (M3.sym l00 l11 l22 l01 l02 l12)))))) := by\n  refine (PropsN3_ABAQUS__C_TAU_JAUMANN.N3_ABAQUS__C_TAU_JAUMANN c c3 fn hc h2 (hJ := hJ) ..).trans ?_\n  refine (PropsN3_C_TAU_JAUMANN__DTAU_DF.N3_C_TAU_JAUMANN__DTAU_DF c c3 fn hc h2 ..).trans ?_\n  exact (PropsN3_ABAQUS__DTAU_DF.N3_ABAQUS__DTAU_DF c c3 fn hc h2 (hJ := hJ) ..).symm\n\n/-- conversions compose: `ABAQUS ← C_TAU_JAUMANN ← SPATIAL_MODULI` acts as the direct `ABAQUS ← SPATIAL_MODULI`, for every variation. -/\ntheorem N3_compose_ABAQUS__C_TAU_JAUMANN__SPATIAL_MODULI (hc : c * c = 2) (h2 : (2:K) ≠ 0)\n    (D : Nat → Nat → K) (F0 F : M3 K) (L : M3 K) (s : Nat → K) (hJ : F.det ≠ 0) :\n    upper (lamAb F (M3.ofMandel c [s 0, s 1, s 2, s 3, s 4, s 5]) L (M3.ofMandel c (act (Gen.N3_ABAQUS__C_TAU_JAUMANN_r c c3 fn (matOf (Gen.N3_C_TAU_JAUMANN__SPATIAL_MODULI_r c c3 fn D (tensv F0) (tensv F) s)) (tensv F0) (tensv F) s) (M3.mandel3 c (symm L)))))\n      = upper (lamAb F (M3.ofMandel c [s 0, s 1, s 2, s 3, s 4, s 5]) L (M3.ofMandel c (act (Gen.N3_ABAQUS__SPATIAL_MODULI_r c c3 fn D (tensv F0) (tensv F) s) (M3.mandel3 c (symm L))))) := by\n  refine (PropsN3_ABAQUS__C_TAU_JAUMANN.N3_ABAQUS__C_TAU_JAUMANN c c3 fn hc h2 (hJ := hJ) ..).trans ?_\n  refine (PropsN3_C_TAU_JAUMANN__SPATIAL_MODULI.N3_C_TAU_JAUMANN__SPATIAL_MODULI c c3 fn hc h2 ..).trans ?_\n  exact (PropsN3_ABAQUS__SPATIAL_MODULI.N3_ABAQUS__SPATIAL_MODULI c c3 fn hc h2 (hJ := hJ) ..).symm\n\n/-- conversions compose: `C_TAU_JAUMANN ← ABAQUS ← SPATIAL_MODULI` acts as the direct `C_TAU_JAUMANN ← SPATIAL_MODULI`, for every variation. -/\ntheorem N3_compose_C_TAU_JAUMANN__ABAQUS__SPATIAL_MODULI (hc : c * c = 2) (h2 : (2:K) ≠ 0)\n    (D : Nat → Nat → K) (F0 F : M3 K) (L : M3 K) (s : Nat → K) (hJ : F.det ≠ 0) :\n    upper (lamJ F (M3.ofMandel c [s 0, s 1, s 2, s 3, s 4, s 5]) L (M3.ofMandel c (act (Gen.N3_C_TAU_JAUMANN__ABAQUS_r c c3 fn (matOf (Gen.N3_ABAQUS__SPATIAL_MODULI_r c c3 fn D (tensv F0) (tensv F) s)) (tensv F0) (tensv F) s) (M3.mandel3 c (symm L)))))\n      = upper (lamJ F (M3.ofMandel c [s 0, s 1, s 2, s 3, s 4, s 5]) L (M3.ofMandel c (act (Gen.N3_C_TAU_JAUMANN__SPATIAL_MODULI_r c c3 fn D (tensv F0) (tensv F) s) (M3.mandel3 c (symm L))))) := by\n  refine (PropsN3_C_TAU_JAUMANN__ABAQUS.N3_C_TAU_JAUMANN__ABAQUS c c3 fn hc h2 ..).trans ?_\n  refine (PropsN3_ABAQUS__SPATIAL_MODULI.N3_ABAQUS__SPATIAL_MODULI c c3 fn hc h2 (hJ := hJ) ..).trans ?_\n  exact (PropsN3_C_TAU_JAUMANN__SPATIAL_MODULI.N3_C_TAU_JAUMANN__SPATIAL_MODULI c c3 fn hc h2 ..).symm\n\n/-- conversions compose: `C_TAU_JAUMANN ← ABAQUS ← DTAU_DF` acts as the direct `C_TAU_JAUMANN ← DTAU_DF`, for every variation. -/\ntheorem N3_compose_C_TAU_JAUMANN__ABAQUS__DTAU_DF (hc : c * c = 2) (h2 : (2:K) ≠ 0)\n    (D : Nat → Nat → K) (F0 F : M3 K) (l00 l11 l22 l01 l02 l12 : K) (s : Nat → K) (hJ : F.det ≠ 0) :\n    upper (lamJ F (M3.ofMandel c [s 0, s 1, s 2, s 3, s 4, s 5]) (M3.sym l00 l11 l22 l01 l02 l12) (M3.ofMandel c (act (Gen.N3_C_TAU_JAUMANN__ABAQUS_r c c3 fn (matOf (Gen.N3_ABAQUS__DTAU_DF_r c c3 fn D (tensv F0) (tensv F) s)) (tensv F0) (tensv F) s) (M3.mandel3 c (symm (M3.sym l00 l11 l22 l01 l02 l12))))))\n      = upper (lamJ F (M3.ofMandel c [s 0, s 1, s 2, s 3, s 4, s 5]) (M3.sym l00 l11 l22 l01 l02 l12) (M3.ofMandel c (act (Gen.N3_C_TAU_JAUMANN__DTAU_DF_r c c3 fn D (tensv F0) (tensv F) s) (M3.mandel3 c (symm (M3.sym l00 l11 l22 l01 l02 l12)))))) := by\n  refine (PropsN3_C_TAU_JAUMANN__ABAQUS.N3_C_TAU_JAUMANN__ABAQUS c c3 fn hc h2 ..).trans ?_\n  refine (PropsN3_ABAQUS__DTAU_DF.N3_ABAQUS__DTAU_DF c c3 fn hc h2 (hJ := hJ) ..).trans ?_\n  exact (PropsN3_C_TAU_JAUMANN__DTAU_DF.N3_C_TAU_JAUMANN__DTAU_DF c c3 fn hc h2 ..).symm\n\n/-- conversions compose: `C_TAU_JAUMANN ← SPATIAL_MODULI ← ABAQUS` acts as the direct `C_TAU_JAUMANN ← ABAQUS`, for every variation. -/\ntheorem N3_compose_C_TAU_JAUMANN__SPATIAL_MODULI__ABAQUS (hc : c * c = 2) (h2 : (2:K) ≠ 0)\n    (D : Nat → Nat → K) (F0 F : M3 K) (L : M3 K) (s : Nat → K)  :\n    upper (lamJ F (M3.ofMandel c [s 0, s 1, s 2, s 3, s 4, s 5]) L (M3.ofMandel c (act (Gen.N3_C_TAU_JAUMANN__SPATIAL_MODULI_r c c3 fn (matOf (Gen.N3_SPATIAL_MODULI__ABAQUS_r c c3 fn D (tensv F0) (tensv F) s)) (tensv F0) (tensv F) s) (M3.mandel3 c (symm L)))))\n      = upper (lamJ F (M3.ofMandel c [s 0, s 1, s 2, s 3, s 4, s 5]) L (M3.ofMandel c (act (Gen.N3_C_TAU_JAUMANN__ABAQUS_r c c3 fn D (tensv F0) (tensv F) s) (M3.mandel3 c (symm L))))) := by\n  refine (PropsN3_C_TAU_JAUMANN__SPATIAL_MODULI.N3_C_TAU_JAUMANN__SPATIAL_MODULI c c3 fn hc h2 ..).trans ?_\n  refine (PropsN3_SPATIAL_MODULI__ABAQUS.N3_SPATIAL_MODULI__ABAQUS c c3 fn hc h2 ..).trans ?_\n  exact (PropsN3_C_TAU_JAUMANN__ABAQUS.N3_C_TAU_JAUMANN__ABAQUS c c3 fn hc h2 ..).symm\n\n/-- conversions compose: `C_TAU_JAUMANN ← SPATIAL_MODULI ← DTAU_DF` acts as the direct `C_TAU_JAUMANN ← DTAU_DF`, for every variation. -/\ntheorem N3_compose_C_TAU_JAUMANN__SPATIAL_MODULI__DTAU_DF (hc : c * c = 2) (h2 : (2:K) ≠ 0)\n    (D : Nat → Nat → K) (F0 F : M3 K) (l00 l11 l22 l01 l02 l12 : K) (s : Nat → K)  :\n    upper (lamJ F (M3.ofMandel c [s 0, s 1, s 2, s 3, s 4, s 5]) (M3.sym l00 l11 l22 l01 l02 l12) (M3.ofMandel c (act (Gen.N3_C_TAU_JAUMANN__SPATIAL_MODULI_r c c3 fn (matOf (Gen.N3_SPATIAL_MODULI__DTAU_DF_r c c3 fn D (tensv F0) (tensv F) s)) (tensv F0) (tensv F) s) (M3.mandel3 c (symm (M3.sym l00 l11 l22 l01 l02 l12))))))\n      = upper (lamJ F (M3.ofMandel c [s 0, s 1, s 2, s 3, s 4, s 5]) (M3.sym l00 l11 l22 l01 l02 l12) (M3.ofMandel c (act (Gen.N3_C_TAU_JAUMANN__DTAU_DF_r c c3 fn D (tensv F0) (tensv F) s) (M3.mandel3 c (symm (M3.sym l00 l11 l22 l01 l02 l12)))))) := by\n  refine (PropsN3_C_TAU_JAUMANN__SPATIAL_MODULI.N3_C_TAU_JAUMANN__SPATIAL_MODULI c c3 fn hc h2 ..).trans ?_\n  refine (PropsN3Chains.N3_SPATIAL_MODULI__DTAU_DF c c3 fn hc h2 ..).trans ?_\n  exact (PropsN3_C_TAU_JAUMANN__DTAU_DF.N3_C_TAU_JAUMANN__DTAU_DF c c3 fn hc h2 ..).symm\n\n/-- conversions compose: `SPATIAL_MODULI ← C_TAU_JAUMANN ← DTAU_DF` acts as the direct `SPATIAL_MODULI ← DTAU_DF`, for every variation. -/\ntheorem N3_compose_SPATIAL_MODULI__C_TAU_JAUMANN__DTAU_DF (hc : c * c = 2) (h2 : (2:K) ≠ 0)\n    (D : Nat → Nat → K) (F0 F : M3 K) (l00 l11 l22 l01 l02 l12 : K) (s : Nat → K)  :\n    upper (lamSM F (M3.ofMandel c [s 0, s 1, s 2, s 3, s 4, s 5]) (M3.sym l00 l11 l22 l01 l02 l12) (M3.ofMandel c (act (Gen.N3_SPATIAL_MODULI__C_TAU_JAUMANN_r c c3 fn (matOf (Gen.N3_C_TAU_JAUMANN__DTAU_DF_r c c3 fn D (tensv F0) (tensv F) s)) (tensv F0) (tensv F) s) (M3.mandel3 c (symm (M3.sym l00 l11 l22 l01 l02 l12))))))\n      = upper (lamSM F (M3.ofMandel c [s 0, s 1, s 2, s 3, s 4, s 5]) (M3.sym l00 l11 l22 l01 l02 l12) (M3.ofMandel c (act (Gen.N3_SPATIAL_MODULI__DTAU_DF_r c c3 fn D (tensv F0) (tensv F) s) (M3.mandel3 c (symm (M3.sym l00 l11 l22 l01 l02 l12)))))) := by\n  refine (PropsN3_SPATIAL_MODULI__C_TAU_JAUMANN.N3_SPATIAL_MODULI__C_TAU_JAUMANN c c3 fn hc h2 ..).trans ?_\n  refine (PropsN3_C_TAU_JAUMANN__DTAU_DF.N3_C_TAU_JAUMANN__DTAU_DF c c3 fn hc h2 ..).trans ?_\n  exact (PropsN3Chains.N3_SPATIAL_MODULI__DTAU_DF c c3 fn hc h2 ..).symm\n\n/-- conversions compose: `SPATIAL_MODULI ← C_TAU_JAUMANN ← ABAQUS` acts as the direct `SPATIAL_MODULI ← ABAQUS`, for every variation. -/\ntheorem N3_compose_SPATIAL_MODULI__C_TAU_JAUMANN__ABAQUS (hc : c * c = 2) (h2 : (2:K) ≠ 0)\n    (D : Nat → Nat → K) (F0 F : M3 K) (L : M3 K) (s : Nat → K)  :\n    upper (lamSM F (M3.ofMandel c [s 0, s 1, s 2, s 3, s 4, s 5]) L (M3.ofMandel c (act (Gen.N3_SPATIAL_MODULI__C_TAU_JAUMANN_r c c3 fn (matOf (Gen.N3_C_TAU_JAUMANN__ABAQUS_r c c3 fn D (tensv F0) (tensv F) s)) (tensv F0) (tensv F) s) (M3.mandel3 c (symm L)))))\n      = upper (lamSM F (M3.ofMandel c [s 0, s 1, s 2, s 3, s 4, s 5]) L (M3.ofMandel c (act (Gen.N3_SPATIAL_MODULI__ABAQUS_r c c3 fn D (tensv F0) (tensv F) s) (M3.mandel3 c (symm L))))) := by\n  refine (PropsN3_SPATIAL_MODULI__C_TAU_JAUMANN.N3_SPATIAL_MODULI__C_TAU_JAUMANN c c3 fn hc h2 ..).trans ?_\n  refine (PropsN3_C_TAU_JAUMANN__ABAQUS.N3_C_TAU_JAUMANN__ABAQUS c c3 fn hc h2 ..).trans ?_\n  exact (PropsN3_SPATIAL_MODULI__ABAQUS.N3_SPATIAL_MODULI__ABAQUS c c3 fn hc h2 ..).symm\n\n/-- conversions compose: `ABAQUS ← DTAU_DF ← C_TAU_JAUMANN` acts as the direct `ABAQUS ← C_TAU_JAUMANN`, for every variation. -/\ntheorem N3_compose_ABAQUS__DTAU_DF__C_TAU_JAUMANN (hc : c * c = 2) (h2 : (2:K) ≠ 0)\n    (D : Nat → Nat → K) (F0 F : M3 K) (l00 l11 l22 l01 l02 l12 : K) (s : Nat → K) (hJ : F.det ≠ 0) :\n    upper (lamAb F (M3.ofMandel c [s 0, s 1, s 2, s 3, s 4, s 5]) (M3.sym l00 l11 l22 l01 l02 l12) (M3.ofMandel c (act (Gen.N3_ABAQUS__DTAU_DF_r c c3 fn (matOf (Gen.N3_DTAU_DF__C_TAU_JAUMANN_r c c3 fn D (tensv F0) (tensv F) s)) (tensv F0) (tensv F) s) (M3.mandel3 c (symm (M3.sym l00 l11 l22 l01 l02 l12))))))\n      = upper (lamAb F (M3.ofMandel c [s 0, s 1, s 2, s 3, s 4, s 5]) (M3.sym l00 l11 l22 l01 l02 l12) (M3.ofMandel c (act (Gen.N3_ABAQUS__C_TAU_JAUMANN_r c c3 fn D (tensv F0) (tensv F) s) (M3.mandel3 c (symm (M3.sym l00 l11 l22 l01 l02 l12)))))) := by\n  refine (PropsN3_ABAQUS__DTAU_DF.N3_ABAQUS__DTAU_DF c c3 fn hc h2 (hJ := hJ) ..).trans ?_\n  refine (PropsN3_DTAU_DF__C_TAU_JAUMANN.N3_DTAU_DF__C_TAU_JAUMANN c c3 fn hc h2 (hJ := hJ) ..).trans ?_\n  exact (PropsN3_ABAQUS__C_TAU_JAUMANN.N3_ABAQUS__C_TAU_JAUMANN c c3 fn hc h2 (hJ := hJ) ..).symm\n\n/-- conversions compose: `ABAQUS ← DTAU_DF ← SPATIAL_MODULI` acts as the direct `ABAQUS ← SPATIAL_MODULI`, for every variation. -/\ntheorem N3_compose_ABAQUS__DTAU_DF__SPATIAL_MODULI (hc : c * c = 2) (h2 : (2:K) ≠ 0)\n    (D : Nat → Nat → K) (F0 F : M3 K) (l00 l11 l22 l01 l02 l12 : K) (s : Nat → K) (hJ : F.det ≠ 0) :\n    upper (lamAb F (M3.ofMandel c [s 0, s 1, s 2, s 3, s 4, s 5]) (M3.sym l00 l11 l22 l01 l02 l12) (M3.ofMandel c (act (Gen.N3_ABAQUS__DTAU_DF_r c c3 fn (matOf (Gen.N3_DTAU_DF__SPATIAL_MODULI_r c c3 fn D (tensv F0) (tensv F) s)) (tensv F0) (tensv F) s) (M3.mandel3 c (symm (M3.sym l00 l11 l22 l01 l02 l12))))))\n      = upper (lamAb F (M3.ofMandel c [s 0, s 1, s 2, s 3, s 4, s 5]) (M3.sym l00 l11 l22 l01 l02 l12) (M3.ofMandel c (act (Gen.N3_ABAQUS__SPATIAL_MODULI_r c c3 fn D (tensv F0) (tensv F) s) (M3.mandel3 c (symm (M3.sym l00 l11 l22 l01 l02 l12)))))) := by\n  refine (PropsN3_ABAQUS__DTAU_DF.N3_ABAQUS__DTAU_DF c c3 fn hc h2 (hJ := hJ) ..).trans ?_\n  refine (PropsN3Chains.N3_DTAU_DF__SPATIAL_MODULI c c3 fn hc h2 (hJ := hJ) ..).trans ?_\n  exact (PropsN3_ABAQUS__SPATIAL_MODULI.N3_ABAQUS__SPATIAL_MODULI c c3 fn hc h2 (hJ := hJ) ..).symm\n\n/-- conversions compose: `DTAU_DF ← C_TAU_JAUMANN ← ABAQUS` acts as the direct `DTAU_DF ← ABAQUS`, for every variation. -/\ntheorem N3_compose_DTAU_DF__C_TAU_JAUMANN__ABAQUS (hc : c * c = 2) (h2 : (2:K) ≠ 0)\n    (D : Nat → Nat → K) (F0 F : M3 K) (L : M3 K) (s : Nat → K) (hJ : F.det ≠ 0) :\n    upper (lamTau F (M3.ofMandel c [s 0, s 1, s 2, s 3, s 4, s 5]) L (M3.ofMandel c (act (Gen.N3_DTAU_DF__C_TAU_JAUMANN_r c c3 fn (matOf (Gen.N3_C_TAU_JAUMANN__ABAQUS_r c c3 fn D (tensv F0) (tensv F) s)) (tensv F0) (tensv F) s) (M3.tens3 (L * F)))))\n      = upper (lamTau F (M3.ofMandel c [s 0, s 1, s 2, s 3, s 4, s 5]) L (M3.ofMandel c (act (Gen.N3_DTAU_DF__ABAQUS_r c c3 fn D (tensv F0) (tensv F) s) (M3.tens3 (L * F))))) := by\n  refine (PropsN3_DTAU_DF__C_TAU_JAUMANN.N3_DTAU_DF__C_TAU_JAUMANN c c3 fn hc h2 (hJ := hJ) ..).trans ?_\n  refine (PropsN3_C_TAU_JAUMANN__ABAQUS.N3_C_TAU_JAUMANN__ABAQUS c c3 fn hc h2 ..).trans ?_\n  exact (PropsN3_DTAU_DF__ABAQUS.N3_DTAU_DF__ABAQUS c c3 fn hc h2 (hJ := hJ) ..).symm\n\n/-- conversions compose: `DTAU_DF ← C_TAU_JAUMANN ← SPATIAL_MODULI` acts as the direct `DTAU_DF ← SPATIAL_MODULI`, for every variation. -/\ntheorem N3_compose_DTAU_DF__C_TAU_JAUMANN__SPATIAL_MODULI (hc : c * c = 2) (h2 : (2:K) ≠ 0)\n    (D : Nat → Nat → K) (F0 F : M3 K) (L : M3 K) (s : Nat → K) (hJ : F.det ≠ 0) :\n    upper (lamTau F (M3.ofMandel c [s 0, s 1, s 2, s 3, s 4, s 5]) L (M3.ofMandel c (act (Gen.N3_DTAU_DF__C_TAU_JAUMANN_r c c3 fn (matOf (Gen.N3_C_TAU_JAUMANN__SPATIAL_MODULI_r c c3 fn D (tensv F0) (tensv F) s)) (tensv F0) (tensv F) s) (M3.tens3 (L * F)))))\n      = upper (lamTau F (M3.ofMandel c [s 0, s 1, s 2, s 3, s 4, s 5]) L (M3.ofMandel c (act (Gen.N3_DTAU_DF__SPATIAL_MODULI_r c c3 fn D (tensv F0) (tensv F) s) (M3.tens3 (L * F))))) := by\n  refine (PropsN3_DTAU_DF__C_TAU_JAUMANN.N3_DTAU_DF__C_TAU_JAUMANN c c3 fn hc h2 (hJ := hJ) ..).trans ?_\n  refine (PropsN3_C_TAU_JAUMANN__SPATIAL_MODULI.N3_C_TAU_JAUMANN__SPATIAL_MODULI c c3 fn hc h2 ..).trans ?_\n  exact (PropsN3Chains.N3_DTAU_DF__SPATIAL_MODULI c c3 fn hc h2 (hJ := hJ) ..).symm\n\n/-- conversions compose: `DTAU_DF ← ABAQUS ← SPATIAL_MODULI` acts as the direct `DTAU_DF ← SPATIAL_MODULI`, for every variation. -/\ntheorem N3_compose_DTAU_DF__ABAQUS__SPATIAL_MODULI (hc : c * c = 2) (h2 : (2:K) ≠ 0)\n    (D : Nat → Nat → K) (F0 F : M3 K) (L : M3 K) (s : Nat → K) (hJ : F.det ≠ 0) :\n    upper (lamTau F (M3.ofMandel c [s 0, s 1, s 2, s 3, s 4, s 5]) L (M3.ofMandel c (act (Gen.N3_DTAU_DF__ABAQUS_r c c3 fn (matOf (Gen.N3_ABAQUS__SPATIAL_MODULI_r c c3 fn D (tensv F0) (tensv F) s)) (tensv F0) (tensv F) s) (M3.tens3 (L * F)))))\n      = upper (lamTau F (M3.ofMandel c [s 0, s 1, s 2, s 3, s 4, s 5]) L (M3.ofMandel c (act (Gen.N3_DTAU_DF__SPATIAL_MODULI_r c c3 fn D (tensv F0) (tensv F) s) (M3.tens3 (L * F))))) := by\n  refine (PropsN3_DTAU_DF__ABAQUS.N3_DTAU_DF__ABAQUS c c3 fn hc h2 (hJ := hJ) ..).trans ?_\n  refine (PropsN3_ABAQUS__SPATIAL_MODULI.N3_ABAQUS__SPATIAL_MODULI c c3 fn hc h2 (hJ := hJ) ..).trans ?_\n  exact (PropsN3Chains.N3_DTAU_DF__SPATIAL_MODULI c c3 fn hc h2 (hJ := hJ) ..).symm\n\n/-- conversions compose: `DTAU_DF ← ABAQUS ← C_TAU_JAUMANN` acts as the direct `DTAU_DF ← C_TAU_JAUMANN`, for every variation. -/\ntheorem N3_compose_DTAU_DF__ABAQUS__C_TAU_JAUMANN (hc : c * c = 2) (h2 : (2:K) ≠ 0)\n    (D : Nat → Nat → K) (F0 F : M3 K) (L : M3 K) (s : Nat → K) (hJ : F.det ≠ 0) :\n    upper (lamTau F (M3.ofMandel c [s 0, s 1, s 2, s 3, s 4, s 5]) L (M3.ofMandel c (act (Gen.N3_DTAU_DF__ABAQUS_r c c3 fn (matOf (Gen.N3_ABAQUS__C_TAU_JAUMANN_r c c3 fn D (tensv F0) (tensv F) s)) (tensv F0) (tensv F) s) (M3.tens3 (L * F)))))\n      = upper (lamTau F (M3.ofMandel c [s 0, s 1, s 2, s 3, s 4, s 5]) L (M3.ofMandel c (act (Gen.N3_DTAU_DF__C_TAU_JAUMANN_r c c3 fn D (tensv F0) (tensv F) s) (M3.tens3 (L * F))))) := by\n  refine (PropsN3_DTAU_DF__ABAQUS.N3_DTAU_DF__ABAQUS c c3 fn hc h2 (hJ := hJ) ..).trans ?_\n  refine (PropsN3_ABAQUS__C_TAU_JAUMANN.N3_ABAQUS__C_TAU_JAUMANN c c3 fn hc h2 (hJ := hJ) ..).trans ?_\n  exact (PropsN3_DTAU_DF__C_TAU_JAUMANN.N3_DTAU_DF__C_TAU_JAUMANN c c3 fn hc h2 (hJ := hJ) ..).symm\n\n/-- conversions compose: `DTAU_DF ← SPATIAL_MODULI ← ABAQUS` acts as the direct `DTAU_DF ← ABAQUS`, for every variation. -/\ntheorem N3_compose_DTAU_DF__SPATIAL_MODULI__ABAQUS (hc : c * c = 2) (h2 : (2:K) ≠ 0)\n    (D : Nat → Nat → K) (F0 F : M3 K) (L : M3 K) (s : Nat → K) (hJ : F.det ≠ 0) :\n    upper (lamTau F (M3.ofMandel c [s 0, s 1, s 2, s 3, s 4, s 5]) L (M3.ofMandel c (act (Gen.N3_DTAU_DF__SPATIAL_MODULI_r c c3 fn (matOf (Gen.N3_SPATIAL_MODULI__ABAQUS_r c c3 fn D (tensv F0) (tensv F) s)) (tensv F0) (tensv F) s) (M3.tens3 (L * F)))))\n      = upper (lamTau F (M3.ofMandel c [s 0, s 1, s 2, s 3, s 4, s 5]) L (M3.ofMandel c (act (Gen.N3_DTAU_DF__ABAQUS_r c c3 fn D (tensv F0) (tensv F) s) (M3.tens3 (L * F))))) := by\n  refine (PropsN3Chains.N3_DTAU_DF__SPATIAL_MODULI c c3 fn hc h2 (hJ := hJ) ..).trans ?_\n  refine (PropsN3_SPATIAL_MODULI__ABAQUS.N3_SPATIAL_MODULI__ABAQUS c c3 fn hc h2 ..).trans ?_\n  exact (PropsN3_DTAU_DF__ABAQUS.N3_DTAU_DF__ABAQUS c c3 fn hc h2 (hJ := hJ) ..).symm\n\n/-- conversions compose: `DTAU_DF ← SPATIAL_MODULI ← C_TAU_JAUMANN` acts as the direct `DTAU_DF ← C_TAU_JAUMANN`, for every variation. -/\ntheorem N3_compose_DTAU_DF__SPATIAL_MODULI__C_TAU_JAUMANN (hc : c * c = 2) (h2 : (2:K) ≠ 0)\n    (D : Nat → Nat → K) (F0 F : M3 K) (L : M3 K) (s : Nat → K) (hJ : F.det ≠ 0) :\n    upper (lamTau F (M3.ofMandel c [s 0, s 1, s 2, s 3, s 4, s 5]) L (M3.ofMandel c (act (Gen.N3_DTAU_DF__SPATIAL_MODULI_r c c3 fn (matOf (Gen.N3_SPATIAL_MODULI__C_TAU_JAUMANN_r c c3 fn D (tensv F0) (tensv F) s)) (tensv F0) (tensv F) s) (M3.tens3 (L * F)))))\n      = upper (lamTau F (M3.ofMandel c [s 0, s 1, s 2, s 3, s 4, s 5]) L (M3.ofMandel c (act (Gen.N3_DTAU_DF__C_TAU_JAUMANN_r c c3 fn D (tensv F0) (tensv F) s) (M3.tens3 (L * F))))) := by\n  refine (PropsN3Chains.N3_DTAU_DF__SPATIAL_MODULI c c3 fn hc h2 (hJ := hJ) ..).trans ?_\n  refine (PropsN3_SPATIAL_MODULI__C_TAU_JAUMANN.N3_SPATIAL_MODULI__C_TAU_JAUMANN c c3 fn hc h2 ..).trans ?_\n  exact (PropsN3_DTAU_DF__C_TAU_JAUMANN.N3_DTAU_DF__C_TAU_JAUMANN c c3 fn hc h2 (hJ := hJ) ..).symm\n\n/-- conversions compose: `DSIG_DF ← ABAQUS ← DS_DEGL` acts as the direct `DSIG_DF ← DS_DEGL`, for every variation. -/\ntheorem N3_compose_DSIG_DF__ABAQUS__DS_DEGL (hc : c * c = 2) (h2 : (2:K) ≠ 0)\n    (D : Nat → Nat → K) (F0 F : M3 K) (L : M3 K) (s : Nat → K) (hJ : F.det ≠ 0) :\n    upper (lamSig F (M3.ofMandel c [s 0, s 1, s 2, s 3, s 4, s 5]) L (M3.ofMandel c (act (Gen.N3_DSIG_DF__ABAQUS_r c c3 fn (matOf (Gen.N3_ABAQUS__DS_DEGL_r c c3 fn D (tensv F0) (tensv F) s)) (tensv F0) (tensv F) s) (M3.tens3 (L * F)))))\n      = upper (lamSig F (M3.ofMandel c [s 0, s 1, s 2, s 3, s 4, s 5]) L (M3.ofMandel c (act (Gen.N3_DSIG_DF__DS_DEGL_r c c3 fn D (tensv F0) (tensv F) s) (M3.tens3 (L * F))))) := by\n  refine (PropsN3Chains.N3_DSIG_DF__ABAQUS c c3 fn hc h2 (hJ := hJ) ..).trans ?_\n  refine (PropsN3Chains.N3_ABAQUS__DS_DEGL c c3 fn hc h2 (hJ := hJ) ..).trans ?_\n  exact (PropsN3Chains.N3_DSIG_DF__DS_DEGL c c3 fn hc h2 (hJ := hJ) ..).symm\n\n/-- conversions compose: `DSIG_DF ← ABAQUS ← DTAU_DF` acts as the direct `DSIG_DF ← DTAU_DF`, for every variation. -/\ntheorem N3_compose_DSIG_DF__ABAQUS__DTAU_DF (hc : c * c = 2) (h2 : (2:K) ≠ 0)\n    (D : Nat → Nat → K) (F0 F : M3 K) (l00 l11 l22 l01 l02 l12 : K) (s : Nat → K) (hJ : F.det ≠ 0) :\n    upper (lamSig F (M3.ofMandel c [s 0, s 1, s 2, s 3, s 4, s 5]) (M3.sym l00 l11 l22 l01 l02 l12) (M3.ofMandel c (act (Gen.N3_DSIG_DF__ABAQUS_r c c3 fn (matOf (Gen.N3_ABAQUS__DTAU_DF_r c c3 fn D (tensv F0) (tensv F) s)) (tensv F0) (tensv F) s) (M3.tens3 ((M3.sym l00 l11 l22 l01 l02 l12) * F)))))\n      = upper (lamSig F (M3.ofMandel c [s 0, s 1, s 2, s 3, s 4, s 5]) (M3.sym l00 l11 l22 l01 l02 l12) (M3.ofMandel c (act (Gen.N3_DSIG_DF__DTAU_DF_r c c3 fn D (tensv F0) (tensv F) s) (M3.tens3 ((M3.sym l00 l11 l22 l01 l02 l12) * F))))) := by\n  refine (PropsN3Chains.N3_DSIG_DF__ABAQUS c c3 fn hc h2 (hJ := hJ) ..).trans ?_\n  refine (PropsN3_ABAQUS__DTAU_DF.N3_ABAQUS__DTAU_DF c c3 fn hc h2 (hJ := hJ) ..).trans ?_\n  exact (PropsN3_DSIG_DF__DTAU_DF.N3_DSIG_DF__DTAU_DF c c3 fn hc h2 (hJ := hJ) ..).symm\n\nend TfelVerif.C23.PropsCompose3\n
+/-- round trip `DS_DC → DS_DEGL → DS_DC`: converting back gives an operator with the same action (hence the same
+meaning) as the one started from, for every variation. -/
+theorem N3_roundtrip_DS_DC__DS_DEGL (hc : c * c = 2) (h2 : (2:K) ≠ 0)
+    (D : Nat → Nat → K) (F0 F : M3 K) (L : M3 K) (s : Nat → K)  :
+    upper (lamS F (M3.ofMandel c [s 0, s 1, s 2, s 3, s 4, s 5]) L (M3.ofMandel c (act (Gen.N3_DS_DC__DS_DEGL_r c c3 fn (matOf (Gen.N3_DS_DEGL__DS_DC_r c c3 fn D (tensv F0) (tensv F) s)) (tensv F0) (tensv F) s) (M3.mandel3 c (dC F L)))))
+      = upper (lamS F (M3.ofMandel c [s 0, s 1, s 2, s 3, s 4, s 5]) L (M3.ofMandel c (act (rowsOf D i6 i6) (M3.mandel3 c (dC F L))))) := by
+  refine (PropsN3_DS_DC__DS_DEGL.N3_DS_DC__DS_DEGL c c3 fn hc h2 ..).trans ?_
+  exact PropsN3_DS_DEGL__DS_DC.N3_DS_DEGL__DS_DC c c3 fn hc h2 ..
+
+/-- round trip `DS_DEGL → DS_DC → DS_DEGL`: converting back gives an operator with the same action (hence the same
+meaning) as the one started from, for every variation. -/
+theorem N3_roundtrip_DS_DEGL__DS_DC (hc : c * c = 2) (h2 : (2:K) ≠ 0)
+    (D : Nat → Nat → K) (F0 F : M3 K) (L : M3 K) (s : Nat → K)  :
+    upper (lamS F (M3.ofMandel c [s 0, s 1, s 2, s 3, s 4, s 5]) L (M3.ofMandel c (act (Gen.N3_DS_DEGL__DS_DC_r c c3 fn (matOf (Gen.N3_DS_DC__DS_DEGL_r c c3 fn D (tensv F0) (tensv F) s)) (tensv F0) (tensv F) s) (M3.mandel3 c (dE F L)))))
+      = upper (lamS F (M3.ofMandel c [s 0, s 1, s 2, s 3, s 4, s 5]) L (M3.ofMandel c (act (rowsOf D i6 i6) (M3.mandel3 c (dE F L))))) := by
+  refine (PropsN3_DS_DEGL__DS_DC.N3_DS_DEGL__DS_DC c c3 fn hc h2 ..).trans ?_
+  exact PropsN3_DS_DC__DS_DEGL.N3_DS_DC__DS_DEGL c c3 fn hc h2 ..
+
+/-- round trip `SPATIAL_MODULI → DS_DEGL → SPATIAL_MODULI`: converting back gives an operator with the same action (hence the same
+meaning) as the one started from, for every variation. -/
+theorem N3_roundtrip_SPATIAL_MODULI__DS_DEGL (hc : c * c = 2) (h2 : (2:K) ≠ 0)
+    (D : Nat → Nat → K) (F0 F : M3 K) (L : M3 K) (s : Nat → K) (hJ : F.det ≠ 0) :
+    upper (lamSM F (M3.ofMandel c [s 0, s 1, s 2, s 3, s 4, s 5]) L (M3.ofMandel c (act (Gen.N3_SPATIAL_MODULI__DS_DEGL_r c c3 fn (matOf (Gen.N3_DS_DEGL__SPATIAL_MODULI_r c c3 fn D (tensv F0) (tensv F) s)) (tensv F0) (tensv F) s) (M3.mandel3 c (symm L)))))
+      = upper (lamSM F (M3.ofMandel c [s 0, s 1, s 2, s 3, s 4, s 5]) L (M3.ofMandel c (act (rowsOf D i6 i6) (M3.mandel3 c (symm L))))) := by
+  refine (PropsN3_SPATIAL_MODULI__DS_DEGL.N3_SPATIAL_MODULI__DS_DEGL c c3 fn hc h2 ..).trans ?_
+  exact PropsN3Chains.N3_DS_DEGL__SPATIAL_MODULI c c3 fn hc h2 (hJ := hJ) ..
+
+/-- round trip `DS_DEGL → SPATIAL_MODULI → DS_DEGL`: converting back gives an operator with the same action (hence the same
+meaning) as the one started from, for every variation. -/
+theorem N3_roundtrip_DS_DEGL__SPATIAL_MODULI (hc : c * c = 2) (h2 : (2:K) ≠ 0)
+    (D : Nat → Nat → K) (F0 F : M3 K) (L : M3 K) (s : Nat → K) (hJ : F.det ≠ 0) :
+    upper (lamS F (M3.ofMandel c [s 0, s 1, s 2, s 3, s 4, s 5]) L (M3.ofMandel c (act (Gen.N3_DS_DEGL__SPATIAL_MODULI_r c c3 fn (matOf (Gen.N3_SPATIAL_MODULI__DS_DEGL_r c c3 fn D (tensv F0) (tensv F) s)) (tensv F0) (tensv F) s) (M3.mandel3 c (dE F L)))))
+      = upper (lamS F (M3.ofMandel c [s 0, s 1, s 2, s 3, s 4, s 5]) L (M3.ofMandel c (act (rowsOf D i6 i6) (M3.mandel3 c (dE F L))))) := by
+  refine (PropsN3Chains.N3_DS_DEGL__SPATIAL_MODULI c c3 fn hc h2 (hJ := hJ) ..).trans ?_
+  exact PropsN3_SPATIAL_MODULI__DS_DEGL.N3_SPATIAL_MODULI__DS_DEGL c c3 fn hc h2 ..
+
+/-- round trip `ABAQUS → SPATIAL_MODULI → ABAQUS`: converting back gives an operator with the same action (hence the same
+meaning) as the one started from, for every variation. -/
+theorem N3_roundtrip_ABAQUS__SPATIAL_MODULI (hc : c * c = 2) (h2 : (2:K) ≠ 0)
+    (D : Nat → Nat → K) (F0 F : M3 K) (L : M3 K) (s : Nat → K) (hJ : F.det ≠ 0) :
+    upper (lamAb F (M3.ofMandel c [s 0, s 1, s 2, s 3, s 4, s 5]) L (M3.ofMandel c (act (Gen.N3_ABAQUS__SPATIAL_MODULI_r c c3 fn (matOf (Gen.N3_SPATIAL_MODULI__ABAQUS_r c c3 fn D (tensv F0) (tensv F) s)) (tensv F0) (tensv F) s) (M3.mandel3 c (symm L)))))
+      = upper (lamAb F (M3.ofMandel c [s 0, s 1, s 2, s 3, s 4, s 5]) L (M3.ofMandel c (act (rowsOf D i6 i6) (M3.mandel3 c (symm L))))) := by
+  refine (PropsN3_ABAQUS__SPATIAL_MODULI.N3_ABAQUS__SPATIAL_MODULI c c3 fn hc h2 (hJ := hJ) ..).trans ?_
+  exact PropsN3_SPATIAL_MODULI__ABAQUS.N3_SPATIAL_MODULI__ABAQUS c c3 fn hc h2 ..
+
+/-- round trip `SPATIAL_MODULI → ABAQUS → SPATIAL_MODULI`: converting back gives an operator with the same action (hence the same
+meaning) as the one started from, for every variation. -/
+theorem N3_roundtrip_SPATIAL_MODULI__ABAQUS (hc : c * c = 2) (h2 : (2:K) ≠ 0)
+    (D : Nat → Nat → K) (F0 F : M3 K) (L : M3 K) (s : Nat → K) (hJ : F.det ≠ 0) :
+    upper (lamSM F (M3.ofMandel c [s 0, s 1, s 2, s 3, s 4, s 5]) L (M3.ofMandel c (act (Gen.N3_SPATIAL_MODULI__ABAQUS_r c c3 fn (matOf (Gen.N3_ABAQUS__SPATIAL_MODULI_r c c3 fn D (tensv F0) (tensv F) s)) (tensv F0) (tensv F) s) (M3.mandel3 c (symm L)))))
+      = upper (lamSM F (M3.ofMandel c [s 0, s 1, s 2, s 3, s 4, s 5]) L (M3.ofMandel c (act (rowsOf D i6 i6) (M3.mandel3 c (symm L))))) := by
+  refine (PropsN3_SPATIAL_MODULI__ABAQUS.N3_SPATIAL_MODULI__ABAQUS c c3 fn hc h2 ..).trans ?_
+  exact PropsN3_ABAQUS__SPATIAL_MODULI.N3_ABAQUS__SPATIAL_MODULI c c3 fn hc h2 (hJ := hJ) ..
+
+/-- round trip `C_TRUESDELL → SPATIAL_MODULI → C_TRUESDELL`: converting back gives an operator with the same action (hence the same
+meaning) as the one started from, for every variation. -/
+theorem N3_roundtrip_C_TRUESDELL__SPATIAL_MODULI (hc : c * c = 2) (h2 : (2:K) ≠ 0)
+    (D : Nat → Nat → K) (F0 F : M3 K) (L : M3 K) (s : Nat → K) (hJ : F.det ≠ 0) :
+    upper (lamTr F (M3.ofMandel c [s 0, s 1, s 2, s 3, s 4, s 5]) L (M3.ofMandel c (act (Gen.N3_C_TRUESDELL__SPATIAL_MODULI_r c c3 fn (matOf (Gen.N3_SPATIAL_MODULI__C_TRUESDELL_r c c3 fn D (tensv F0) (tensv F) s)) (tensv F0) (tensv F) s) (M3.mandel3 c (symm L)))))
+      = upper (lamTr F (M3.ofMandel c [s 0, s 1, s 2, s 3, s 4, s 5]) L (M3.ofMandel c (act (rowsOf D i6 i6) (M3.mandel3 c (symm L))))) := by
+  refine (PropsN3_C_TRUESDELL__SPATIAL_MODULI.N3_C_TRUESDELL__SPATIAL_MODULI c c3 fn hc h2 (hJ := hJ) ..).trans ?_
+  exact PropsN3_SPATIAL_MODULI__C_TRUESDELL.N3_SPATIAL_MODULI__C_TRUESDELL c c3 fn hc h2 ..
+
+/-- round trip `SPATIAL_MODULI → C_TRUESDELL → SPATIAL_MODULI`: converting back gives an operator with the same action (hence the same
+meaning) as the one started from, for every variation. -/
+theorem N3_roundtrip_SPATIAL_MODULI__C_TRUESDELL (hc : c * c = 2) (h2 : (2:K) ≠ 0)
+    (D : Nat → Nat → K) (F0 F : M3 K) (L : M3 K) (s : Nat → K) (hJ : F.det ≠ 0) :
+    upper (lamSM F (M3.ofMandel c [s 0, s 1, s 2, s 3, s 4, s 5]) L (M3.ofMandel c (act (Gen.N3_SPATIAL_MODULI__C_TRUESDELL_r c c3 fn (matOf (Gen.N3_C_TRUESDELL__SPATIAL_MODULI_r c c3 fn D (tensv F0) (tensv F) s)) (tensv F0) (tensv F) s) (M3.mandel3 c (symm L)))))
+      = upper (lamSM F (M3.ofMandel c [s 0, s 1, s 2, s 3, s 4, s 5]) L (M3.ofMandel c (act (rowsOf D i6 i6) (M3.mandel3 c (symm L))))) := by
+  refine (PropsN3_SPATIAL_MODULI__C_TRUESDELL.N3_SPATIAL_MODULI__C_TRUESDELL c c3 fn hc h2 ..).trans ?_
+  exact PropsN3_C_TRUESDELL__SPATIAL_MODULI.N3_C_TRUESDELL__SPATIAL_MODULI c c3 fn hc h2 (hJ := hJ) ..
+
+/-- round trip `DSIG_DDF → DSIG_DF → DSIG_DDF`: converting back gives an operator with the same action (hence the same
+meaning) as the one started from, for every variation. -/
+theorem N3_roundtrip_DSIG_DDF__DSIG_DF (hc : c * c = 2) (h2 : (2:K) ≠ 0)
+    (D : Nat → Nat → K) (F0 Δ : M3 K) (L : M3 K) (s : Nat → K) (hJ : F0.det ≠ 0) :
+    upper (lamSig (Δ * F0) (M3.ofMandel c [s 0, s 1, s 2, s 3, s 4, s 5]) L (M3.ofMandel c (act (Gen.N3_DSIG_DDF__DSIG_DF_r c c3 fn (matOf (Gen.N3_DSIG_DF__DSIG_DDF_r c c3 fn D (tensv F0) (tensv (Δ * F0)) s)) (tensv F0) (tensv (Δ * F0)) s) (M3.tens3 (L * Δ)))))
+      = upper (lamSig (Δ * F0) (M3.ofMandel c [s 0, s 1, s 2, s 3, s 4, s 5]) L (M3.ofMandel c (act (rowsOf D i6 i9) (M3.tens3 (L * Δ))))) := by
+  refine (PropsN3_DSIG_DDF__DSIG_DF.N3_DSIG_DDF__DSIG_DF c c3 fn hc h2 ..).trans ?_
+  exact PropsN3_DSIG_DF__DSIG_DDF.N3_DSIG_DF__DSIG_DDF c c3 fn hc h2 (hJ := hJ) ..
+
+/-- round trip `DSIG_DF → DSIG_DDF → DSIG_DF`: converting back gives an operator with the same action (hence the same
+meaning) as the one started from, for every variation. -/
+theorem N3_roundtrip_DSIG_DF__DSIG_DDF (hc : c * c = 2) (h2 : (2:K) ≠ 0)
+    (D : Nat → Nat → K) (F0 Δ : M3 K) (L : M3 K) (s : Nat → K) (hJ : F0.det ≠ 0) :
+    upper (lamSig (Δ * F0) (M3.ofMandel c [s 0, s 1, s 2, s 3, s 4, s 5]) L (M3.ofMandel c (act (Gen.N3_DSIG_DF__DSIG_DDF_r c c3 fn (matOf (Gen.N3_DSIG_DDF__DSIG_DF_r c c3 fn D (tensv F0) (tensv (Δ * F0)) s)) (tensv F0) (tensv (Δ * F0)) s) (M3.tens3 (L * (Δ * F0))))))
+      = upper (lamSig (Δ * F0) (M3.ofMandel c [s 0, s 1, s 2, s 3, s 4, s 5]) L (M3.ofMandel c (act (rowsOf D i6 i9) (M3.tens3 (L * (Δ * F0)))))) := by
+  refine (PropsN3_DSIG_DF__DSIG_DDF.N3_DSIG_DF__DSIG_DDF c c3 fn hc h2 (hJ := hJ) ..).trans ?_
+  exact PropsN3_DSIG_DDF__DSIG_DF.N3_DSIG_DDF__DSIG_DF c c3 fn hc h2 ..
+
+/-- round trip `DTAU_DDF → DTAU_DF → DTAU_DDF`: converting back gives an operator with the same action (hence the same
+meaning) as the one started from, for every variation. -/
+theorem N3_roundtrip_DTAU_DDF__DTAU_DF (hc : c * c = 2) (h2 : (2:K) ≠ 0)
+    (D : Nat → Nat → K) (F0 Δ : M3 K) (L : M3 K) (s : Nat → K) (hJ : F0.det ≠ 0) :
+    upper (lamTau (Δ * F0) (M3.ofMandel c [s 0, s 1, s 2, s 3, s 4, s 5]) L (M3.ofMandel c (act (Gen.N3_DTAU_DDF__DTAU_DF_r c c3 fn (matOf (Gen.N3_DTAU_DF__DTAU_DDF_r c c3 fn D (tensv F0) (tensv (Δ * F0)) s)) (tensv F0) (tensv (Δ * F0)) s) (M3.tens3 (L * Δ)))))
+      = upper (lamTau (Δ * F0) (M3.ofMandel c [s 0, s 1, s 2, s 3, s 4, s 5]) L (M3.ofMandel c (act (rowsOf D i6 i9) (M3.tens3 (L * Δ))))) := by
+  refine (PropsN3_DTAU_DDF__DTAU_DF.N3_DTAU_DDF__DTAU_DF c c3 fn hc h2 ..).trans ?_
+  exact PropsN3_DTAU_DF__DTAU_DDF.N3_DTAU_DF__DTAU_DDF c c3 fn hc h2 (hJ := hJ) ..
+
+/-- round trip `DTAU_DF → DTAU_DDF → DTAU_DF`: converting back gives an operator with the same action (hence the same
+meaning) as the one started from, for every variation. -/
+theorem N3_roundtrip_DTAU_DF__DTAU_DDF (hc : c * c = 2) (h2 : (2:K) ≠ 0)
+    (D : Nat → Nat → K) (F0 Δ : M3 K) (L : M3 K) (s : Nat → K) (hJ : F0.det ≠ 0) :
+    upper (lamTau (Δ * F0) (M3.ofMandel c [s 0, s 1, s 2, s 3, s 4, s 5]) L (M3.ofMandel c (act (Gen.N3_DTAU_DF__DTAU_DDF_r c c3 fn (matOf (Gen.N3_DTAU_DDF__DTAU_DF_r c c3 fn D (tensv F0) (tensv (Δ * F0)) s)) (tensv F0) (tensv (Δ * F0)) s) (M3.tens3 (L * (Δ * F0))))))
+      = upper (lamTau (Δ * F0) (M3.ofMandel c [s 0, s 1, s 2, s 3, s 4, s 5]) L (M3.ofMandel c (act (rowsOf D i6 i9) (M3.tens3 (L * (Δ * F0)))))) := by
+  refine (PropsN3_DTAU_DF__DTAU_DDF.N3_DTAU_DF__DTAU_DDF c c3 fn hc h2 (hJ := hJ) ..).trans ?_
+  exact PropsN3_DTAU_DDF__DTAU_DF.N3_DTAU_DDF__DTAU_DF c c3 fn hc h2 ..
+
+/-- round trip `SPATIAL_MODULI → DTAU_DF → SPATIAL_MODULI`: converting back gives an operator with the same action (hence the same
+meaning) as the one started from, for every variation. -/
+theorem N3_roundtrip_SPATIAL_MODULI__DTAU_DF (hc : c * c = 2) (h2 : (2:K) ≠ 0)
+    (D : Nat → Nat → K) (F0 F : M3 K) (l00 l11 l22 l01 l02 l12 : K) (s : Nat → K) (hJ : F.det ≠ 0) :
+    upper (lamSM F (M3.ofMandel c [s 0, s 1, s 2, s 3, s 4, s 5]) (M3.sym l00 l11 l22 l01 l02 l12) (M3.ofMandel c (act (Gen.N3_SPATIAL_MODULI__DTAU_DF_r c c3 fn (matOf (Gen.N3_DTAU_DF__SPATIAL_MODULI_r c c3 fn D (tensv F0) (tensv F) s)) (tensv F0) (tensv F) s) (M3.mandel3 c (symm (M3.sym l00 l11 l22 l01 l02 l12))))))
+      = upper (lamSM F (M3.ofMandel c [s 0, s 1, s 2, s 3, s 4, s 5]) (M3.sym l00 l11 l22 l01 l02 l12) (M3.ofMandel c (act (rowsOf D i6 i6) (M3.mandel3 c (symm (M3.sym l00 l11 l22 l01 l02 l12)))))) := by
+  refine (PropsN3Chains.N3_SPATIAL_MODULI__DTAU_DF c c3 fn hc h2 ..).trans ?_
+  exact PropsN3Chains.N3_DTAU_DF__SPATIAL_MODULI c c3 fn hc h2 (hJ := hJ) ..
+
+/-- round trip `C_TAU_JAUMANN → DTAU_DF → C_TAU_JAUMANN`: converting back gives an operator with the same action (hence the same
+meaning) as the one started from, for every variation. -/
+theorem N3_roundtrip_C_TAU_JAUMANN__DTAU_DF (hc : c * c = 2) (h2 : (2:K) ≠ 0)
+    (D : Nat → Nat → K) (F0 F : M3 K) (l00 l11 l22 l01 l02 l12 : K) (s : Nat → K) (hJ : F.det ≠ 0) :
+    upper (lamJ F (M3.ofMandel c [s 0, s 1, s 2, s 3, s 4, s 5]) (M3.sym l00 l11 l22 l01 l02 l12) (M3.ofMandel c (act (Gen.N3_C_TAU_JAUMANN__DTAU_DF_r c c3 fn (matOf (Gen.N3_DTAU_DF__C_TAU_JAUMANN_r c c3 fn D (tensv F0) (tensv F) s)) (tensv F0) (tensv F) s) (M3.mandel3 c (symm (M3.sym l00 l11 l22 l01 l02 l12))))))
+      = upper (lamJ F (M3.ofMandel c [s 0, s 1, s 2, s 3, s 4, s 5]) (M3.sym l00 l11 l22 l01 l02 l12) (M3.ofMandel c (act (rowsOf D i6 i6) (M3.mandel3 c (symm (M3.sym l00 l11 l22 l01 l02 l12)))))) := by
+  refine (PropsN3_C_TAU_JAUMANN__DTAU_DF.N3_C_TAU_JAUMANN__DTAU_DF c c3 fn hc h2 ..).trans ?_
+  exact PropsN3_DTAU_DF__C_TAU_JAUMANN.N3_DTAU_DF__C_TAU_JAUMANN c c3 fn hc h2 (hJ := hJ) ..
+
+/-- round trip `ABAQUS → C_TAU_JAUMANN → ABAQUS`: converting back gives an operator with the same action (hence the same
+meaning) as the one started from, for every variation. -/
+theorem N3_roundtrip_ABAQUS__C_TAU_JAUMANN (hc : c * c = 2) (h2 : (2:K) ≠ 0)
+    (D : Nat → Nat → K) (F0 F : M3 K) (L : M3 K) (s : Nat → K) (hJ : F.det ≠ 0) :
+    upper (lamAb F (M3.ofMandel c [s 0, s 1, s 2, s 3, s 4, s 5]) L (M3.ofMandel c (act (Gen.N3_ABAQUS__C_TAU_JAUMANN_r c c3 fn (matOf (Gen.N3_C_TAU_JAUMANN__ABAQUS_r c c3 fn D (tensv F0) (tensv F) s)) (tensv F0) (tensv F) s) (M3.mandel3 c (symm L)))))
+      = upper (lamAb F (M3.ofMandel c [s 0, s 1, s 2, s 3, s 4, s 5]) L (M3.ofMandel c (act (rowsOf D i6 i6) (M3.mandel3 c (symm L))))) := by
+  refine (PropsN3_ABAQUS__C_TAU_JAUMANN.N3_ABAQUS__C_TAU_JAUMANN c c3 fn hc h2 (hJ := hJ) ..).trans ?_
+  exact PropsN3_C_TAU_JAUMANN__ABAQUS.N3_C_TAU_JAUMANN__ABAQUS c c3 fn hc h2 ..
+
+/-- round trip `C_TAU_JAUMANN → ABAQUS → C_TAU_JAUMANN`: converting back gives an operator with the same action (hence the same
+meaning) as the one started from, for every variation. -/
+theorem N3_roundtrip_C_TAU_JAUMANN__ABAQUS (hc : c * c = 2) (h2 : (2:K) ≠ 0)
+    (D : Nat → Nat → K) (F0 F : M3 K) (L : M3 K) (s : Nat → K) (hJ : F.det ≠ 0) :
+    upper (lamJ F (M3.ofMandel c [s 0, s 1, s 2, s 3, s 4, s 5]) L (M3.ofMandel c (act (Gen.N3_C_TAU_JAUMANN__ABAQUS_r c c3 fn (matOf (Gen.N3_ABAQUS__C_TAU_JAUMANN_r c c3 fn D (tensv F0) (tensv F) s)) (tensv F0) (tensv F) s) (M3.mandel3 c (symm L)))))
+      = upper (lamJ F (M3.ofMandel c [s 0, s 1, s 2, s 3, s 4, s 5]) L (M3.ofMandel c (act (rowsOf D i6 i6) (M3.mandel3 c (symm L))))) := by
+  refine (PropsN3_C_TAU_JAUMANN__ABAQUS.N3_C_TAU_JAUMANN__ABAQUS c c3 fn hc h2 ..).trans ?_
+  exact PropsN3_ABAQUS__C_TAU_JAUMANN.N3_ABAQUS__C_TAU_JAUMANN c c3 fn hc h2 (hJ := hJ) ..
+
+/-- round trip `C_TAU_JAUMANN → SPATIAL_MODULI → C_TAU_JAUMANN`: converting back gives an operator with the same action (hence the same
+meaning) as the one started from, for every variation. -/
+theorem N3_roundtrip_C_TAU_JAUMANN__SPATIAL_MODULI (hc : c * c = 2) (h2 : (2:K) ≠ 0)
+    (D : Nat → Nat → K) (F0 F : M3 K) (L : M3 K) (s : Nat → K)  :
+    upper (lamJ F (M3.ofMandel c [s 0, s 1, s 2, s 3, s 4, s 5]) L (M3.ofMandel c (act (Gen.N3_C_TAU_JAUMANN__SPATIAL_MODULI_r c c3 fn (matOf (Gen.N3_SPATIAL_MODULI__C_TAU_JAUMANN_r c c3 fn D (tensv F0) (tensv F) s)) (tensv F0) (tensv F) s) (M3.mandel3 c (symm L)))))
+      = upper (lamJ F (M3.ofMandel c [s 0, s 1, s 2, s 3, s 4, s 5]) L (M3.ofMandel c (act (rowsOf D i6 i6) (M3.mandel3 c (symm L))))) := by
+  refine (PropsN3_C_TAU_JAUMANN__SPATIAL_MODULI.N3_C_TAU_JAUMANN__SPATIAL_MODULI c c3 fn hc h2 ..).trans ?_
+  exact PropsN3_SPATIAL_MODULI__C_TAU_JAUMANN.N3_SPATIAL_MODULI__C_TAU_JAUMANN c c3 fn hc h2 ..
+
+/-- round trip `SPATIAL_MODULI → C_TAU_JAUMANN → SPATIAL_MODULI`: converting back gives an operator with the same action (hence the same
+meaning) as the one started from, for every variation. -/
+theorem N3_roundtrip_SPATIAL_MODULI__C_TAU_JAUMANN (hc : c * c = 2) (h2 : (2:K) ≠ 0)
+    (D : Nat → Nat → K) (F0 F : M3 K) (L : M3 K) (s : Nat → K)  :
+    upper (lamSM F (M3.ofMandel c [s 0, s 1, s 2, s 3, s 4, s 5]) L (M3.ofMandel c (act (Gen.N3_SPATIAL_MODULI__C_TAU_JAUMANN_r c c3 fn (matOf (Gen.N3_C_TAU_JAUMANN__SPATIAL_MODULI_r c c3 fn D (tensv F0) (tensv F) s)) (tensv F0) (tensv F) s) (M3.mandel3 c (symm L)))))
+      = upper (lamSM F (M3.ofMandel c [s 0, s 1, s 2, s 3, s 4, s 5]) L (M3.ofMandel c (act (rowsOf D i6 i6) (M3.mandel3 c (symm L))))) := by
+  refine (PropsN3_SPATIAL_MODULI__C_TAU_JAUMANN.N3_SPATIAL_MODULI__C_TAU_JAUMANN c c3 fn hc h2 ..).trans ?_
+  exact PropsN3_C_TAU_JAUMANN__SPATIAL_MODULI.N3_C_TAU_JAUMANN__SPATIAL_MODULI c c3 fn hc h2 ..
+
+/-- round trip `ABAQUS → DTAU_DF → ABAQUS`: converting back gives an operator with the same action (hence the same
+meaning) as the one started from, for every variation. -/
+theorem N3_roundtrip_ABAQUS__DTAU_DF (hc : c * c = 2) (h2 : (2:K) ≠ 0)
+    (D : Nat → Nat → K) (F0 F : M3 K) (l00 l11 l22 l01 l02 l12 : K) (s : Nat → K) (hJ : F.det ≠ 0) :
+    upper (lamAb F (M3.ofMandel c [s 0, s 1, s 2, s 3, s 4, s 5]) (M3.sym l00 l11 l22 l01 l02 l12) (M3.ofMandel c (act (Gen.N3_ABAQUS__DTAU_DF_r c c3 fn (matOf (Gen.N3_DTAU_DF__ABAQUS_r c c3 fn D (tensv F0) (tensv F) s)) (tensv F0) (tensv F) s) (M3.mandel3 c (symm (M3.sym l00 l11 l22 l01 l02 l12))))))
+      = upper (lamAb F (M3.ofMandel c [s 0, s 1, s 2, s 3, s 4, s 5]) (M3.sym l00 l11 l22 l01 l02 l12) (M3.ofMandel c (act (rowsOf D i6 i6) (M3.mandel3 c (symm (M3.sym l00 l11 l22 l01 l02 l12)))))) := by
+  refine (PropsN3_ABAQUS__DTAU_DF.N3_ABAQUS__DTAU_DF c c3 fn hc h2 (hJ := hJ) ..).trans ?_
+  exact PropsN3_DTAU_DF__ABAQUS.N3_DTAU_DF__ABAQUS c c3 fn hc h2 (hJ := hJ) ..
+
+/-- round trip `DTAU_DF → C_TAU_JAUMANN → DTAU_DF`: converting back gives an operator with the same action (hence the same
+meaning) as the one started from, for every variation. -/
+theorem N3_roundtrip_DTAU_DF__C_TAU_JAUMANN (hc : c * c = 2) (h2 : (2:K) ≠ 0)
+    (D : Nat → Nat → K) (F0 F : M3 K) (l00 l11 l22 l01 l02 l12 : K) (s : Nat → K) (hJ : F.det ≠ 0) :
+    upper (lamTau F (M3.ofMandel c [s 0, s 1, s 2, s 3, s 4, s 5]) (M3.sym l00 l11 l22 l01 l02 l12) (M3.ofMandel c (act (Gen.N3_DTAU_DF__C_TAU_JAUMANN_r c c3 fn (matOf (Gen.N3_C_TAU_JAUMANN__DTAU_DF_r c c3 fn D (tensv F0) (tensv F) s)) (tensv F0) (tensv F) s) (M3.tens3 ((M3.sym l00 l11 l22 l01 l02 l12) * F)))))
+      = upper (lamTau F (M3.ofMandel c [s 0, s 1, s 2, s 3, s 4, s 5]) (M3.sym l00 l11 l22 l01 l02 l12) (M3.ofMandel c (act (rowsOf D i6 i9) (M3.tens3 ((M3.sym l00 l11 l22 l01 l02 l12) * F))))) := by
+  refine (PropsN3_DTAU_DF__C_TAU_JAUMANN.N3_DTAU_DF__C_TAU_JAUMANN c c3 fn hc h2 (hJ := hJ) ..).trans ?_
+  exact PropsN3_C_TAU_JAUMANN__DTAU_DF.N3_C_TAU_JAUMANN__DTAU_DF c c3 fn hc h2 ..
+
+/-- round trip `DTAU_DF → ABAQUS → DTAU_DF`: converting back gives an operator with the same action (hence the same
+meaning) as the one started from, for every variation. -/
+theorem N3_roundtrip_DTAU_DF__ABAQUS (hc : c * c = 2) (h2 : (2:K) ≠ 0)
+    (D : Nat → Nat → K) (F0 F : M3 K) (l00 l11 l22 l01 l02 l12 : K) (s : Nat → K) (hJ : F.det ≠ 0) :
+    upper (lamTau F (M3.ofMandel c [s 0, s 1, s 2, s 3, s 4, s 5]) (M3.sym l00 l11 l22 l01 l02 l12) (M3.ofMandel c (act (Gen.N3_DTAU_DF__ABAQUS_r c c3 fn (matOf (Gen.N3_ABAQUS__DTAU_DF_r c c3 fn D (tensv F0) (tensv F) s)) (tensv F0) (tensv F) s) (M3.tens3 ((M3.sym l00 l11 l22 l01 l02 l12) * F)))))
+      = upper (lamTau F (M3.ofMandel c [s 0, s 1, s 2, s 3, s 4, s 5]) (M3.sym l00 l11 l22 l01 l02 l12) (M3.ofMandel c (act (rowsOf D i6 i9) (M3.tens3 ((M3.sym l00 l11 l22 l01 l02 l12) * F))))) := by
+  refine (PropsN3_DTAU_DF__ABAQUS.N3_DTAU_DF__ABAQUS c c3 fn hc h2 (hJ := hJ) ..).trans ?_
+  exact PropsN3_ABAQUS__DTAU_DF.N3_ABAQUS__DTAU_DF c c3 fn hc h2 (hJ := hJ) ..
+
+/-- round trip `DTAU_DF → SPATIAL_MODULI → DTAU_DF`: converting back gives an operator with the same action (hence the same
+meaning) as the one started from, for every variation. -/
+theorem N3_roundtrip_DTAU_DF__SPATIAL_MODULI (hc : c * c = 2) (h2 : (2:K) ≠ 0)
+    (D : Nat → Nat → K) (F0 F : M3 K) (l00 l11 l22 l01 l02 l12 : K) (s : Nat → K) (hJ : F.det ≠ 0) :
+    upper (lamTau F (M3.ofMandel c [s 0, s 1, s 2, s 3, s 4, s 5]) (M3.sym l00 l11 l22 l01 l02 l12) (M3.ofMandel c (act (Gen.N3_DTAU_DF__SPATIAL_MODULI_r c c3 fn (matOf (Gen.N3_SPATIAL_MODULI__DTAU_DF_r c c3 fn D (tensv F0) (tensv F) s)) (tensv F0) (tensv F) s) (M3.tens3 ((M3.sym l00 l11 l22 l01 l02 l12) * F)))))
+      = upper (lamTau F (M3.ofMandel c [s 0, s 1, s 2, s 3, s 4, s 5]) (M3.sym l00 l11 l22 l01 l02 l12) (M3.ofMandel c (act (rowsOf D i6 i9) (M3.tens3 ((M3.sym l00 l11 l22 l01 l02 l12) * F))))) := by
+  refine (PropsN3Chains.N3_DTAU_DF__SPATIAL_MODULI c c3 fn hc h2 (hJ := hJ) ..).trans ?_
+  exact PropsN3Chains.N3_SPATIAL_MODULI__DTAU_DF c c3 fn hc h2 ..
+
+/-- conversions compose: `DS_DF ← DS_DC ← DS_DEGL` acts as the direct `DS_DF ← DS_DEGL`, for every variation. -/
+theorem N3_compose_DS_DF__DS_DC__DS_DEGL (hc : c * c = 2) (h2 : (2:K) ≠ 0)
+    (D : Nat → Nat → K) (F0 F : M3 K) (L : M3 K) (s : Nat → K)  :
+    upper (lamS F (M3.ofMandel c [s 0, s 1, s 2, s 3, s 4, s 5]) L (M3.ofMandel c (act (Gen.N3_DS_DF__DS_DC_r c c3 fn (matOf (Gen.N3_DS_DC__DS_DEGL_r c c3 fn D (tensv F0) (tensv F) s)) (tensv F0) (tensv F) s) (M3.tens3 (L * F)))))
+      = upper (lamS F (M3.ofMandel c [s 0, s 1, s 2, s 3, s 4, s 5]) L (M3.ofMandel c (act (Gen.N3_DS_DF__DS_DEGL_r c c3 fn D (tensv F0) (tensv F) s) (M3.tens3 (L * F))))) := by
+  refine (PropsN3_DS_DF__DS_DC.N3_DS_DF__DS_DC c c3 fn hc h2 ..).trans ?_
+  refine (PropsN3_DS_DC__DS_DEGL.N3_DS_DC__DS_DEGL c c3 fn hc h2 ..).trans ?_
+  exact (PropsN3_DS_DF__DS_DEGL.N3_DS_DF__DS_DEGL c c3 fn hc h2 ..).symm
+
+/-- conversions compose: `DS_DF ← DS_DEGL ← DS_DC` acts as the direct `DS_DF ← DS_DC`, for every variation. -/
+theorem N3_compose_DS_DF__DS_DEGL__DS_DC (hc : c * c = 2) (h2 : (2:K) ≠ 0)
+    (D : Nat → Nat → K) (F0 F : M3 K) (L : M3 K) (s : Nat → K)  :
+    upper (lamS F (M3.ofMandel c [s 0, s 1, s 2, s 3, s 4, s 5]) L (M3.ofMandel c (act (Gen.N3_DS_DF__DS_DEGL_r c c3 fn (matOf (Gen.N3_DS_DEGL__DS_DC_r c c3 fn D (tensv F0) (tensv F) s)) (tensv F0) (tensv F) s) (M3.tens3 (L * F)))))
+      = upper (lamS F (M3.ofMandel c [s 0, s 1, s 2, s 3, s 4, s 5]) L (M3.ofMandel c (act (Gen.N3_DS_DF__DS_DC_r c c3 fn D (tensv F0) (tensv F) s) (M3.tens3 (L * F))))) := by
+  refine (PropsN3_DS_DF__DS_DEGL.N3_DS_DF__DS_DEGL c c3 fn hc h2 ..).trans ?_
+  refine (PropsN3_DS_DEGL__DS_DC.N3_DS_DEGL__DS_DC c c3 fn hc h2 ..).trans ?_
+  exact (PropsN3_DS_DF__DS_DC.N3_DS_DF__DS_DC c c3 fn hc h2 ..).symm
+
+/-- conversions compose: `ABAQUS ← SPATIAL_MODULI ← DS_DEGL` acts as the direct `ABAQUS ← DS_DEGL`, for every variation. -/
+theorem N3_compose_ABAQUS__SPATIAL_MODULI__DS_DEGL (hc : c * c = 2) (h2 : (2:K) ≠ 0)
+    (D : Nat → Nat → K) (F0 F : M3 K) (L : M3 K) (s : Nat → K) (hJ : F.det ≠ 0) :
+    upper (lamAb F (M3.ofMandel c [s 0, s 1, s 2, s 3, s 4, s 5]) L (M3.ofMandel c (act (Gen.N3_ABAQUS__SPATIAL_MODULI_r c c3 fn (matOf (Gen.N3_SPATIAL_MODULI__DS_DEGL_r c c3 fn D (tensv F0) (tensv F) s)) (tensv F0) (tensv F) s) (M3.mandel3 c (symm L)))))
+      = upper (lamAb F (M3.ofMandel c [s 0, s 1, s 2, s 3, s 4, s 5]) L (M3.ofMandel c (act (Gen.N3_ABAQUS__DS_DEGL_r c c3 fn D (tensv F0) (tensv F) s) (M3.mandel3 c (symm L))))) := by
+  refine (PropsN3_ABAQUS__SPATIAL_MODULI.N3_ABAQUS__SPATIAL_MODULI c c3 fn hc h2 (hJ := hJ) ..).trans ?_
+  refine (PropsN3_SPATIAL_MODULI__DS_DEGL.N3_SPATIAL_MODULI__DS_DEGL c c3 fn hc h2 ..).trans ?_
+  exact (PropsN3Chains.N3_ABAQUS__DS_DEGL c c3 fn hc h2 (hJ := hJ) ..).symm
+
+/-- conversions compose: `ABAQUS ← SPATIAL_MODULI ← DTAU_DF` acts as the direct `ABAQUS ← DTAU_DF`, for every variation. -/
+theorem N3_compose_ABAQUS__SPATIAL_MODULI__DTAU_DF (hc : c * c = 2) (h2 : (2:K) ≠ 0)
+    (D : Nat → Nat → K) (F0 F : M3 K) (l00 l11 l22 l01 l02 l12 : K) (s : Nat → K) (hJ : F.det ≠ 0) :
+    upper (lamAb F (M3.ofMandel c [s 0, s 1, s 2, s 3, s 4, s 5]) (M3.sym l00 l11 l22 l01 l02 l12) (M3.ofMandel c (act (Gen.N3_ABAQUS__SPATIAL_MODULI_r c c3 fn (matOf (Gen.N3_SPATIAL_MODULI__DTAU_DF_r c c3 fn D (tensv F0) (tensv F) s)) (tensv F0) (tensv F) s) (M3.mandel3 c (symm (M3.sym l00 l11 l22 l01 l02 l12))))))
+      = upper (lamAb F (M3.ofMandel c [s 0, s 1, s 2, s 3, s 4, s 5]) (M3.sym l00 l11 l22 l01 l02 l12) (M3.ofMandel c (act (Gen.N3_ABAQUS__DTAU_DF_r c c3 fn D (tensv F0) (tensv F) s) (M3.mandel3 c (symm (M3.sym l00 l11 l22 l01 l02 l12)))))) := by
+  refine (PropsN3_ABAQUS__SPATIAL_MODULI.N3_ABAQUS__SPATIAL_MODULI c c3 fn hc h2 (hJ := hJ) ..).trans ?_
+  refine (PropsN3Chains.N3_SPATIAL_MODULI__DTAU_DF c c3 fn hc h2 ..).trans ?_
+  exact (PropsN3_ABAQUS__DTAU_DF.N3_ABAQUS__DTAU_DF c c3 fn hc h2 (hJ := hJ) ..).symm
+
+/-- conversions compose: `ABAQUS ← SPATIAL_MODULI ← C_TAU_JAUMANN` acts as the direct `ABAQUS ← C_TAU_JAUMANN`, for every variation. -/
+theorem N3_compose_ABAQUS__SPATIAL_MODULI__C_TAU_JAUMANN (hc : c * c = 2) (h2 : (2:K) ≠ 0)
+    (D : Nat → Nat → K) (F0 F : M3 K) (L : M3 K) (s : Nat → K) (hJ : F.det ≠ 0) :
+    upper (lamAb F (M3.ofMandel c [s 0, s 1, s 2, s 3, s 4, s 5]) L (M3.ofMandel c (act (Gen.N3_ABAQUS__SPATIAL_MODULI_r c c3 fn (matOf (Gen.N3_SPATIAL_MODULI__C_TAU_JAUMANN_r c c3 fn D (tensv F0) (tensv F) s)) (tensv F0) (tensv F) s) (M3.mandel3 c (symm L)))))
+      = upper (lamAb F (M3.ofMandel c [s 0, s 1, s 2, s 3, s 4, s 5]) L (M3.ofMandel c (act (Gen.N3_ABAQUS__C_TAU_JAUMANN_r c c3 fn D (tensv F0) (tensv F) s) (M3.mandel3 c (symm L))))) := by
+  refine (PropsN3_ABAQUS__SPATIAL_MODULI.N3_ABAQUS__SPATIAL_MODULI c c3 fn hc h2 (hJ := hJ) ..).trans ?_
+  refine (PropsN3_SPATIAL_MODULI__C_TAU_JAUMANN.N3_SPATIAL_MODULI__C_TAU_JAUMANN c c3 fn hc h2 ..).trans ?_
+  exact (PropsN3_ABAQUS__C_TAU_JAUMANN.N3_ABAQUS__C_TAU_JAUMANN c c3 fn hc h2 (hJ := hJ) ..).symm
+
+/-- conversions compose: `ABAQUS ← DS_DEGL ← SPATIAL_MODULI` acts as the direct `ABAQUS ← SPATIAL_MODULI`, for every variation. -/
+theorem N3_compose_ABAQUS__DS_DEGL__SPATIAL_MODULI (hc : c * c = 2) (h2 : (2:K) ≠ 0)
+    (D : Nat → Nat → K) (F0 F : M3 K) (L : M3 K) (s : Nat → K) (hJ : F.det ≠ 0) :
+    upper (lamAb F (M3.ofMandel c [s 0, s 1, s 2, s 3, s 4, s 5]) L (M3.ofMandel c (act (Gen.N3_ABAQUS__DS_DEGL_r c c3 fn (matOf (Gen.N3_DS_DEGL__SPATIAL_MODULI_r c c3 fn D (tensv F0) (tensv F) s)) (tensv F0) (tensv F) s) (M3.mandel3 c (symm L)))))
+      = upper (lamAb F (M3.ofMandel c [s 0, s 1, s 2, s 3, s 4, s 5]) L (M3.ofMandel c (act (Gen.N3_ABAQUS__SPATIAL_MODULI_r c c3 fn D (tensv F0) (tensv F) s) (M3.mandel3 c (symm L))))) := by
+  refine (PropsN3Chains.N3_ABAQUS__DS_DEGL c c3 fn hc h2 (hJ := hJ) ..).trans ?_
+  refine (PropsN3Chains.N3_DS_DEGL__SPATIAL_MODULI c c3 fn hc h2 (hJ := hJ) ..).trans ?_
+  exact (PropsN3_ABAQUS__SPATIAL_MODULI.N3_ABAQUS__SPATIAL_MODULI c c3 fn hc h2 (hJ := hJ) ..).symm
+
+/-- conversions compose: `DSIG_DF ← C_TRUESDELL ← DS_DEGL` acts as the direct `DSIG_DF ← DS_DEGL`, for every variation. -/
+theorem N3_compose_DSIG_DF__C_TRUESDELL__DS_DEGL (hc : c * c = 2) (h2 : (2:K) ≠ 0)
+    (D : Nat → Nat → K) (F0 F : M3 K) (L : M3 K) (s : Nat → K) (hJ : F.det ≠ 0) :
+    upper (lamSig F (M3.ofMandel c [s 0, s 1, s 2, s 3, s 4, s 5]) L (M3.ofMandel c (act (Gen.N3_DSIG_DF__C_TRUESDELL_r c c3 fn (matOf (Gen.N3_C_TRUESDELL__DS_DEGL_r c c3 fn D (tensv F0) (tensv F) s)) (tensv F0) (tensv F) s) (M3.tens3 (L * F)))))
+      = upper (lamSig F (M3.ofMandel c [s 0, s 1, s 2, s 3, s 4, s 5]) L (M3.ofMandel c (act (Gen.N3_DSIG_DF__DS_DEGL_r c c3 fn D (tensv F0) (tensv F) s) (M3.tens3 (L * F))))) := by
+  refine (PropsN3Chains.N3_DSIG_DF__C_TRUESDELL c c3 fn hc h2 (hJ := hJ) ..).trans ?_
+  refine (PropsN3Chains.N3_C_TRUESDELL__DS_DEGL c c3 fn hc h2 (hJ := hJ) ..).trans ?_
+  exact (PropsN3Chains.N3_DSIG_DF__DS_DEGL c c3 fn hc h2 (hJ := hJ) ..).symm
+
+/-- conversions compose: `DSIG_DF ← C_TRUESDELL ← DTAU_DF` acts as the direct `DSIG_DF ← DTAU_DF`, for every variation. -/
+theorem N3_compose_DSIG_DF__C_TRUESDELL__DTAU_DF (hc : c * c = 2) (h2 : (2:K) ≠ 0)
+    (D : Nat → Nat → K) (F0 F : M3 K) (l00 l11 l22 l01 l02 l12 : K) (s : Nat → K) (hJ : F.det ≠ 0) :
+    upper (lamSig F (M3.ofMandel c [s 0, s 1, s 2, s 3, s 4, s 5]) (M3.sym l00 l11 l22 l01 l02 l12) (M3.ofMandel c (act (Gen.N3_DSIG_DF__C_TRUESDELL_r c c3 fn (matOf (Gen.N3_C_TRUESDELL__DTAU_DF_r c c3 fn D (tensv F0) (tensv F) s)) (tensv F0) (tensv F) s) (M3.tens3 ((M3.sym l00 l11 l22 l01 l02 l12) * F)))))
+      = upper (lamSig F (M3.ofMandel c [s 0, s 1, s 2, s 3, s 4, s 5]) (M3.sym l00 l11 l22 l01 l02 l12) (M3.ofMandel c (act (Gen.N3_DSIG_DF__DTAU_DF_r c c3 fn D (tensv F0) (tensv F) s) (M3.tens3 ((M3.sym l00 l11 l22 l01 l02 l12) * F))))) := by
+  refine (PropsN3Chains.N3_DSIG_DF__C_TRUESDELL c c3 fn hc h2 (hJ := hJ) ..).trans ?_
+  refine (PropsN3Chains.N3_C_TRUESDELL__DTAU_DF c c3 fn hc h2 (hJ := hJ) ..).trans ?_
+  exact (PropsN3_DSIG_DF__DTAU_DF.N3_DSIG_DF__DTAU_DF c c3 fn hc h2 (hJ := hJ) ..).symm
+
+/-- conversions compose: `SPATIAL_MODULI ← ABAQUS ← DS_DEGL` acts as the direct `SPATIAL_MODULI ← DS_DEGL`, for every variation. -/
+theorem N3_compose_SPATIAL_MODULI__ABAQUS__DS_DEGL (hc : c * c = 2) (h2 : (2:K) ≠ 0)
+    (D : Nat → Nat → K) (F0 F : M3 K) (L : M3 K) (s : Nat → K) (hJ : F.det ≠ 0) :
+    upper (lamSM F (M3.ofMandel c [s 0, s 1, s 2, s 3, s 4, s 5]) L (M3.ofMandel c (act (Gen.N3_SPATIAL_MODULI__ABAQUS_r c c3 fn (matOf (Gen.N3_ABAQUS__DS_DEGL_r c c3 fn D (tensv F0) (tensv F) s)) (tensv F0) (tensv F) s) (M3.mandel3 c (symm L)))))
+      = upper (lamSM F (M3.ofMandel c [s 0, s 1, s 2, s 3, s 4, s 5]) L (M3.ofMandel c (act (Gen.N3_SPATIAL_MODULI__DS_DEGL_r c c3 fn D (tensv F0) (tensv F) s) (M3.mandel3 c (symm L))))) := by
+  refine (PropsN3_SPATIAL_MODULI__ABAQUS.N3_SPATIAL_MODULI__ABAQUS c c3 fn hc h2 ..).trans ?_
+  refine (PropsN3Chains.N3_ABAQUS__DS_DEGL c c3 fn hc h2 (hJ := hJ) ..).trans ?_
+  exact (PropsN3_SPATIAL_MODULI__DS_DEGL.N3_SPATIAL_MODULI__DS_DEGL c c3 fn hc h2 ..).symm
+
+/-- conversions compose: `SPATIAL_MODULI ← ABAQUS ← C_TAU_JAUMANN` acts as the direct `SPATIAL_MODULI ← C_TAU_JAUMANN`, for every variation. -/
+theorem N3_compose_SPATIAL_MODULI__ABAQUS__C_TAU_JAUMANN (hc : c * c = 2) (h2 : (2:K) ≠ 0)
+    (D : Nat → Nat → K) (F0 F : M3 K) (L : M3 K) (s : Nat → K) (hJ : F.det ≠ 0) :
+    upper (lamSM F (M3.ofMandel c [s 0, s 1, s 2, s 3, s 4, s 5]) L (M3.ofMandel c (act (Gen.N3_SPATIAL_MODULI__ABAQUS_r c c3 fn (matOf (Gen.N3_ABAQUS__C_TAU_JAUMANN_r c c3 fn D (tensv F0) (tensv F) s)) (tensv F0) (tensv F) s) (M3.mandel3 c (symm L)))))
+      = upper (lamSM F (M3.ofMandel c [s 0, s 1, s 2, s 3, s 4, s 5]) L (M3.ofMandel c (act (Gen.N3_SPATIAL_MODULI__C_TAU_JAUMANN_r c c3 fn D (tensv F0) (tensv F) s) (M3.mandel3 c (symm L))))) := by
+  refine (PropsN3_SPATIAL_MODULI__ABAQUS.N3_SPATIAL_MODULI__ABAQUS c c3 fn hc h2 ..).trans ?_
+  refine (PropsN3_ABAQUS__C_TAU_JAUMANN.N3_ABAQUS__C_TAU_JAUMANN c c3 fn hc h2 (hJ := hJ) ..).trans ?_
+  exact (PropsN3_SPATIAL_MODULI__C_TAU_JAUMANN.N3_SPATIAL_MODULI__C_TAU_JAUMANN c c3 fn hc h2 ..).symm
+
+/-- conversions compose: `SPATIAL_MODULI ← ABAQUS ← DTAU_DF` acts as the direct `SPATIAL_MODULI ← DTAU_DF`, for every variation. -/
+theorem N3_compose_SPATIAL_MODULI__ABAQUS__DTAU_DF (hc : c * c = 2) (h2 : (2:K) ≠ 0)
+    (D : Nat → Nat → K) (F0 F : M3 K) (l00 l11 l22 l01 l02 l12 : K) (s : Nat → K) (hJ : F.det ≠ 0) :
+    upper (lamSM F (M3.ofMandel c [s 0, s 1, s 2, s 3, s 4, s 5]) (M3.sym l00 l11 l22 l01 l02 l12) (M3.ofMandel c (act (Gen.N3_SPATIAL_MODULI__ABAQUS_r c c3 fn (matOf (Gen.N3_ABAQUS__DTAU_DF_r c c3 fn D (tensv F0) (tensv F) s)) (tensv F0) (tensv F) s) (M3.mandel3 c (symm (M3.sym l00 l11 l22 l01 l02 l12))))))
+      = upper (lamSM F (M3.ofMandel c [s 0, s 1, s 2, s 3, s 4, s 5]) (M3.sym l00 l11 l22 l01 l02 l12) (M3.ofMandel c (act (Gen.N3_SPATIAL_MODULI__DTAU_DF_r c c3 fn D (tensv F0) (tensv F) s) (M3.mandel3 c (symm (M3.sym l00 l11 l22 l01 l02 l12)))))) := by
+  refine (PropsN3_SPATIAL_MODULI__ABAQUS.N3_SPATIAL_MODULI__ABAQUS c c3 fn hc h2 ..).trans ?_
+  refine (PropsN3_ABAQUS__DTAU_DF.N3_ABAQUS__DTAU_DF c c3 fn hc h2 (hJ := hJ) ..).trans ?_
+  exact (PropsN3Chains.N3_SPATIAL_MODULI__DTAU_DF c c3 fn hc h2 ..).symm
+
+/-- conversions compose: `C_TRUESDELL ← SPATIAL_MODULI ← DS_DEGL` acts as the direct `C_TRUESDELL ← DS_DEGL`, for every variation. -/
+theorem N3_compose_C_TRUESDELL__SPATIAL_MODULI__DS_DEGL (hc : c * c = 2) (h2 : (2:K) ≠ 0)
+    (D : Nat → Nat → K) (F0 F : M3 K) (L : M3 K) (s : Nat → K) (hJ : F.det ≠ 0) :
+    upper (lamTr F (M3.ofMandel c [s 0, s 1, s 2, s 3, s 4, s 5]) L (M3.ofMandel c (act (Gen.N3_C_TRUESDELL__SPATIAL_MODULI_r c c3 fn (matOf (Gen.N3_SPATIAL_MODULI__DS_DEGL_r c c3 fn D (tensv F0) (tensv F) s)) (tensv F0) (tensv F) s) (M3.mandel3 c (symm L)))))
+      = upper (lamTr F (M3.ofMandel c [s 0, s 1, s 2, s 3, s 4, s 5]) L (M3.ofMandel c (act (Gen.N3_C_TRUESDELL__DS_DEGL_r c c3 fn D (tensv F0) (tensv F) s) (M3.mandel3 c (symm L))))) := by
+  refine (PropsN3_C_TRUESDELL__SPATIAL_MODULI.N3_C_TRUESDELL__SPATIAL_MODULI c c3 fn hc h2 (hJ := hJ) ..).trans ?_
+  refine (PropsN3_SPATIAL_MODULI__DS_DEGL.N3_SPATIAL_MODULI__DS_DEGL c c3 fn hc h2 ..).trans ?_
+  exact (PropsN3Chains.N3_C_TRUESDELL__DS_DEGL c c3 fn hc h2 (hJ := hJ) ..).symm
+
+/-- conversions compose: `C_TRUESDELL ← SPATIAL_MODULI ← DTAU_DF` acts as the direct `C_TRUESDELL ← DTAU_DF`, for every variation. -/
+theorem N3_compose_C_TRUESDELL__SPATIAL_MODULI__DTAU_DF (hc : c * c = 2) (h2 : (2:K) ≠ 0)
+    (D : Nat → Nat → K) (F0 F : M3 K) (l00 l11 l22 l01 l02 l12 : K) (s : Nat → K) (hJ : F.det ≠ 0) :
+    upper (lamTr F (M3.ofMandel c [s 0, s 1, s 2, s 3, s 4, s 5]) (M3.sym l00 l11 l22 l01 l02 l12) (M3.ofMandel c (act (Gen.N3_C_TRUESDELL__SPATIAL_MODULI_r c c3 fn (matOf (Gen.N3_SPATIAL_MODULI__DTAU_DF_r c c3 fn D (tensv F0) (tensv F) s)) (tensv F0) (tensv F) s) (M3.mandel3 c (symm (M3.sym l00 l11 l22 l01 l02 l12))))))
+      = upper (lamTr F (M3.ofMandel c [s 0, s 1, s 2, s 3, s 4, s 5]) (M3.sym l00 l11 l22 l01 l02 l12) (M3.ofMandel c (act (Gen.N3_C_TRUESDELL__DTAU_DF_r c c3 fn D (tensv F0) (tensv F) s) (M3.mandel3 c (symm (M3.sym l00 l11 l22 l01 l02 l12)))))) := by
+  refine (PropsN3_C_TRUESDELL__SPATIAL_MODULI.N3_C_TRUESDELL__SPATIAL_MODULI c c3 fn hc h2 (hJ := hJ) ..).trans ?_
+  refine (PropsN3Chains.N3_SPATIAL_MODULI__DTAU_DF c c3 fn hc h2 ..).trans ?_
+  exact (PropsN3Chains.N3_C_TRUESDELL__DTAU_DF c c3 fn hc h2 (hJ := hJ) ..).symm
+
+/-- conversions compose: `C_TRUESDELL ← DS_DEGL ← SPATIAL_MODULI` acts as the direct `C_TRUESDELL ← SPATIAL_MODULI`, for every variation. -/
+theorem N3_compose_C_TRUESDELL__DS_DEGL__SPATIAL_MODULI (hc : c * c = 2) (h2 : (2:K) ≠ 0)
+    (D : Nat → Nat → K) (F0 F : M3 K) (L : M3 K) (s : Nat → K) (hJ : F.det ≠ 0) :
+    upper (lamTr F (M3.ofMandel c [s 0, s 1, s 2, s 3, s 4, s 5]) L (M3.ofMandel c (act (Gen.N3_C_TRUESDELL__DS_DEGL_r c c3 fn (matOf (Gen.N3_DS_DEGL__SPATIAL_MODULI_r c c3 fn D (tensv F0) (tensv F) s)) (tensv F0) (tensv F) s) (M3.mandel3 c (symm L)))))
+      = upper (lamTr F (M3.ofMandel c [s 0, s 1, s 2, s 3, s 4, s 5]) L (M3.ofMandel c (act (Gen.N3_C_TRUESDELL__SPATIAL_MODULI_r c c3 fn D (tensv F0) (tensv F) s) (M3.mandel3 c (symm L))))) := by
+  refine (PropsN3Chains.N3_C_TRUESDELL__DS_DEGL c c3 fn hc h2 (hJ := hJ) ..).trans ?_
+  refine (PropsN3Chains.N3_DS_DEGL__SPATIAL_MODULI c c3 fn hc h2 (hJ := hJ) ..).trans ?_
+  exact (PropsN3_C_TRUESDELL__SPATIAL_MODULI.N3_C_TRUESDELL__SPATIAL_MODULI c c3 fn hc h2 (hJ := hJ) ..).symm
+
+/-- conversions compose: `SPATIAL_MODULI ← C_TRUESDELL ← DS_DEGL` acts as the direct `SPATIAL_MODULI ← DS_DEGL`, for every variation. -/
+theorem N3_compose_SPATIAL_MODULI__C_TRUESDELL__DS_DEGL (hc : c * c = 2) (h2 : (2:K) ≠ 0)
+    (D : Nat → Nat → K) (F0 F : M3 K) (L : M3 K) (s : Nat → K) (hJ : F.det ≠ 0) :
+    upper (lamSM F (M3.ofMandel c [s 0, s 1, s 2, s 3, s 4, s 5]) L (M3.ofMandel c (act (Gen.N3_SPATIAL_MODULI__C_TRUESDELL_r c c3 fn (matOf (Gen.N3_C_TRUESDELL__DS_DEGL_r c c3 fn D (tensv F0) (tensv F) s)) (tensv F0) (tensv F) s) (M3.mandel3 c (symm L)))))
+      = upper (lamSM F (M3.ofMandel c [s 0, s 1, s 2, s 3, s 4, s 5]) L (M3.ofMandel c (act (Gen.N3_SPATIAL_MODULI__DS_DEGL_r c c3 fn D (tensv F0) (tensv F) s) (M3.mandel3 c (symm L))))) := by
+  refine (PropsN3_SPATIAL_MODULI__C_TRUESDELL.N3_SPATIAL_MODULI__C_TRUESDELL c c3 fn hc h2 ..).trans ?_
+  refine (PropsN3Chains.N3_C_TRUESDELL__DS_DEGL c c3 fn hc h2 (hJ := hJ) ..).trans ?_
+  exact (PropsN3_SPATIAL_MODULI__DS_DEGL.N3_SPATIAL_MODULI__DS_DEGL c c3 fn hc h2 ..).symm
+
+/-- conversions compose: `SPATIAL_MODULI ← C_TRUESDELL ← DTAU_DF` acts as the direct `SPATIAL_MODULI ← DTAU_DF`, for every variation. -/
+theorem N3_compose_SPATIAL_MODULI__C_TRUESDELL__DTAU_DF (hc : c * c = 2) (h2 : (2:K) ≠ 0)
+    (D : Nat → Nat → K) (F0 F : M3 K) (l00 l11 l22 l01 l02 l12 : K) (s : Nat → K) (hJ : F.det ≠ 0) :
+    upper (lamSM F (M3.ofMandel c [s 0, s 1, s 2, s 3, s 4, s 5]) (M3.sym l00 l11 l22 l01 l02 l12) (M3.ofMandel c (act (Gen.N3_SPATIAL_MODULI__C_TRUESDELL_r c c3 fn (matOf (Gen.N3_C_TRUESDELL__DTAU_DF_r c c3 fn D (tensv F0) (tensv F) s)) (tensv F0) (tensv F) s) (M3.mandel3 c (symm (M3.sym l00 l11 l22 l01 l02 l12))))))
+      = upper (lamSM F (M3.ofMandel c [s 0, s 1, s 2, s 3, s 4, s 5]) (M3.sym l00 l11 l22 l01 l02 l12) (M3.ofMandel c (act (Gen.N3_SPATIAL_MODULI__DTAU_DF_r c c3 fn D (tensv F0) (tensv F) s) (M3.mandel3 c (symm (M3.sym l00 l11 l22 l01 l02 l12)))))) := by
+  refine (PropsN3_SPATIAL_MODULI__C_TRUESDELL.N3_SPATIAL_MODULI__C_TRUESDELL c c3 fn hc h2 ..).trans ?_
+  refine (PropsN3Chains.N3_C_TRUESDELL__DTAU_DF c c3 fn hc h2 (hJ := hJ) ..).trans ?_
+  exact (PropsN3Chains.N3_SPATIAL_MODULI__DTAU_DF c c3 fn hc h2 ..).symm
+
+/-- conversions compose: `DSIG_DF ← DTAU_DF ← ABAQUS` acts as the direct `DSIG_DF ← ABAQUS`, for every variation. -/
+theorem N3_compose_DSIG_DF__DTAU_DF__ABAQUS (hc : c * c = 2) (h2 : (2:K) ≠ 0)
+    (D : Nat → Nat → K) (F0 F : M3 K) (L : M3 K) (s : Nat → K) (hJ : F.det ≠ 0) :
+    upper (lamSig F (M3.ofMandel c [s 0, s 1, s 2, s 3, s 4, s 5]) L (M3.ofMandel c (act (Gen.N3_DSIG_DF__DTAU_DF_r c c3 fn (matOf (Gen.N3_DTAU_DF__ABAQUS_r c c3 fn D (tensv F0) (tensv F) s)) (tensv F0) (tensv F) s) (M3.tens3 (L * F)))))
+      = upper (lamSig F (M3.ofMandel c [s 0, s 1, s 2, s 3, s 4, s 5]) L (M3.ofMandel c (act (Gen.N3_DSIG_DF__ABAQUS_r c c3 fn D (tensv F0) (tensv F) s) (M3.tens3 (L * F))))) := by
+  refine (PropsN3_DSIG_DF__DTAU_DF.N3_DSIG_DF__DTAU_DF c c3 fn hc h2 (hJ := hJ) ..).trans ?_
+  refine (PropsN3_DTAU_DF__ABAQUS.N3_DTAU_DF__ABAQUS c c3 fn hc h2 (hJ := hJ) ..).trans ?_
+  exact (PropsN3Chains.N3_DSIG_DF__ABAQUS c c3 fn hc h2 (hJ := hJ) ..).symm
+
+/-- conversions compose: `SPATIAL_MODULI ← DTAU_DF ← C_TAU_JAUMANN` acts as the direct `SPATIAL_MODULI ← C_TAU_JAUMANN`, for every variation. -/
+theorem N3_compose_SPATIAL_MODULI__DTAU_DF__C_TAU_JAUMANN (hc : c * c = 2) (h2 : (2:K) ≠ 0)
+    (D : Nat → Nat → K) (F0 F : M3 K) (l00 l11 l22 l01 l02 l12 : K) (s : Nat → K) (hJ : F.det ≠ 0) :
+    upper (lamSM F (M3.ofMandel c [s 0, s 1, s 2, s 3, s 4, s 5]) (M3.sym l00 l11 l22 l01 l02 l12) (M3.ofMandel c (act (Gen.N3_SPATIAL_MODULI__DTAU_DF_r c c3 fn (matOf (Gen.N3_DTAU_DF__C_TAU_JAUMANN_r c c3 fn D (tensv F0) (tensv F) s)) (tensv F0) (tensv F) s) (M3.mandel3 c (symm (M3.sym l00 l11 l22 l01 l02 l12))))))
+      = upper (lamSM F (M3.ofMandel c [s 0, s 1, s 2, s 3, s 4, s 5]) (M3.sym l00 l11 l22 l01 l02 l12) (M3.ofMandel c (act (Gen.N3_SPATIAL_MODULI__C_TAU_JAUMANN_r c c3 fn D (tensv F0) (tensv F) s) (M3.mandel3 c (symm (M3.sym l00 l11 l22 l01 l02 l12)))))) := by
+  refine (PropsN3Chains.N3_SPATIAL_MODULI__DTAU_DF c c3 fn hc h2 ..).trans ?_
+  refine (PropsN3_DTAU_DF__C_TAU_JAUMANN.N3_DTAU_DF__C_TAU_JAUMANN c c3 fn hc h2 (hJ := hJ) ..).trans ?_
+  exact (PropsN3_SPATIAL_MODULI__C_TAU_JAUMANN.N3_SPATIAL_MODULI__C_TAU_JAUMANN c c3 fn hc h2 ..).symm
+
+/-- conversions compose: `SPATIAL_MODULI ← DTAU_DF ← ABAQUS` acts as the direct `SPATIAL_MODULI ← ABAQUS`, for every variation. -/
+theorem N3_compose_SPATIAL_MODULI__DTAU_DF__ABAQUS (hc : c * c = 2) (h2 : (2:K) ≠ 0)
+    (D : Nat → Nat → K) (F0 F : M3 K) (l00 l11 l22 l01 l02 l12 : K) (s : Nat → K) (hJ : F.det ≠ 0) :
+    upper (lamSM F (M3.ofMandel c [s 0, s 1, s 2, s 3, s 4, s 5]) (M3.sym l00 l11 l22 l01 l02 l12) (M3.ofMandel c (act (Gen.N3_SPATIAL_MODULI__DTAU_DF_r c c3 fn (matOf (Gen.N3_DTAU_DF__ABAQUS_r c c3 fn D (tensv F0) (tensv F) s)) (tensv F0) (tensv F) s) (M3.mandel3 c (symm (M3.sym l00 l11 l22 l01 l02 l12))))))
+      = upper (lamSM F (M3.ofMandel c [s 0, s 1, s 2, s 3, s 4, s 5]) (M3.sym l00 l11 l22 l01 l02 l12) (M3.ofMandel c (act (Gen.N3_SPATIAL_MODULI__ABAQUS_r c c3 fn D (tensv F0) (tensv F) s) (M3.mandel3 c (symm (M3.sym l00 l11 l22 l01 l02 l12)))))) := by
+  refine (PropsN3Chains.N3_SPATIAL_MODULI__DTAU_DF c c3 fn hc h2 ..).trans ?_
+  refine (PropsN3_DTAU_DF__ABAQUS.N3_DTAU_DF__ABAQUS c c3 fn hc h2 (hJ := hJ) ..).trans ?_
+  exact (PropsN3_SPATIAL_MODULI__ABAQUS.N3_SPATIAL_MODULI__ABAQUS c c3 fn hc h2 ..).symm
+
+/-- conversions compose: `C_TAU_JAUMANN ← DTAU_DF ← ABAQUS` acts as the direct `C_TAU_JAUMANN ← ABAQUS`, for every variation. -/
+theorem N3_compose_C_TAU_JAUMANN__DTAU_DF__ABAQUS (hc : c * c = 2) (h2 : (2:K) ≠ 0)
+    (D : Nat → Nat → K) (F0 F : M3 K) (l00 l11 l22 l01 l02 l12 : K) (s : Nat → K) (hJ : F.det ≠ 0) :
+    upper (lamJ F (M3.ofMandel c [s 0, s 1, s 2, s 3, s 4, s 5]) (M3.sym l00 l11 l22 l01 l02 l12) (M3.ofMandel c (act (Gen.N3_C_TAU_JAUMANN__DTAU_DF_r c c3 fn (matOf (Gen.N3_DTAU_DF__ABAQUS_r c c3 fn D (tensv F0) (tensv F) s)) (tensv F0) (tensv F) s) (M3.mandel3 c (symm (M3.sym l00 l11 l22 l01 l02 l12))))))
+      = upper (lamJ F (M3.ofMandel c [s 0, s 1, s 2, s 3, s 4, s 5]) (M3.sym l00 l11 l22 l01 l02 l12) (M3.ofMandel c (act (Gen.N3_C_TAU_JAUMANN__ABAQUS_r c c3 fn D (tensv F0) (tensv F) s) (M3.mandel3 c (symm (M3.sym l00 l11 l22 l01 l02 l12)))))) := by
+  refine (PropsN3_C_TAU_JAUMANN__DTAU_DF.N3_C_TAU_JAUMANN__DTAU_DF c c3 fn hc h2 ..).trans ?_
+  refine (PropsN3_DTAU_DF__ABAQUS.N3_DTAU_DF__ABAQUS c c3 fn hc h2 (hJ := hJ) ..).trans ?_
+  exact (PropsN3_C_TAU_JAUMANN__ABAQUS.N3_C_TAU_JAUMANN__ABAQUS c c3 fn hc h2 ..).symm
+
+/-- conversions compose: `C_TAU_JAUMANN ← DTAU_DF ← SPATIAL_MODULI` acts as the direct `C_TAU_JAUMANN ← SPATIAL_MODULI`, for every variation. -/
+theorem N3_compose_C_TAU_JAUMANN__DTAU_DF__SPATIAL_MODULI (hc : c * c = 2) (h2 : (2:K) ≠ 0)
+    (D : Nat → Nat → K) (F0 F : M3 K) (l00 l11 l22 l01 l02 l12 : K) (s : Nat → K) (hJ : F.det ≠ 0) :
+    upper (lamJ F (M3.ofMandel c [s 0, s 1, s 2, s 3, s 4, s 5]) (M3.sym l00 l11 l22 l01 l02 l12) (M3.ofMandel c (act (Gen.N3_C_TAU_JAUMANN__DTAU_DF_r c c3 fn (matOf (Gen.N3_DTAU_DF__SPATIAL_MODULI_r c c3 fn D (tensv F0) (tensv F) s)) (tensv F0) (tensv F) s) (M3.mandel3 c (symm (M3.sym l00 l11 l22 l01 l02 l12))))))
+      = upper (lamJ F (M3.ofMandel c [s 0, s 1, s 2, s 3, s 4, s 5]) (M3.sym l00 l11 l22 l01 l02 l12) (M3.ofMandel c (act (Gen.N3_C_TAU_JAUMANN__SPATIAL_MODULI_r c c3 fn D (tensv F0) (tensv F) s) (M3.mandel3 c (symm (M3.sym l00 l11 l22 l01 l02 l12)))))) := by
+  refine (PropsN3_C_TAU_JAUMANN__DTAU_DF.N3_C_TAU_JAUMANN__DTAU_DF c c3 fn hc h2 ..).trans ?_
+  refine (PropsN3Chains.N3_DTAU_DF__SPATIAL_MODULI c c3 fn hc h2 (hJ := hJ) ..).trans ?_
+  exact (PropsN3_C_TAU_JAUMANN__SPATIAL_MODULI.N3_C_TAU_JAUMANN__SPATIAL_MODULI c c3 fn hc h2 ..).symm
+
+/-- conversions compose: `C_TRUESDELL ← DTAU_DF ← SPATIAL_MODULI` acts as the direct `C_TRUESDELL ← SPATIAL_MODULI`, for every variation. -/
+theorem N3_compose_C_TRUESDELL__DTAU_DF__SPATIAL_MODULI (hc : c * c = 2) (h2 : (2:K) ≠ 0)
+    (D : Nat → Nat → K) (F0 F : M3 K) (l00 l11 l22 l01 l02 l12 : K) (s : Nat → K) (hJ : F.det ≠ 0) :
+    upper (lamTr F (M3.ofMandel c [s 0, s 1, s 2, s 3, s 4, s 5]) (M3.sym l00 l11 l22 l01 l02 l12) (M3.ofMandel c (act (Gen.N3_C_TRUESDELL__DTAU_DF_r c c3 fn (matOf (Gen.N3_DTAU_DF__SPATIAL_MODULI_r c c3 fn D (tensv F0) (tensv F) s)) (tensv F0) (tensv F) s) (M3.mandel3 c (symm (M3.sym l00 l11 l22 l01 l02 l12))))))
+      = upper (lamTr F (M3.ofMandel c [s 0, s 1, s 2, s 3, s 4, s 5]) (M3.sym l00 l11 l22 l01 l02 l12) (M3.ofMandel c (act (Gen.N3_C_TRUESDELL__SPATIAL_MODULI_r c c3 fn D (tensv F0) (tensv F) s) (M3.mandel3 c (symm (M3.sym l00 l11 l22 l01 l02 l12)))))) := by
+  refine (PropsN3Chains.N3_C_TRUESDELL__DTAU_DF c c3 fn hc h2 (hJ := hJ) ..).trans ?_
+  refine (PropsN3Chains.N3_DTAU_DF__SPATIAL_MODULI c c3 fn hc h2 (hJ := hJ) ..).trans ?_
+  exact (PropsN3_C_TRUESDELL__SPATIAL_MODULI.N3_C_TRUESDELL__SPATIAL_MODULI c c3 fn hc h2 (hJ := hJ) ..).symm
+
+/-- conversions compose: `ABAQUS ← C_TAU_JAUMANN ← DTAU_DF` acts as the direct `ABAQUS ← DTAU_DF`, for every variation. -/
+theorem N3_compose_ABAQUS__C_TAU_JAUMANN__DTAU_DF (hc : c * c = 2) (h2 : (2:K) ≠ 0)
+    (D : Nat → Nat → K) (F0 F : M3 K) (l00 l11 l22 l01 l02 l12 : K) (s : Nat → K) (hJ : F.det ≠ 0) :
+    upper (lamAb F (M3.ofMandel c [s 0, s 1, s 2, s 3, s 4, s 5]) (M3.sym l00 l11 l22 l01 l02 l12) (M3.ofMandel c (act (Gen.N3_ABAQUS__C_TAU_JAUMANN_r c c3 fn (matOf (Gen.N3_C_TAU_JAUMANN__DTAU_DF_r c c3 fn D (tensv F0) (tensv F) s)) (tensv F0) (tensv F) s) (M3.mandel3 c (symm (M3.sym l00 l11 l22 l01 l02 l12))))))
+      = upper (lamAb F (M3.ofMandel c [s 0, s 1, s 2, s 3, s 4, s 5]) (M3.sym l00 l11 l22 l01 l02 l12) (M3.ofMandel c (act (Gen.N3_ABAQUS__DTAU_DF_r c c3 fn D (tensv F0) (tensv F) s) (M3.mandel3 c (symm (M3.sym l00 l11 l22 l01 l02 l12)))))) := by
+  refine (PropsN3_ABAQUS__C_TAU_JAUMANN.N3_ABAQUS__C_TAU_JAUMANN c c3 fn hc h2 (hJ := hJ) ..).trans ?_
+  refine (PropsN3_C_TAU_JAUMANN__DTAU_DF.N3_C_TAU_JAUMANN__DTAU_DF c c3 fn hc h2 ..).trans ?_
+  exact (PropsN3_ABAQUS__DTAU_DF.N3_ABAQUS__DTAU_DF c c3 fn hc h2 (hJ := hJ) ..).symm
+
+/-- conversions compose: `ABAQUS ← C_TAU_JAUMANN ← SPATIAL_MODULI` acts as the direct `ABAQUS ← SPATIAL_MODULI`, for every variation. -/
+theorem N3_compose_ABAQUS__C_TAU_JAUMANN__SPATIAL_MODULI (hc : c * c = 2) (h2 : (2:K) ≠ 0)
+    (D : Nat → Nat → K) (F0 F : M3 K) (L : M3 K) (s : Nat → K) (hJ : F.det ≠ 0) :
+    upper (lamAb F (M3.ofMandel c [s 0, s 1, s 2, s 3, s 4, s 5]) L (M3.ofMandel c (act (Gen.N3_ABAQUS__C_TAU_JAUMANN_r c c3 fn (matOf (Gen.N3_C_TAU_JAUMANN__SPATIAL_MODULI_r c c3 fn D (tensv F0) (tensv F) s)) (tensv F0) (tensv F) s) (M3.mandel3 c (symm L)))))
+      = upper (lamAb F (M3.ofMandel c [s 0, s 1, s 2, s 3, s 4, s 5]) L (M3.ofMandel c (act (Gen.N3_ABAQUS__SPATIAL_MODULI_r c c3 fn D (tensv F0) (tensv F) s) (M3.mandel3 c (symm L))))) := by
+  refine (PropsN3_ABAQUS__C_TAU_JAUMANN.N3_ABAQUS__C_TAU_JAUMANN c c3 fn hc h2 (hJ := hJ) ..).trans ?_
+  refine (PropsN3_C_TAU_JAUMANN__SPATIAL_MODULI.N3_C_TAU_JAUMANN__SPATIAL_MODULI c c3 fn hc h2 ..).trans ?_
+  exact (PropsN3_ABAQUS__SPATIAL_MODULI.N3_ABAQUS__SPATIAL_MODULI c c3 fn hc h2 (hJ := hJ) ..).symm
+
+/-- conversions compose: `C_TAU_JAUMANN ← ABAQUS ← SPATIAL_MODULI` acts as the direct `C_TAU_JAUMANN ← SPATIAL_MODULI`, for every variation. -/
+theorem N3_compose_C_TAU_JAUMANN__ABAQUS__SPATIAL_MODULI (hc : c * c = 2) (h2 : (2:K) ≠ 0)
+    (D : Nat → Nat → K) (F0 F : M3 K) (L : M3 K) (s : Nat → K) (hJ : F.det ≠ 0) :
+    upper (lamJ F (M3.ofMandel c [s 0, s 1, s 2, s 3, s 4, s 5]) L (M3.ofMandel c (act (Gen.N3_C_TAU_JAUMANN__ABAQUS_r c c3 fn (matOf (Gen.N3_ABAQUS__SPATIAL_MODULI_r c c3 fn D (tensv F0) (tensv F) s)) (tensv F0) (tensv F) s) (M3.mandel3 c (symm L)))))
+      = upper (lamJ F (M3.ofMandel c [s 0, s 1, s 2, s 3, s 4, s 5]) L (M3.ofMandel c (act (Gen.N3_C_TAU_JAUMANN__SPATIAL_MODULI_r c c3 fn D (tensv F0) (tensv F) s) (M3.mandel3 c (symm L))))) := by
+  refine (PropsN3_C_TAU_JAUMANN__ABAQUS.N3_C_TAU_JAUMANN__ABAQUS c c3 fn hc h2 ..).trans ?_
+  refine (PropsN3_ABAQUS__SPATIAL_MODULI.N3_ABAQUS__SPATIAL_MODULI c c3 fn hc h2 (hJ := hJ) ..).trans ?_
+  exact (PropsN3_C_TAU_JAUMANN__SPATIAL_MODULI.N3_C_TAU_JAUMANN__SPATIAL_MODULI c c3 fn hc h2 ..).symm
+
+/-- conversions compose: `C_TAU_JAUMANN ← ABAQUS ← DTAU_DF` acts as the direct `C_TAU_JAUMANN ← DTAU_DF`, for every variation. -/
+theorem N3_compose_C_TAU_JAUMANN__ABAQUS__DTAU_DF (hc : c * c = 2) (h2 : (2:K) ≠ 0)
+    (D : Nat → Nat → K) (F0 F : M3 K) (l00 l11 l22 l01 l02 l12 : K) (s : Nat → K) (hJ : F.det ≠ 0) :
+    upper (lamJ F (M3.ofMandel c [s 0, s 1, s 2, s 3, s 4, s 5]) (M3.sym l00 l11 l22 l01 l02 l12) (M3.ofMandel c (act (Gen.N3_C_TAU_JAUMANN__ABAQUS_r c c3 fn (matOf (Gen.N3_ABAQUS__DTAU_DF_r c c3 fn D (tensv F0) (tensv F) s)) (tensv F0) (tensv F) s) (M3.mandel3 c (symm (M3.sym l00 l11 l22 l01 l02 l12))))))
+      = upper (lamJ F (M3.ofMandel c [s 0, s 1, s 2, s 3, s 4, s 5]) (M3.sym l00 l11 l22 l01 l02 l12) (M3.ofMandel c (act (Gen.N3_C_TAU_JAUMANN__DTAU_DF_r c c3 fn D (tensv F0) (tensv F) s) (M3.mandel3 c (symm (M3.sym l00 l11 l22 l01 l02 l12)))))) := by
+  refine (PropsN3_C_TAU_JAUMANN__ABAQUS.N3_C_TAU_JAUMANN__ABAQUS c c3 fn hc h2 ..).trans ?_
+  refine (PropsN3_ABAQUS__DTAU_DF.N3_ABAQUS__DTAU_DF c c3 fn hc h2 (hJ := hJ) ..).trans ?_
+  exact (PropsN3_C_TAU_JAUMANN__DTAU_DF.N3_C_TAU_JAUMANN__DTAU_DF c c3 fn hc h2 ..).symm
+
+/-- conversions compose: `C_TAU_JAUMANN ← SPATIAL_MODULI ← ABAQUS` acts as the direct `C_TAU_JAUMANN ← ABAQUS`, for every variation. -/
+theorem N3_compose_C_TAU_JAUMANN__SPATIAL_MODULI__ABAQUS (hc : c * c = 2) (h2 : (2:K) ≠ 0)
+    (D : Nat → Nat → K) (F0 F : M3 K) (L : M3 K) (s : Nat → K)  :
+    upper (lamJ F (M3.ofMandel c [s 0, s 1, s 2, s 3, s 4, s 5]) L (M3.ofMandel c (act (Gen.N3_C_TAU_JAUMANN__SPATIAL_MODULI_r c c3 fn (matOf (Gen.N3_SPATIAL_MODULI__ABAQUS_r c c3 fn D (tensv F0) (tensv F) s)) (tensv F0) (tensv F) s) (M3.mandel3 c (symm L)))))
+      = upper (lamJ F (M3.ofMandel c [s 0, s 1, s 2, s 3, s 4, s 5]) L (M3.ofMandel c (act (Gen.N3_C_TAU_JAUMANN__ABAQUS_r c c3 fn D (tensv F0) (tensv F) s) (M3.mandel3 c (symm L))))) := by
+  refine (PropsN3_C_TAU_JAUMANN__SPATIAL_MODULI.N3_C_TAU_JAUMANN__SPATIAL_MODULI c c3 fn hc h2 ..).trans ?_
+  refine (PropsN3_SPATIAL_MODULI__ABAQUS.N3_SPATIAL_MODULI__ABAQUS c c3 fn hc h2 ..).trans ?_
+  exact (PropsN3_C_TAU_JAUMANN__ABAQUS.N3_C_TAU_JAUMANN__ABAQUS c c3 fn hc h2 ..).symm
+
+/-- conversions compose: `C_TAU_JAUMANN ← SPATIAL_MODULI ← DTAU_DF` acts as the direct `C_TAU_JAUMANN ← DTAU_DF`, for every variation. -/
+theorem N3_compose_C_TAU_JAUMANN__SPATIAL_MODULI__DTAU_DF (hc : c * c = 2) (h2 : (2:K) ≠ 0)
+    (D : Nat → Nat → K) (F0 F : M3 K) (l00 l11 l22 l01 l02 l12 : K) (s : Nat → K)  :
+    upper (lamJ F (M3.ofMandel c [s 0, s 1, s 2, s 3, s 4, s 5]) (M3.sym l00 l11 l22 l01 l02 l12) (M3.ofMandel c (act (Gen.N3_C_TAU_JAUMANN__SPATIAL_MODULI_r c c3 fn (matOf (Gen.N3_SPATIAL_MODULI__DTAU_DF_r c c3 fn D (tensv F0) (tensv F) s)) (tensv F0) (tensv F) s) (M3.mandel3 c (symm (M3.sym l00 l11 l22 l01 l02 l12))))))
+      = upper (lamJ F (M3.ofMandel c [s 0, s 1, s 2, s 3, s 4, s 5]) (M3.sym l00 l11 l22 l01 l02 l12) (M3.ofMandel c (act (Gen.N3_C_TAU_JAUMANN__DTAU_DF_r c c3 fn D (tensv F0) (tensv F) s) (M3.mandel3 c (symm (M3.sym l00 l11 l22 l01 l02 l12)))))) := by
+  refine (PropsN3_C_TAU_JAUMANN__SPATIAL_MODULI.N3_C_TAU_JAUMANN__SPATIAL_MODULI c c3 fn hc h2 ..).trans ?_
+  refine (PropsN3Chains.N3_SPATIAL_MODULI__DTAU_DF c c3 fn hc h2 ..).trans ?_
+  exact (PropsN3_C_TAU_JAUMANN__DTAU_DF.N3_C_TAU_JAUMANN__DTAU_DF c c3 fn hc h2 ..).symm
+
+/-- conversions compose: `SPATIAL_MODULI ← C_TAU_JAUMANN ← DTAU_DF` acts as the direct `SPATIAL_MODULI ← DTAU_DF`, for every variation. -/
+theorem N3_compose_SPATIAL_MODULI__C_TAU_JAUMANN__DTAU_DF (hc : c * c = 2) (h2 : (2:K) ≠ 0)
+    (D : Nat → Nat → K) (F0 F : M3 K) (l00 l11 l22 l01 l02 l12 : K) (s : Nat → K)  :
+    upper (lamSM F (M3.ofMandel c [s 0, s 1, s 2, s 3, s 4, s 5]) (M3.sym l00 l11 l22 l01 l02 l12) (M3.ofMandel c (act (Gen.N3_SPATIAL_MODULI__C_TAU_JAUMANN_r c c3 fn (matOf (Gen.N3_C_TAU_JAUMANN__DTAU_DF_r c c3 fn D (tensv F0) (tensv F) s)) (tensv F0) (tensv F) s) (M3.mandel3 c (symm (M3.sym l00 l11 l22 l01 l02 l12))))))
+      = upper (lamSM F (M3.ofMandel c [s 0, s 1, s 2, s 3, s 4, s 5]) (M3.sym l00 l11 l22 l01 l02 l12) (M3.ofMandel c (act (Gen.N3_SPATIAL_MODULI__DTAU_DF_r c c3 fn D (tensv F0) (tensv F) s) (M3.mandel3 c (symm (M3.sym l00 l11 l22 l01 l02 l12)))))) := by
+  refine (PropsN3_SPATIAL_MODULI__C_TAU_JAUMANN.N3_SPATIAL_MODULI__C_TAU_JAUMANN c c3 fn hc h2 ..).trans ?_
+  refine (PropsN3_C_TAU_JAUMANN__DTAU_DF.N3_C_TAU_JAUMANN__DTAU_DF c c3 fn hc h2 ..).trans ?_
+  exact (PropsN3Chains.N3_SPATIAL_MODULI__DTAU_DF c c3 fn hc h2 ..).symm
+
+/-- conversions compose: `SPATIAL_MODULI ← C_TAU_JAUMANN ← ABAQUS` acts as the direct `SPATIAL_MODULI ← ABAQUS`, for every variation. -/
+theorem N3_compose_SPATIAL_MODULI__C_TAU_JAUMANN__ABAQUS (hc : c * c = 2) (h2 : (2:K) ≠ 0)
+    (D : Nat → Nat → K) (F0 F : M3 K) (L : M3 K) (s : Nat → K)  :
+    upper (lamSM F (M3.ofMandel c [s 0, s 1, s 2, s 3, s 4, s 5]) L (M3.ofMandel c (act (Gen.N3_SPATIAL_MODULI__C_TAU_JAUMANN_r c c3 fn (matOf (Gen.N3_C_TAU_JAUMANN__ABAQUS_r c c3 fn D (tensv F0) (tensv F) s)) (tensv F0) (tensv F) s) (M3.mandel3 c (symm L)))))
+      = upper (lamSM F (M3.ofMandel c [s 0, s 1, s 2, s 3, s 4, s 5]) L (M3.ofMandel c (act (Gen.N3_SPATIAL_MODULI__ABAQUS_r c c3 fn D (tensv F0) (tensv F) s) (M3.mandel3 c (symm L))))) := by
+  refine (PropsN3_SPATIAL_MODULI__C_TAU_JAUMANN.N3_SPATIAL_MODULI__C_TAU_JAUMANN c c3 fn hc h2 ..).trans ?_
+  refine (PropsN3_C_TAU_JAUMANN__ABAQUS.N3_C_TAU_JAUMANN__ABAQUS c c3 fn hc h2 ..).trans ?_
+  exact (PropsN3_SPATIAL_MODULI__ABAQUS.N3_SPATIAL_MODULI__ABAQUS c c3 fn hc h2 ..).symm
+
+/-- conversions compose: `ABAQUS ← DTAU_DF ← C_TAU_JAUMANN` acts as the direct `ABAQUS ← C_TAU_JAUMANN`, for every variation. -/
+theorem N3_compose_ABAQUS__DTAU_DF__C_TAU_JAUMANN (hc : c * c = 2) (h2 : (2:K) ≠ 0)
+    (D : Nat → Nat → K) (F0 F : M3 K) (l00 l11 l22 l01 l02 l12 : K) (s : Nat → K) (hJ : F.det ≠ 0) :
+    upper (lamAb F (M3.ofMandel c [s 0, s 1, s 2, s 3, s 4, s 5]) (M3.sym l00 l11 l22 l01 l02 l12) (M3.ofMandel c (act (Gen.N3_ABAQUS__DTAU_DF_r c c3 fn (matOf (Gen.N3_DTAU_DF__C_TAU_JAUMANN_r c c3 fn D (tensv F0) (tensv F) s)) (tensv F0) (tensv F) s) (M3.mandel3 c (symm (M3.sym l00 l11 l22 l01 l02 l12))))))
+      = upper (lamAb F (M3.ofMandel c [s 0, s 1, s 2, s 3, s 4, s 5]) (M3.sym l00 l11 l22 l01 l02 l12) (M3.ofMandel c (act (Gen.N3_ABAQUS__C_TAU_JAUMANN_r c c3 fn D (tensv F0) (tensv F) s) (M3.mandel3 c (symm (M3.sym l00 l11 l22 l01 l02 l12)))))) := by
+  refine (PropsN3_ABAQUS__DTAU_DF.N3_ABAQUS__DTAU_DF c c3 fn hc h2 (hJ := hJ) ..).trans ?_
+  refine (PropsN3_DTAU_DF__C_TAU_JAUMANN.N3_DTAU_DF__C_TAU_JAUMANN c c3 fn hc h2 (hJ := hJ) ..).trans ?_
+  exact (PropsN3_ABAQUS__C_TAU_JAUMANN.N3_ABAQUS__C_TAU_JAUMANN c c3 fn hc h2 (hJ := hJ) ..).symm
+
+/-- conversions compose: `ABAQUS ← DTAU_DF ← SPATIAL_MODULI` acts as the direct `ABAQUS ← SPATIAL_MODULI`, for every variation. -/
+theorem N3_compose_ABAQUS__DTAU_DF__SPATIAL_MODULI (hc : c * c = 2) (h2 : (2:K) ≠ 0)
+    (D : Nat → Nat → K) (F0 F : M3 K) (l00 l11 l22 l01 l02 l12 : K) (s : Nat → K) (hJ : F.det ≠ 0) :
+    upper (lamAb F (M3.ofMandel c [s 0, s 1, s 2, s 3, s 4, s 5]) (M3.sym l00 l11 l22 l01 l02 l12) (M3.ofMandel c (act (Gen.N3_ABAQUS__DTAU_DF_r c c3 fn (matOf (Gen.N3_DTAU_DF__SPATIAL_MODULI_r c c3 fn D (tensv F0) (tensv F) s)) (tensv F0) (tensv F) s) (M3.mandel3 c (symm (M3.sym l00 l11 l22 l01 l02 l12))))))
+      = upper (lamAb F (M3.ofMandel c [s 0, s 1, s 2, s 3, s 4, s 5]) (M3.sym l00 l11 l22 l01 l02 l12) (M3.ofMandel c (act (Gen.N3_ABAQUS__SPATIAL_MODULI_r c c3 fn D (tensv F0) (tensv F) s) (M3.mandel3 c (symm (M3.sym l00 l11 l22 l01 l02 l12)))))) := by
+  refine (PropsN3_ABAQUS__DTAU_DF.N3_ABAQUS__DTAU_DF c c3 fn hc h2 (hJ := hJ) ..).trans ?_
+  refine (PropsN3Chains.N3_DTAU_DF__SPATIAL_MODULI c c3 fn hc h2 (hJ := hJ) ..).trans ?_
+  exact (PropsN3_ABAQUS__SPATIAL_MODULI.N3_ABAQUS__SPATIAL_MODULI c c3 fn hc h2 (hJ := hJ) ..).symm
+
+/-- conversions compose: `DTAU_DF ← C_TAU_JAUMANN ← ABAQUS` acts as the direct `DTAU_DF ← ABAQUS`, for every variation. -/
+theorem N3_compose_DTAU_DF__C_TAU_JAUMANN__ABAQUS (hc : c * c = 2) (h2 : (2:K) ≠ 0)
+    (D : Nat → Nat → K) (F0 F : M3 K) (L : M3 K) (s : Nat → K) (hJ : F.det ≠ 0) :
+    upper (lamTau F (M3.ofMandel c [s 0, s 1, s 2, s 3, s 4, s 5]) L (M3.ofMandel c (act (Gen.N3_DTAU_DF__C_TAU_JAUMANN_r c c3 fn (matOf (Gen.N3_C_TAU_JAUMANN__ABAQUS_r c c3 fn D (tensv F0) (tensv F) s)) (tensv F0) (tensv F) s) (M3.tens3 (L * F)))))
+      = upper (lamTau F (M3.ofMandel c [s 0, s 1, s 2, s 3, s 4, s 5]) L (M3.ofMandel c (act (Gen.N3_DTAU_DF__ABAQUS_r c c3 fn D (tensv F0) (tensv F) s) (M3.tens3 (L * F))))) := by
+  refine (PropsN3_DTAU_DF__C_TAU_JAUMANN.N3_DTAU_DF__C_TAU_JAUMANN c c3 fn hc h2 (hJ := hJ) ..).trans ?_
+  refine (PropsN3_C_TAU_JAUMANN__ABAQUS.N3_C_TAU_JAUMANN__ABAQUS c c3 fn hc h2 ..).trans ?_
+  exact (PropsN3_DTAU_DF__ABAQUS.N3_DTAU_DF__ABAQUS c c3 fn hc h2 (hJ := hJ) ..).symm
+
+/-- conversions compose: `DTAU_DF ← C_TAU_JAUMANN ← SPATIAL_MODULI` acts as the direct `DTAU_DF ← SPATIAL_MODULI`, for every variation. -/
+theorem N3_compose_DTAU_DF__C_TAU_JAUMANN__SPATIAL_MODULI (hc : c * c = 2) (h2 : (2:K) ≠ 0)
+    (D : Nat → Nat → K) (F0 F : M3 K) (L : M3 K) (s : Nat → K) (hJ : F.det ≠ 0) :
+    upper (lamTau F (M3.ofMandel c [s 0, s 1, s 2, s 3, s 4, s 5]) L (M3.ofMandel c (act (Gen.N3_DTAU_DF__C_TAU_JAUMANN_r c c3 fn (matOf (Gen.N3_C_TAU_JAUMANN__SPATIAL_MODULI_r c c3 fn D (tensv F0) (tensv F) s)) (tensv F0) (tensv F) s) (M3.tens3 (L * F)))))
+      = upper (lamTau F (M3.ofMandel c [s 0, s 1, s 2, s 3, s 4, s 5]) L (M3.ofMandel c (act (Gen.N3_DTAU_DF__SPATIAL_MODULI_r c c3 fn D (tensv F0) (tensv F) s) (M3.tens3 (L * F))))) := by
+  refine (PropsN3_DTAU_DF__C_TAU_JAUMANN.N3_DTAU_DF__C_TAU_JAUMANN c c3 fn hc h2 (hJ := hJ) ..).trans ?_
+  refine (PropsN3_C_TAU_JAUMANN__SPATIAL_MODULI.N3_C_TAU_JAUMANN__SPATIAL_MODULI c c3 fn hc h2 ..).trans ?_
+  exact (PropsN3Chains.N3_DTAU_DF__SPATIAL_MODULI c c3 fn hc h2 (hJ := hJ) ..).symm
+
+/-- conversions compose: `DTAU_DF ← ABAQUS ← SPATIAL_MODULI` acts as the direct `DTAU_DF ← SPATIAL_MODULI`, for every variation. -/
+theorem N3_compose_DTAU_DF__ABAQUS__SPATIAL_MODULI (hc : c * c = 2) (h2 : (2:K) ≠ 0)
+    (D : Nat → Nat → K) (F0 F : M3 K) (L : M3 K) (s : Nat → K) (hJ : F.det ≠ 0) :
+    upper (lamTau F (M3.ofMandel c [s 0, s 1, s 2, s 3, s 4, s 5]) L (M3.ofMandel c (act (Gen.N3_DTAU_DF__ABAQUS_r c c3 fn (matOf (Gen.N3_ABAQUS__SPATIAL_MODULI_r c c3 fn D (tensv F0) (tensv F) s)) (tensv F0) (tensv F) s) (M3.tens3 (L * F)))))
+      = upper (lamTau F (M3.ofMandel c [s 0, s 1, s 2, s 3, s 4, s 5]) L (M3.ofMandel c (act (Gen.N3_DTAU_DF__SPATIAL_MODULI_r c c3 fn D (tensv F0) (tensv F) s) (M3.tens3 (L * F))))) := by
+  refine (PropsN3_DTAU_DF__ABAQUS.N3_DTAU_DF__ABAQUS c c3 fn hc h2 (hJ := hJ) ..).trans ?_
+  refine (PropsN3_ABAQUS__SPATIAL_MODULI.N3_ABAQUS__SPATIAL_MODULI c c3 fn hc h2 (hJ := hJ) ..).trans ?_
+  exact (PropsN3Chains.N3_DTAU_DF__SPATIAL_MODULI c c3 fn hc h2 (hJ := hJ) ..).symm
+
+/-- conversions compose: `DTAU_DF ← ABAQUS ← C_TAU_JAUMANN` acts as the direct `DTAU_DF ← C_TAU_JAUMANN`, for every variation. -/
+theorem N3_compose_DTAU_DF__ABAQUS__C_TAU_JAUMANN (hc : c * c = 2) (h2 : (2:K) ≠ 0)
+    (D : Nat → Nat → K) (F0 F : M3 K) (L : M3 K) (s : Nat → K) (hJ : F.det ≠ 0) :
+    upper (lamTau F (M3.ofMandel c [s 0, s 1, s 2, s 3, s 4, s 5]) L (M3.ofMandel c (act (Gen.N3_DTAU_DF__ABAQUS_r c c3 fn (matOf (Gen.N3_ABAQUS__C_TAU_JAUMANN_r c c3 fn D (tensv F0) (tensv F) s)) (tensv F0) (tensv F) s) (M3.tens3 (L * F)))))
+      = upper (lamTau F (M3.ofMandel c [s 0, s 1, s 2, s 3, s 4, s 5]) L (M3.ofMandel c (act (Gen.N3_DTAU_DF__C_TAU_JAUMANN_r c c3 fn D (tensv F0) (tensv F) s) (M3.tens3 (L * F))))) := by
+  refine (PropsN3_DTAU_DF__ABAQUS.N3_DTAU_DF__ABAQUS c c3 fn hc h2 (hJ := hJ) ..).trans ?_
+  refine (PropsN3_ABAQUS__C_TAU_JAUMANN.N3_ABAQUS__C_TAU_JAUMANN c c3 fn hc h2 (hJ := hJ) ..).trans ?_
+  exact (PropsN3_DTAU_DF__C_TAU_JAUMANN.N3_DTAU_DF__C_TAU_JAUMANN c c3 fn hc h2 (hJ := hJ) ..).symm
+
+/-- conversions compose: `DTAU_DF ← SPATIAL_MODULI ← ABAQUS` acts as the direct `DTAU_DF ← ABAQUS`, for every variation. -/
+theorem N3_compose_DTAU_DF__SPATIAL_MODULI__ABAQUS (hc : c * c = 2) (h2 : (2:K) ≠ 0)
+    (D : Nat → Nat → K) (F0 F : M3 K) (L : M3 K) (s : Nat → K) (hJ : F.det ≠ 0) :
+    upper (lamTau F (M3.ofMandel c [s 0, s 1, s 2, s 3, s 4, s 5]) L (M3.ofMandel c (act (Gen.N3_DTAU_DF__SPATIAL_MODULI_r c c3 fn (matOf (Gen.N3_SPATIAL_MODULI__ABAQUS_r c c3 fn D (tensv F0) (tensv F) s)) (tensv F0) (tensv F) s) (M3.tens3 (L * F)))))
+      = upper (lamTau F (M3.ofMandel c [s 0, s 1, s 2, s 3, s 4, s 5]) L (M3.ofMandel c (act (Gen.N3_DTAU_DF__ABAQUS_r c c3 fn D (tensv F0) (tensv F) s) (M3.tens3 (L * F))))) := by
+  refine (PropsN3Chains.N3_DTAU_DF__SPATIAL_MODULI c c3 fn hc h2 (hJ := hJ) ..).trans ?_
+  refine (PropsN3_SPATIAL_MODULI__ABAQUS.N3_SPATIAL_MODULI__ABAQUS c c3 fn hc h2 ..).trans ?_
+  exact (PropsN3_DTAU_DF__ABAQUS.N3_DTAU_DF__ABAQUS c c3 fn hc h2 (hJ := hJ) ..).symm
+
+/-- conversions compose: `DTAU_DF ← SPATIAL_MODULI ← C_TAU_JAUMANN` acts as the direct `DTAU_DF ← C_TAU_JAUMANN`, for every variation. -/
+theorem N3_compose_DTAU_DF__SPATIAL_MODULI__C_TAU_JAUMANN (hc : c * c = 2) (h2 : (2:K) ≠ 0)
+    (D : Nat → Nat → K) (F0 F : M3 K) (L : M3 K) (s : Nat → K) (hJ : F.det ≠ 0) :
+    upper (lamTau F (M3.ofMandel c [s 0, s 1, s 2, s 3, s 4, s 5]) L (M3.ofMandel c (act (Gen.N3_DTAU_DF__SPATIAL_MODULI_r c c3 fn (matOf (Gen.N3_SPATIAL_MODULI__C_TAU_JAUMANN_r c c3 fn D (tensv F0) (tensv F) s)) (tensv F0) (tensv F) s) (M3.tens3 (L * F)))))
+      = upper (lamTau F (M3.ofMandel c [s 0, s 1, s 2, s 3, s 4, s 5]) L (M3.ofMandel c (act (Gen.N3_DTAU_DF__C_TAU_JAUMANN_r c c3 fn D (tensv F0) (tensv F) s) (M3.tens3 (L * F))))) := by
+  refine (PropsN3Chains.N3_DTAU_DF__SPATIAL_MODULI c c3 fn hc h2 (hJ := hJ) ..).trans ?_
+  refine (PropsN3_SPATIAL_MODULI__C_TAU_JAUMANN.N3_SPATIAL_MODULI__C_TAU_JAUMANN c c3 fn hc h2 ..).trans ?_
+  exact (PropsN3_DTAU_DF__C_TAU_JAUMANN.N3_DTAU_DF__C_TAU_JAUMANN c c3 fn hc h2 (hJ := hJ) ..).symm
+
+/-- conversions compose: `DSIG_DF ← ABAQUS ← DS_DEGL` acts as the direct `DSIG_DF ← DS_DEGL`, for every variation. -/
+theorem N3_compose_DSIG_DF__ABAQUS__DS_DEGL (hc : c * c = 2) (h2 : (2:K) ≠ 0)
+    (D : Nat → Nat → K) (F0 F : M3 K) (L : M3 K) (s : Nat → K) (hJ : F.det ≠ 0) :
+    upper (lamSig F (M3.ofMandel c [s 0, s 1, s 2, s 3, s 4, s 5]) L (M3.ofMandel c (act (Gen.N3_DSIG_DF__ABAQUS_r c c3 fn (matOf (Gen.N3_ABAQUS__DS_DEGL_r c c3 fn D (tensv F0) (tensv F) s)) (tensv F0) (tensv F) s) (M3.tens3 (L * F)))))
+      = upper (lamSig F (M3.ofMandel c [s 0, s 1, s 2, s 3, s 4, s 5]) L (M3.ofMandel c (act (Gen.N3_DSIG_DF__DS_DEGL_r c c3 fn D (tensv F0) (tensv F) s) (M3.tens3 (L * F))))) := by
+  refine (PropsN3Chains.N3_DSIG_DF__ABAQUS c c3 fn hc h2 (hJ := hJ) ..).trans ?_
+  refine (PropsN3Chains.N3_ABAQUS__DS_DEGL c c3 fn hc h2 (hJ := hJ) ..).trans ?_
+  exact (PropsN3Chains.N3_DSIG_DF__DS_DEGL c c3 fn hc h2 (hJ := hJ) ..).symm
+
+/-- conversions compose: `DSIG_DF ← ABAQUS ← DTAU_DF` acts as the direct `DSIG_DF ← DTAU_DF`, for every variation. -/
+theorem N3_compose_DSIG_DF__ABAQUS__DTAU_DF (hc : c * c = 2) (h2 : (2:K) ≠ 0)
+    (D : Nat → Nat → K) (F0 F : M3 K) (l00 l11 l22 l01 l02 l12 : K) (s : Nat → K) (hJ : F.det ≠ 0) :
+    upper (lamSig F (M3.ofMandel c [s 0, s 1, s 2, s 3, s 4, s 5]) (M3.sym l00 l11 l22 l01 l02 l12) (M3.ofMandel c (act (Gen.N3_DSIG_DF__ABAQUS_r c c3 fn (matOf (Gen.N3_ABAQUS__DTAU_DF_r c c3 fn D (tensv F0) (tensv F) s)) (tensv F0) (tensv F) s) (M3.tens3 ((M3.sym l00 l11 l22 l01 l02 l12) * F)))))
+      = upper (lamSig F (M3.ofMandel c [s 0, s 1, s 2, s 3, s 4, s 5]) (M3.sym l00 l11 l22 l01 l02 l12) (M3.ofMandel c (act (Gen.N3_DSIG_DF__DTAU_DF_r c c3 fn D (tensv F0) (tensv F) s) (M3.tens3 ((M3.sym l00 l11 l22 l01 l02 l12) * F))))) := by
+  refine (PropsN3Chains.N3_DSIG_DF__ABAQUS c c3 fn hc h2 (hJ := hJ) ..).trans ?_
+  refine (PropsN3_ABAQUS__DTAU_DF.N3_ABAQUS__DTAU_DF c c3 fn hc h2 (hJ := hJ) ..).trans ?_
+  exact (PropsN3_DSIG_DF__DTAU_DF.N3_DSIG_DF__DTAU_DF c c3 fn hc h2 (hJ := hJ) ..).symm
+
+end TfelVerif.C23.PropsCompose3
